@@ -58,3 +58,4357 @@ Proof.
     apply (@exists_last _ (f :: l)) in Hne. destruct Hne as [l' [x Hx]]. rewrite Hx.
     rewrite last_last. apply in_or_app. right. left. reflexivity.
 Qed.
+
+(** ** names: decidable equality *)
+
+Lemma dname_eqb_eq : forall a b, dname_eqb a b = true <-> a = b.
+Proof.
+  intros [x | x | x] [y | y | y]; cbn; split; intro H; try discriminate; try congruence.
+  - apply Nat.eqb_eq in H. congruence.
+  - inversion H. apply Nat.eqb_refl.
+  - apply N.eqb_eq in H. congruence.
+  - inversion H. apply N.eqb_refl.
+  - apply N.eqb_eq in H. congruence.
+  - inversion H. apply N.eqb_refl.
+Qed.
+Lemma dname_eqb_refl : forall a, dname_eqb a a = true.
+Proof. intro a. apply dname_eqb_eq. reflexivity. Qed.
+Lemma dname_eqb_neq : forall a b, a <> b -> dname_eqb a b = false.
+Proof. intros a b H. destruct (dname_eqb a b) eqn:E; [apply dname_eqb_eq in E; contradiction | reflexivity]. Qed.
+Lemma dname_eqb_sym : forall a b, dname_eqb a b = dname_eqb b a.
+Proof.
+  intros a b. destruct (dname_eqb a b) eqn:E.
+  - apply dname_eqb_eq in E. subst. symmetry. apply dname_eqb_refl.
+  - symmetry. apply dname_eqb_neq. intro H. subst. rewrite dname_eqb_refl in E. discriminate.
+Qed.
+Lemma dname_dec : forall a b : dname, {a = b} + {a <> b}.
+Proof. intros a b. destruct (dname_eqb a b) eqn:E; [left; apply dname_eqb_eq; assumption | right; intro H; subst; rewrite dname_eqb_refl in E; discriminate]. Qed.
+
+Lemma name_eqb_eq : forall a b, name_eqb a b = true <-> a = b.
+Proof.
+  intros [x | x | x | | |] [y | y | y | | |]; cbn; split; intro H; try discriminate; try congruence;
+    try (apply dname_eqb_eq in H; congruence); try (inversion H; apply dname_eqb_refl).
+Qed.
+Lemma name_eqb_refl : forall a, name_eqb a a = true.
+Proof. intro a. apply name_eqb_eq. reflexivity. Qed.
+Lemma name_eqb_neq : forall a b, a <> b -> name_eqb a b = false.
+Proof. intros a b H. destruct (name_eqb a b) eqn:E; [apply name_eqb_eq in E; contradiction | reflexivity]. Qed.
+
+Lemma odname_eqb_eq : forall a b, odname_eqb a b = true <-> a = b.
+Proof.
+  intros [x |] [y |]; cbn; split; intro H; try discriminate; try congruence.
+  - apply dname_eqb_eq in H. congruence.
+  - inversion H. apply dname_eqb_refl.
+Qed.
+Lemma odname_eqb_refl : forall a, odname_eqb a a = true.
+Proof. intro a. apply odname_eqb_eq. reflexivity. Qed.
+Lemma odname_eqb_neq : forall a b, a <> b -> odname_eqb a b = false.
+Proof. intros a b H. destruct (odname_eqb a b) eqn:E; [apply odname_eqb_eq in E; contradiction | reflexivity]. Qed.
+
+Lemma updf_eq : forall f a v, updf f a v a = v.
+Proof. intros. unfold updf. rewrite name_eqb_refl. reflexivity. Qed.
+Lemma updf_neq : forall f a v b, a <> b -> updf f a v b = f b.
+Proof. intros. unfold updf. rewrite name_eqb_neq by assumption. reflexivity. Qed.
+Lemma updd_eq : forall f a v, updd f a v a = v.
+Proof. intros. unfold updd. rewrite dname_eqb_refl. reflexivity. Qed.
+Lemma updd_neq : forall f a v b, a <> b -> updd f a v b = f b.
+Proof. intros. unfold updd. rewrite dname_eqb_neq by assumption. reflexivity. Qed.
+Lemma updc_eq : forall f a v, updc f a v a = v.
+Proof. intros. unfold updc. rewrite odname_eqb_refl. reflexivity. Qed.
+Lemma updc_neq : forall f a v b, a <> b -> updc f a v b = f b.
+Proof. intros. unfold updc. rewrite odname_eqb_neq by assumption. reflexivity. Qed.
+
+(** ** fault-free semantics *)
+
+Fixpoint ff {A} (p : prog A) (w : fs) : fs * outcome A :=
+  match p with
+  | Ret a => (w, Done a)
+  | Abort e => (w, Aborted e)
+  | Do c k => let '(w1, r) := apply_call w c in ff (k r) w1
+  end.
+
+Lemma exec_ff : forall A (p : prog A) w cnt,
+  dir_of_run (exec p w cnt None None) = fst (ff p w) /\ out_of_run (exec p w cnt None None) = snd (ff p w).
+Proof.
+  induction p as [a | e | c k IH]; intros w cnt; cbn; auto.
+  destruct (apply_call w c) as [w1 r]. specialize (IH r w1 (S cnt)).
+  destruct (exec (k r) w1 (S cnt) None None) as [[w2 t] o]. exact IH.
+Qed.
+
+Lemma ff_bind : forall A B (p : prog A) (f : A -> prog B) w,
+  ff (bind p f) w = match ff p w with
+                    | (w1, Done a) => ff (f a) w1
+                    | (w1, Crashed) => (w1, Crashed)
+                    | (w1, Aborted e) => (w1, Aborted e)
+                    end.
+Proof.
+  induction p as [a | e | c k IH]; intros f w; cbn.
+  - destruct (ff (f a) w) as [w1 o]. reflexivity.
+  - reflexivity.
+  - destruct (apply_call w c) as [w1 r]. apply IH.
+Qed.
+
+Lemma states_nonempty : forall A (p : prog A) w, states p w <> [].
+Proof. intros A p w. destruct p; discriminate. Qed.
+Lemma states_head : forall A (p : prog A) w, exists l, states p w = w :: l.
+Proof. intros A p w. destruct p; cbn; eauto. Qed.
+
+Lemma states_last_ff : forall A (p : prog A) w d, last (states p w) d = fst (ff p w).
+Proof.
+  induction p as [a | e | c k IH]; intros w d; cbn [states ff]; try reflexivity.
+  destruct (apply_call w c) as [w1 r]. specialize (IH r w1 d).
+  destruct (states_head _ (k r) w1) as [l Hl]. rewrite Hl in *. cbn [last] in *. exact IH.
+Qed.
+
+(** every state of [bind p f] is a state of [p], or a state of the continuation started where
+    [p] ended *)
+Lemma states_bind_in : forall A B (p : prog A) (f : A -> prog B) w x,
+  In x (states (bind p f) w) ->
+  In x (states p w) \/ exists a, snd (ff p w) = Done a /\ In x (states (f a) (fst (ff p w))).
+Proof.
+  induction p as [a | e | c k IH]; intros f w x Hin.
+  - right. exists a. cbn. auto.
+  - left. exact Hin.
+  - cbn [bind] in Hin. rewrite states_Do in Hin. rewrite states_Do. cbn [ff].
+    destruct (apply_call w c) as [w1 r]. destruct Hin as [Heq | Hin].
+    + left. left. exact Heq.
+    + apply IH in Hin. destruct Hin as [Hin | Hin]; [left; right; exact Hin | right; exact Hin].
+Qed.
+
+Lemma Forall_states_bind : forall A B (P : fs -> Prop) (p : prog A) (f : A -> prog B) w,
+  Forall P (states p w) ->
+  (forall a, snd (ff p w) = Done a -> Forall P (states (f a) (fst (ff p w)))) ->
+  Forall P (states (bind p f) w).
+Proof.
+  intros A B P p f w Hp Hf. apply Forall_forall. intros x Hin.
+  apply states_bind_in in Hin. destruct Hin as [Hin | [a [Ha Hin]]].
+  - eapply Forall_forall in Hp; eauto.
+  - specialize (Hf a Ha). eapply Forall_forall in Hf; eauto.
+Qed.
+
+(** ** a static footprint: the names a call can change *)
+
+Definition may_write (c : call) : list name :=
+  match c with
+  | COpenTrunc n | COpenCreatTrunc n | COpenCreat n | CWriteAll n _ | CUnlink n | CPwriteImg n => [n]
+  | CRename a b => [a; b]
+  | CLink _ b => [b]
+  | CPwriteCounter _ => [Counter]
+  | _ => []
+  end.
+
+Lemma apply_call_frame : forall w c n, ~ In n (may_write c) -> files (fst (apply_call w c)) n = files w n.
+Proof.
+  intros w c n Hn. destruct c; cbn in *;
+    repeat match goal with
+           | |- context [match files ?w ?x with _ => _ end] => destruct (files w x) as [[]|]
+           | |- context [if is_img ?x then _ else _] => destruct (is_img x)
+           | |- context [match ?c with IVol _ => _ | _ => _ end] => destruct c
+           end; cbn; try reflexivity;
+    try (unfold updf; rewrite name_eqb_neq; [reflexivity | intro; subst; apply Hn; auto]).
+  all: unfold updf; repeat rewrite name_eqb_neq; try reflexivity; intro; subst; apply Hn; cbn; auto.
+Qed.
+
+(** the replies a call can get when no fault is injected *)
+Definition possible (c : call) (r : reply) : Prop := exists w, snd (apply_call w c) = r.
+
+(** [within S p]: whatever the (fault-free) replies, [p] only issues calls that change names in [S] *)
+Fixpoint within {A} (S : name -> Prop) (p : prog A) : Prop :=
+  match p with
+  | Do c k => (forall n, In n (may_write c) -> S n) /\ forall r, possible c r -> within S (k r)
+  | _ => True
+  end.
+
+Lemma within_bind : forall A B S (p : prog A) (f : A -> prog B),
+  within S p -> (forall a, within S (f a)) -> within S (bind p f).
+Proof.
+  induction p as [a | e | c k IH]; intros f Hp Hf; cbn [bind within] in *; auto.
+  destruct Hp as [Hc Hk]. split; auto.
+Qed.
+
+Lemma within_weaken : forall A (S T : name -> Prop) (p : prog A),
+  (forall n, S n -> T n) -> within S p -> within T p.
+Proof.
+  induction p as [a | e | c k IH]; intros HST Hp; cbn [within] in *; auto.
+  destruct Hp as [Hc Hk]. split; auto.
+Qed.
+
+Definition only_on (S : name -> Prop) (w w' : fs) : Prop := forall n, ~ S n -> files w' n = files w n.
+
+Lemma only_on_refl : forall S w, only_on S w w.
+Proof. intros S w n _. reflexivity. Qed.
+Lemma only_on_trans : forall S w1 w2 w3, only_on S w1 w2 -> only_on S w2 w3 -> only_on S w1 w3.
+Proof. intros S w1 w2 w3 H1 H2 n Hn. rewrite H2, H1; auto. Qed.
+
+Lemma within_states : forall A S (p : prog A) w, within S p -> Forall (only_on S w) (states p w).
+Proof.
+  induction p as [a | e | c k IH]; intros w Hp; cbn [states].
+  - constructor; [apply only_on_refl | constructor].
+  - constructor; [apply only_on_refl | constructor].
+  - destruct Hp as [Hc Hk]. constructor; [apply only_on_refl |].
+    destruct (apply_call w c) as [w1 r] eqn:Hcall.
+    assert (Hpos : possible c r) by (exists w; rewrite Hcall; reflexivity).
+    specialize (IH r w1 (Hk r Hpos)).
+    eapply Forall_impl; [| exact IH]. intros x Hx.
+    eapply only_on_trans; [| exact Hx].
+    intros n Hn. replace w1 with (fst (apply_call w c)) by (rewrite Hcall; reflexivity).
+    apply apply_call_frame. intro Hin. apply Hn. auto.
+Qed.
+
+Lemma within_ff : forall A S (p : prog A) w, within S p -> only_on S w (fst (ff p w)).
+Proof.
+  intros A S p w Hp. pose proof (within_states A S p w Hp) as H.
+  rewrite <- (states_last_ff A p w w).
+  destruct (states_head A p w) as [l Hl]. rewrite Hl in *.
+  eapply Forall_forall; [exact H |]. 
+  assert (Hne : w :: l <> []) by discriminate.
+  apply (@exists_last _ (w :: l)) in Hne. destruct Hne as [l' [x Hx]]. rewrite Hx.
+  rewrite last_last. apply in_or_app. right. left. reflexivity.
+Qed.
+
+(** ** recovery depends only on the chain's own files *)
+
+Definition names_of_chain (l : list member) : list dname := map mb_name l.
+
+(** the names recovery reads when the chain is [l] *)
+Definition footprint (l : list member) (n : name) : Prop :=
+  n = Vol \/ n = Counter \/ exists d, In d (names_of_chain l) /\ (n = Meta d \/ n = Img d).
+
+Lemma walk_unfold : forall f fuel d,
+  walk f (S fuel) d =
+  match f (Meta d), f (Img d) with
+  | Some (IDisk dk), Some (IImg id _) =>
+      match d_parent dk with
+      | None => Some [mkmember d id dk]
+      | Some p => match walk f fuel p with Some l => Some (mkmember d id dk :: l) | None => None end
+      end
+  | _, _ => None
+  end.
+Proof. reflexivity. Qed.
+
+Lemma walk_frame : forall f f' fuel d l,
+  walk f fuel d = Some l ->
+  (forall x, In x (names_of_chain l) -> f' (Meta x) = f (Meta x) /\ f' (Img x) = f (Img x)) ->
+  walk f' fuel d = Some l.
+Proof.
+  induction fuel as [| fuel IH]; intros d l Hw Hsame; [discriminate |].
+  rewrite walk_unfold in *.
+  destruct (f (Meta d)) as [[| dk | | |] |] eqn:Hm; try discriminate.
+  destruct (f (Img d)) as [[| | id gn | |] |] eqn:Hi; try discriminate.
+  destruct (d_parent dk) as [p |] eqn:Hp.
+  - destruct (walk f fuel p) as [l' |] eqn:Hw'; [| discriminate].
+    inversion Hw; subst l. clear Hw.
+    destruct (Hsame d) as [H1 H2]; [left; reflexivity |]. rewrite H1, H2, Hm, Hi, Hp.
+    rewrite (IH p l' Hw'); [reflexivity |].
+    intros x Hx. apply Hsame. right. exact Hx.
+  - inversion Hw; subst l. destruct (Hsame d) as [H1 H2]; [left; reflexivity |].
+    rewrite H1, H2, Hm, Hi, Hp. reflexivity.
+Qed.
+
+Lemma walk_fuel_mono : forall f fuel fuel' d l, walk f fuel d = Some l -> fuel <= fuel' -> walk f fuel' d = Some l.
+Proof.
+  induction fuel as [| fuel IH]; intros fuel' d l Hw Hle; [discriminate |].
+  destruct fuel' as [| fuel']; [lia |].
+  rewrite walk_unfold in *.
+  destruct (f (Meta d)) as [[| dk | | |] |]; try discriminate.
+  destruct (f (Img d)) as [[| | id gn | |] |]; try discriminate.
+  destruct (d_parent dk) as [p |]; [| exact Hw].
+  destruct (walk f fuel p) as [l' |] eqn:Hw'; [| discriminate].
+  rewrite (IH fuel' p l' Hw'); [exact Hw | lia].
+Qed.
+
+Lemma walk_length : forall f fuel d l, walk f fuel d = Some l -> length l <= fuel /\ 1 <= length l.
+Proof.
+  induction fuel as [| fuel IH]; intros d l Hw; [discriminate |].
+  rewrite walk_unfold in Hw.
+  destruct (f (Meta d)) as [[| dk | | |] |]; try discriminate.
+  destruct (f (Img d)) as [[| | id gn | |] |]; try discriminate.
+  destruct (d_parent dk) as [p |].
+  - destruct (walk f fuel p) as [l' |] eqn:Hw'; [| discriminate].
+    inversion Hw; subst. cbn. destruct (IH p l' Hw'). lia.
+  - inversion Hw; subst. cbn. lia.
+Qed.
+
+(** the list [walk] returns is linked by the Parent fields and each entry is what the files hold *)
+Fixpoint linked (f : name -> option ino) (l : list member) : Prop :=
+  match l with
+  | [] => True
+  | mb :: t =>
+      f (Meta (mb_name mb)) = Some (IDisk (mb_disk mb))
+      /\ (exists gn, f (Img (mb_name mb)) = Some (IImg (mb_id mb) gn))
+      /\ d_parent (mb_disk mb) = match t with y :: _ => Some (mb_name y) | [] => None end
+      /\ linked f t
+  end.
+
+Lemma walk_linked : forall f fuel d l, walk f fuel d = Some l ->
+  linked f l /\ exists mb t, l = mb :: t /\ mb_name mb = d.
+Proof.
+  induction fuel as [| fuel IH]; intros d l Hw; [discriminate |].
+  rewrite walk_unfold in Hw.
+  destruct (f (Meta d)) as [[| dk | | |] |] eqn:Hm; try discriminate.
+  destruct (f (Img d)) as [[| | id gn | |] |] eqn:Hi; try discriminate.
+  destruct (d_parent dk) as [p |] eqn:Hp.
+  - destruct (walk f fuel p) as [l' |] eqn:Hw'; [| discriminate].
+    inversion Hw; subst l. destruct (IH p l' Hw') as [Hl [mb [t [Heq Hn]]]].
+    split; [| eauto]. cbn. repeat split; eauto. subst l'. rewrite Hp, Hn. reflexivity.
+  - inversion Hw; subst l. split; [| eauto]. cbn. repeat split; eauto.
+Qed.
+
+Lemma linked_walk : forall f l fuel, linked f l -> l <> [] -> length l <= fuel ->
+  walk f fuel (match l with mb :: _ => mb_name mb | [] => Head 0 end) = Some l.
+Proof.
+  intros f l. induction l as [| mb t IH]; intros fuel Hl Hne Hlen; [congruence |].
+  destruct fuel as [| fuel]; [cbn in Hlen; lia |].
+  cbn in Hl. destruct Hl as [Hm [[gn Hi] [Hp Ht]]].
+  rewrite walk_unfold, Hm, Hi, Hp.
+  destruct t as [| y t'].
+  - destruct mb; reflexivity.
+  - rewrite (IH fuel Ht); [destruct mb; reflexivity | discriminate | cbn in *; lia].
+Qed.
+
+Lemma linked_frame : forall f f' l, linked f l ->
+  (forall x, In x (names_of_chain l) -> f' (Meta x) = f (Meta x) /\ f' (Img x) = f (Img x)) -> linked f' l.
+Proof.
+  induction l as [| mb t IH]; intros Hl Hs; [exact I |].
+  cbn in *. destruct Hl as [Hm [[gn Hi] [Hp Ht]]].
+  destruct (Hs (mb_name mb)) as [H1 H2]; [left; reflexivity |].
+  rewrite H1, H2. repeat split; eauto.
+Qed.
+
+Lemma recover_frame : forall g w w' v,
+  recover g w = Some v ->
+  (forall n, footprint (cv_chain v) n -> files w' n = files w n) ->
+  recover g w' = Some v.
+Proof.
+  intros g w w' v Hr Hs. unfold recover in *.
+  rewrite (Hs Vol) by (left; reflexivity).
+  destruct (files w Vol) as [[i | | | |] |]; try discriminate.
+  destruct (i_head i) as [h |]; [| discriminate].
+  destruct (walk (files w) (maxlen g) h) as [l |] eqn:Hw; [| discriminate].
+  rewrite (Hs Counter) by (right; left; reflexivity).
+  destruct (files w Counter) as [[| | | c |] |]; try discriminate.
+  inversion Hr; subst v. cbn [cv_chain] in Hs.
+  rewrite (walk_frame _ (files w') _ _ _ Hw); [reflexivity |].
+  intros x Hx. split; apply Hs; right; right; exists x; auto.
+Qed.
+
+Lemma recover_only_on : forall g (S : name -> Prop) w w' v,
+  recover g w = Some v -> only_on S w w' ->
+  (forall n, S n -> ~ footprint (cv_chain v) n) ->
+  recover g w' = Some v.
+Proof.
+  intros g S w w' v Hr Ho Hd. eapply recover_frame; [exact Hr |].
+  intros n Hn. apply Ho. intro HS. exact (Hd n HS Hn).
+Qed.
+
+(** a chain member's own files are in the footprint; temp files never are *)
+Lemma footprint_tmp : forall l d, ~ footprint l (MetaTmp d).
+Proof. intros l d [H | [H | [x [_ [H | H]]]]]; discriminate. Qed.
+Lemma footprint_voltmp : forall l, ~ footprint l VolTmp.
+Proof. intros l [H | [H | [x [_ [H | H]]]]]; discriminate. Qed.
+Lemma footprint_meta : forall l d, footprint l (Meta d) -> In d (names_of_chain l).
+Proof. intros l d [H | [H | [x [Hin [H | H]]]]]; try discriminate. inversion H; subst; assumption. Qed.
+Lemma footprint_img : forall l d, footprint l (Img d) -> In d (names_of_chain l).
+Proof. intros l d [H | [H | [x [Hin [H | H]]]]]; try discriminate. inversion H; subst; assumption. Qed.
+
+(** ** views up to the fields that recovery itself rewrites *)
+
+Definition attrs_same (a b : disk) : Prop :=
+  d_parent a = d_parent b /\ d_removed a = d_removed b /\ d_user a = d_user b /\ d_created a = d_created b.
+Definition member_sim (a b : member) : Prop :=
+  mb_name a = mb_name b /\ mb_id a = mb_id b /\ attrs_same (mb_disk a) (mb_disk b).
+(** everything but Dirty *)
+Definition info_sim (a b : info) : Prop :=
+  i_size a = i_size b /\ i_head a = i_head b /\ i_rebuilding a = i_rebuilding b /\ i_parent a = i_parent b
+  /\ i_checkpoint a = i_checkpoint b /\ i_rev a = i_rev b.
+(** same chain (names, inodes, Parent/Removed/UserCreated/Created) and same volume information;
+    not compared: the per-disk RevisionCounter (readDiskData rewrites values <= 1 on open) and Dirty *)
+Definition veq (a b : chainview) : Prop :=
+  info_sim (cv_info a) (cv_info b) /\ Forall2 member_sim (cv_chain a) (cv_chain b).
+
+Lemma attrs_same_refl : forall a, attrs_same a a.
+Proof. intro a. repeat split. Qed.
+Lemma member_sim_refl : forall a, member_sim a a.
+Proof. intro a. repeat split. Qed.
+Lemma info_sim_refl : forall a, info_sim a a.
+Proof. intro a. repeat split. Qed.
+Lemma Forall2_refl : forall A (R : A -> A -> Prop), (forall x, R x x) -> forall l, Forall2 R l l.
+Proof. intros A R HR l. induction l; constructor; auto. Qed.
+Lemma veq_refl : forall a, veq a a.
+Proof. intro a. split; [apply info_sim_refl | apply Forall2_refl; apply member_sim_refl]. Qed.
+Lemma member_sim_sym : forall a b, member_sim a b -> member_sim b a.
+Proof. intros a b [H1 [H2 [H3 [H4 [H5 H6]]]]]. repeat split; congruence. Qed.
+Lemma member_sim_trans : forall a b c, member_sim a b -> member_sim b c -> member_sim a c.
+Proof. intros a b c [H1 [H2 [H3 [H4 [H5 H6]]]]] [K1 [K2 [K3 [K4 [K5 K6]]]]]. repeat split; congruence. Qed.
+Lemma Forall2_sym : forall A (R : A -> A -> Prop), (forall x y, R x y -> R y x) -> forall l l', Forall2 R l l' -> Forall2 R l' l.
+Proof. intros A R HR l l' H. induction H; constructor; auto. Qed.
+Lemma Forall2_trans : forall A (R : A -> A -> Prop), (forall x y z, R x y -> R y z -> R x z) ->
+  forall l1 l2 l3, Forall2 R l1 l2 -> Forall2 R l2 l3 -> Forall2 R l1 l3.
+Proof.
+  intros A R HR l1 l2 l3 H. revert l3. induction H; intros l3 H3; inversion H3; subst; constructor; eauto.
+Qed.
+Lemma veq_sym : forall a b, veq a b -> veq b a.
+Proof.
+  intros a b [[H1 [H2 [H3 [H4 [H5 H6]]]]] HF]. split; [repeat split; congruence |].
+  apply Forall2_sym; [apply member_sim_sym | exact HF].
+Qed.
+Lemma veq_trans : forall a b c, veq a b -> veq b c -> veq a c.
+Proof.
+  intros a b c [[H1 [H2 [H3 [H4 [H5 H6]]]]] HF] [[K1 [K2 [K3 [K4 [K5 K6]]]]] KF].
+  split; [repeat split; congruence |].
+  eapply Forall2_trans; [apply member_sim_trans | exact HF | exact KF].
+Qed.
+
+Lemma veq_names : forall a b, veq a b -> names_of_chain (cv_chain a) = names_of_chain (cv_chain b).
+Proof.
+  intros a b [_ HF]. unfold names_of_chain. induction HF as [| x y l l' Hxy _ IH]; [reflexivity |].
+  cbn. destruct Hxy as [Hn _]. rewrite Hn, IH. reflexivity.
+Qed.
+
+(** ** the encodeToFile block (no fault: it always succeeds) *)
+
+Definition meta_name (n : name) : Prop := n = Vol \/ exists d, n = Meta d.
+
+Definition enc_fs (w : fs) (n : name) (c : ino) : fs :=
+  mkfs (updf (updf (updf (updf (files w) (tmp_of n) (Some IEmpty)) (tmp_of n) (Some c)) n (Some c)) (tmp_of n) None)
+       (nextid w).
+
+Lemma meta_name_tmp : forall n, meta_name n -> tmp_of n <> n /\ is_img (tmp_of n) = false.
+Proof. intros n [H | [d H]]; subst; cbn; split; try reflexivity; discriminate. Qed.
+
+Lemma enc_fs_self : forall w n c, meta_name n -> files (enc_fs w n c) n = Some c.
+Proof.
+  intros w n c Hn. destruct (meta_name_tmp n Hn) as [Hne _]. unfold enc_fs. cbn [files].
+  rewrite updf_neq by exact Hne. apply updf_eq.
+Qed.
+Lemma enc_fs_tmp : forall w n c, files (enc_fs w n c) (tmp_of n) = None.
+Proof. intros. unfold enc_fs. cbn [files]. apply updf_eq. Qed.
+Lemma enc_fs_other : forall w n c x, x <> n -> x <> tmp_of n -> files (enc_fs w n c) x = files w x.
+Proof.
+  intros w n c x H1 H2. unfold enc_fs. cbn [files].
+  rewrite !updf_neq; auto.
+Qed.
+Lemma enc_fs_nextid : forall w n c, nextid (enc_fs w n c) = nextid w.
+Proof. reflexivity. Qed.
+
+Lemma set_file_eq : forall w a v, files (set_file w a v) a = v.
+Proof. intros. unfold set_file. cbn [files]. apply updf_eq. Qed.
+Lemma set_file_neq : forall w a v b, a <> b -> files (set_file w a v) b = files w b.
+Proof. intros. unfold set_file. cbn [files]. apply updf_neq. assumption. Qed.
+
+Lemma ff_sync_dir : forall w, ff sync_dir w = (w, Done Ok).
+Proof. reflexivity. Qed.
+
+Definition meta_content (c : ino) : Prop := match c with IVol _ | IDisk _ => True | _ => False end.
+
+Lemma ff_encode : forall g c n w, meta_name n -> meta_content c ->
+  ff (encode_to_file g c n) w = (enc_fs w n c, Done Ok).
+Proof.
+  intros g c n w Hn Hc. destruct (meta_name_tmp n Hn) as [Hne Himg].
+  destruct c; try contradiction.
+  all: unfold encode_to_file; cbn [ff apply_call]; rewrite Himg; cbn [is_err ff apply_call];
+    rewrite set_file_eq;
+    cbn [is_err andb ff apply_call]; rewrite Bool.andb_false_r; cbn [ff apply_call is_err];
+    rewrite set_file_eq; cbn [ff apply_call is_err sync_dir];
+    reflexivity.
+Qed.
+(** the states of the block: the directory before, three states in which only the temp file
+    differs, and (twice) the final state *)
+Lemma encode_states : forall g c n w (P : fs -> Prop), meta_name n -> meta_content c ->
+  (forall x, only_on (eq (tmp_of n)) w x -> nextid x = nextid w -> P x) ->
+  P (enc_fs w n c) ->
+  Forall P (states (encode_to_file g c n) w).
+Proof.
+  intros g c n w P Hn Hc Htmp Hfin. destruct (meta_name_tmp n Hn) as [Hne Himg].
+  assert (Hoo : forall v1 v2, only_on (eq (tmp_of n)) w (set_file (set_file w (tmp_of n) v1) (tmp_of n) v2)).
+  { intros v1 v2 x Hx. rewrite !set_file_neq; auto. }
+  assert (Hoo1 : forall v1, only_on (eq (tmp_of n)) w (set_file w (tmp_of n) v1)).
+  { intros v1 x Hx. rewrite !set_file_neq; auto. }
+  destruct c; try contradiction.
+  all: unfold encode_to_file; cbn [states apply_call]; rewrite Himg; cbn [is_err states apply_call];
+    (constructor; [apply Htmp; [apply only_on_refl | reflexivity] |]);
+    rewrite set_file_eq;
+    cbn [is_err states apply_call]; rewrite Bool.andb_false_r; cbn [states apply_call is_err];
+    (constructor; [apply Htmp; [apply Hoo1 | reflexivity] |]);
+    (constructor; [apply Htmp; [apply Hoo | reflexivity] |]);
+    (constructor; [apply Htmp; [apply Hoo | reflexivity] |]);
+    rewrite set_file_eq; cbn [states apply_call is_err sync_dir];
+    (constructor; [exact Hfin |]); (constructor; [exact Hfin | constructor]).
+Qed.
+
+(** ** well-formed directories, and memory that agrees with the directory *)
+
+Definition ids_fresh (w : fs) : Prop :=
+  forall n id gn, files w n = Some (IImg id gn) -> (id < nextid w)%N.
+
+Definition is_snap (d : dname) : Prop := exists s, d = Snap s.
+
+(** the head is head-shaped, everything below it snapshot-shaped; no name and no inode twice *)
+Definition wf_view (v : chainview) : Prop :=
+  exists n id0 d0 tl,
+    cv_chain v = mkmember (Head n) id0 d0 :: tl
+    /\ i_head (cv_info v) = Some (Head n)
+    /\ Forall (fun mb => is_snap (mb_name mb)) tl
+    /\ NoDup (names_of_chain (cv_chain v))
+    /\ NoDup (map mb_id (cv_chain v))
+    /\ i_parent (cv_info v) = d_parent d0.
+
+Definition wf_fs (g : cfg) (w : fs) : Prop :=
+  ids_fresh w /\ exists v, recover g w = Some v /\ wf_view v.
+
+Fixpoint find_mb (d : dname) (l : list member) : option member :=
+  match l with
+  | [] => None
+  | mb :: t => if dname_eqb (mb_name mb) d then Some mb else find_mb d t
+  end.
+
+(** the member just above [d] in the chain (its only child), as a list *)
+Fixpoint child_in (d : dname) (l : list member) : list dname :=
+  match l with
+  | a :: ((b :: _) as t) => if dname_eqb (mb_name b) d then [mb_name a] else child_in d t
+  | _ => []
+  end.
+
+Definition agree (g : cfg) (v : chainview) (m : mem) : Prop :=
+  info_sim (m_info m) (cv_info v)
+  /\ (forall d, m_disks m d = option_map mb_disk (find_mb d (cv_chain v)))
+  /\ (forall d, In d (names_of_chain (cv_chain v)) -> m_children m (Some d) = child_in d (cv_chain v))
+  /\ (fix_children g = true -> forall d, ~ In d (names_of_chain (cv_chain v)) -> m_children m (Some d) = [])
+  /\ m_active m = rev (names_of_chain (cv_chain v)).
+
+Definition cfg_ok (g : cfg) : Prop := 2 <= maxlen g.
+
+(** the invariant of a history: nothing created yet, or a well-formed directory with (if a replica
+    is open) a memory that agrees with it *)
+Definition Inv (g : cfg) (s : st) : Prop :=
+  s = init \/
+  (wf_fs g (s_fs s) /\
+   match s_mem s with
+   | None => True
+   | Some m => exists v, recover g (s_fs s) = Some v /\ agree g v m
+   end).
+
+Lemma recover_intro : forall g w i h l c,
+  files w Vol = Some (IVol i) -> i_head i = Some h -> walk (files w) (maxlen g) h = Some l ->
+  files w Counter = Some (ICounter c) -> recover g w = Some (mkview i l).
+Proof. intros g w i h l c H1 H2 H3 H4. unfold recover. rewrite H1, H2, H3, H4. reflexivity. Qed.
+
+Lemma recover_elim : forall g w v, recover g w = Some v ->
+  files w Vol = Some (IVol (cv_info v)) /\
+  exists h c, i_head (cv_info v) = Some h /\ walk (files w) (maxlen g) h = Some (cv_chain v)
+              /\ files w Counter = Some (ICounter c).
+Proof.
+  intros g w v H. unfold recover in H.
+  destruct (files w Vol) as [[i | | | |] |]; try discriminate.
+  destruct (i_head i) as [h |] eqn:Hh; [| discriminate].
+  destruct (walk (files w) (maxlen g) h) as [l |] eqn:Hw; [| discriminate].
+  destruct (files w Counter) as [[| | | c |] |] eqn:Hc; try discriminate.
+  inversion H; subst v. cbn. split; [reflexivity |]. exists h, c. auto.
+Qed.
+
+Lemma ids_fresh_set : forall w a v, ids_fresh w ->
+  (forall id gn, v = Some (IImg id gn) -> exists n gn', files w n = Some (IImg id gn')) ->
+  ids_fresh (set_file w a v).
+Proof.
+  intros w a v Hf Hv n id gn Hn. unfold set_file in Hn. cbn [files nextid] in *. unfold updf in Hn.
+  destruct (name_eqb a n).
+  - destruct (Hv id gn Hn) as [n' [gn' H']]. eapply Hf; eauto.
+  - eapply Hf; eauto.
+Qed.
+
+Lemma ids_fresh_created : forall w a, ids_fresh w -> ids_fresh (created w a).
+Proof.
+  intros w a Hf n id gn Hn. unfold created in *. cbn [files nextid] in *. unfold updf in Hn.
+  destruct (name_eqb a n); [inversion Hn; subst; lia | apply Hf in Hn; lia].
+Qed.
+
+Lemma apply_call_fresh : forall w c, ids_fresh w -> ids_fresh (fst (apply_call w c))
+                                     /\ (nextid w <= nextid (fst (apply_call w c)))%N.
+Proof.
+  intros w c Hf.
+  destruct c; cbn [apply_call];
+    repeat match goal with
+           | |- context [match files ?w ?x with _ => _ end] => destruct (files w x) as [[]|] eqn:?
+           | |- context [if is_img ?x then _ else _] => destruct (is_img x)
+           | |- context [match ?c with IVol _ => _ | _ => _ end] => destruct c
+           end; cbn [fst]; try (split; [assumption | lia]);
+    try (split; [apply ids_fresh_created; assumption | cbn; lia]);
+    try (split; [| cbn; lia];
+         repeat apply ids_fresh_set; try assumption; cbn [truncated];
+         intros id' gn' Hv; try discriminate; inversion Hv; subst; eauto).
+Qed.
+
+(** ** rewriting volume.meta (same head): the only visible change is the new information *)
+
+Lemma footprint_not_voltmp : forall l n, footprint l n -> n <> VolTmp.
+Proof. intros l n H Heq. subst. exact (footprint_voltmp l H). Qed.
+
+Lemma recover_vol_rewrite : forall g w v i',
+  recover g w = Some v -> i_head i' = i_head (cv_info v) ->
+  recover g (enc_fs w Vol (IVol i')) = Some (mkview i' (cv_chain v)).
+Proof.
+  intros g w v i' Hr Hh. destruct (recover_elim g w v Hr) as [Hvol [h [c [Hhd [Hw Hc]]]]].
+  apply recover_intro with (h := h) (c := c).
+  - apply enc_fs_self. left. reflexivity.
+  - congruence.
+  - eapply walk_frame; [exact Hw |]. intros x Hx. split; apply enc_fs_other; cbn; discriminate.
+  - rewrite enc_fs_other; [exact Hc | discriminate | cbn; discriminate].
+Qed.
+
+Lemma vol_rewrite_states : forall g w v i',
+  recover g w = Some v -> i_head i' = i_head (cv_info v) ->
+  Forall (fun x => recover g x = Some v \/ recover g x = Some (mkview i' (cv_chain v)))
+         (states (encode_to_file g (IVol i') Vol) w).
+Proof.
+  intros g w v i' Hr Hh. apply encode_states.
+  - left. reflexivity.
+  - exact I.
+  - intros x Hx _. left. eapply recover_only_on; [exact Hr | exact Hx |].
+    intros n Hn Hf. cbn in Hn. subst n. exact (footprint_voltmp _ Hf).
+  - right. apply recover_vol_rewrite; assumption.
+Qed.
+
+(** crash atomicity as a predicate on one directory *)
+Definition Good (g : cfg) (vpre vpost : chainview) (x : fs) : Prop :=
+  exists v, recover g x = Some v /\ (veq v vpre \/ veq v vpost).
+
+Lemma Good_pre : forall g v vpost x, recover g x = Some v -> Good g v vpost x.
+Proof. intros. exists v. split; [assumption | left; apply veq_refl]. Qed.
+Lemma Good_post : forall g vpre v x, recover g x = Some v -> Good g vpre v x.
+Proof. intros. exists v. split; [assumption | right; apply veq_refl]. Qed.
+
+Lemma Forall_states_ret : forall A (P : fs -> Prop) (a : A) w, P w -> Forall P (states (Ret a) w).
+Proof. intros. cbn. constructor; [assumption | constructor]. Qed.
+
+(** the operations that only rewrite volume.meta: SetCheckpoint, SetRebuilding, close *)
+Lemma vol_only_op : forall g w v i' A (k : res -> prog A),
+  recover g w = Some v -> i_head i' = i_head (cv_info v) ->
+  (forall e, exists a, k e = Ret a) ->
+  let p := bind (encode_to_file g (IVol i') Vol) k in
+  Forall (Good g v (mkview i' (cv_chain v))) (states p w)
+  /\ fst (ff p w) = enc_fs w Vol (IVol i')
+  /\ exists a, k Ok = Ret a /\ snd (ff p w) = Done a.
+Proof.
+  intros g w v i' A k Hr Hh Hk p. subst p. split; [| split].
+  - apply Forall_states_bind.
+    + eapply Forall_impl; [| apply vol_rewrite_states; eassumption].
+      intros x [Hx | Hx]; [eapply Good_pre | eapply Good_post]; exact Hx.
+    + intros e He. rewrite ff_encode in * by (cbn; auto; left; reflexivity). cbn [fst snd] in *.
+      destruct (Hk e) as [a Ha]. rewrite Ha. apply Forall_states_ret.
+      eapply Good_post. apply recover_vol_rewrite; assumption.
+  - rewrite ff_bind, ff_encode by (cbn; auto; left; reflexivity).
+    destruct (Hk Ok) as [a Ha]. rewrite Ha. reflexivity.
+  - destruct (Hk Ok) as [a Ha]. exists a. split; [exact Ha |].
+    rewrite ff_bind, ff_encode by (cbn; auto; left; reflexivity). rewrite Ha. reflexivity.
+Qed.
+
+(** ** freshness of inode numbers is kept by every program, in every state *)
+Lemma states_fresh : forall A (p : prog A) w, ids_fresh w -> Forall ids_fresh (states p w).
+Proof.
+  induction p as [a | e | c k IH]; intros w Hf; cbn [states].
+  - constructor; [assumption | constructor].
+  - constructor; [assumption | constructor].
+  - constructor; [assumption |]. destruct (apply_call w c) as [w1 r] eqn:Hc.
+    apply IH. pose proof (apply_call_fresh w c Hf) as [H _]. rewrite Hc in H. exact H.
+Qed.
+Lemma ff_fresh : forall A (p : prog A) w, ids_fresh w -> ids_fresh (fst (ff p w)).
+Proof.
+  intros A p w Hf. rewrite <- (states_last_ff A p w w).
+  pose proof (states_fresh A p w Hf) as H. destruct (states_head A p w) as [l Hl]. rewrite Hl in *.
+  eapply Forall_forall; [exact H |].
+  assert (Hne : w :: l <> []) by discriminate.
+  apply (@exists_last _ (w :: l)) in Hne. destruct Hne as [l' [x Hx]]. rewrite Hx.
+  rewrite last_last. apply in_or_app. right. left. reflexivity.
+Qed.
+
+(** ** what one operation on an open replica does (no fault) *)
+
+(** [op_spec g w v m p]: from a directory [w] recovering to [v], with agreeing memory [m], the
+    program [p] ends with a directory recovering to a well-formed view with which the returned
+    memory agrees; every directory it passes through recovers to the old or the new view (up to
+    [veq]); and if it returns an error the view is unchanged and the memory is the old one. *)
+Definition op_spec (g : cfg) (w : fs) (v : chainview) (m : mem) (p : prog (mem * res)) : Prop :=
+  exists w' m' r vpost,
+    ff p w = (w', Done (m', r))
+    /\ recover g w' = Some vpost /\ wf_view vpost /\ agree g vpost m'
+    /\ Forall (Good g v vpost) (states p w)
+    /\ ((r <> Ok -> vpost = v /\ m' = m) /\ m_children m' = m_children m).
+
+Lemma wf_view_info : forall v i',
+  wf_view v -> i_head i' = i_head (cv_info v) -> i_parent i' = i_parent (cv_info v) ->
+  wf_view (mkview i' (cv_chain v)).
+Proof.
+  intros v i' [n [id0 [d0 [tl [H1 [H2 [H3 [H4 [H5 H6]]]]]]]]] Hh Hp.
+  exists n, id0, d0, tl. cbn [cv_chain cv_info]. repeat split; try assumption; congruence.
+Qed.
+
+Lemma agree_info : forall g v m i',
+  agree g v m -> agree g (mkview i' (cv_chain v)) (set_info m i').
+Proof.
+  intros g v m i' [H1 [H2 [H3 [H4 H5]]]]. unfold agree. cbn [cv_chain cv_info m_info m_disks m_children m_active set_info].
+  repeat split; try assumption; reflexivity.
+Qed.
+
+Lemma agree_head : forall g v m, agree g v m -> i_head (m_info m) = i_head (cv_info v) /\ i_parent (m_info m) = i_parent (cv_info v).
+Proof. intros g v m [[H1 [H2 [H3 [H4 [H5 H6]]]]] _]. split; assumption. Qed.
+
+Lemma set_checkpoint_spec : forall g w v m c,
+  recover g w = Some v -> wf_view v -> agree g v m -> op_spec g w v m (set_checkpoint g m c).
+Proof.
+  intros g w v m c Hr Hwf Hag. destruct (agree_head g v m Hag) as [Hh Hp].
+  unfold set_checkpoint. set (i' := set_checkpoint_info (m_info m) c).
+  change (m_info (set_info m i')) with i'.
+  assert (Hh' : i_head i' = i_head (cv_info v)) by (subst i'; cbn; exact Hh).
+  destruct (vol_only_op g w v i' _ (fun e => Ret (set_info m i', e)) Hr Hh') as [HF [Hfin [a [Ha Hout]]]];
+    [intros e; eexists; reflexivity |].
+  inversion Ha; subst a. clear Ha.
+  exists (enc_fs w Vol (IVol i')), (set_info m i'), Ok, (mkview i' (cv_chain v)).
+  split; [| split; [| split; [| split; [| split]]]].
+  - rewrite (surjective_pairing (ff _ w)). rewrite Hfin, Hout. reflexivity.
+  - apply recover_vol_rewrite; assumption.
+  - apply wf_view_info; [assumption | assumption | subst i'; cbn; exact Hp].
+  - apply agree_info. assumption.
+  - exact HF.
+  - split; [intros Hne; congruence | reflexivity].
+Qed.
+
+Lemma agree_info2 : forall g v m imem idisk,
+  info_sim imem idisk -> agree g v m -> agree g (mkview idisk (cv_chain v)) (set_info m imem).
+Proof.
+  intros g v m imem idisk Hs [H1 [H2 [H3 [H4 H5]]]]. unfold agree.
+  cbn [cv_chain cv_info m_info m_disks m_children m_active set_info].
+  repeat split; try assumption; apply Hs.
+Qed.
+
+Lemma agree_mode : forall g v m x, agree g v m -> agree g v (set_mode m x).
+Proof. intros g v m x H. exact H. Qed.
+
+Lemma info_sim_dirty : forall i a b, info_sim (set_dirty_rebuilding i a (i_rebuilding i)) (set_dirty_rebuilding i b (i_rebuilding i)).
+Proof. intros. repeat split. Qed.
+
+Lemma set_rebuilding_spec : forall g w v m b,
+  recover g w = Some v -> wf_view v -> agree g v m -> op_spec g w v m (set_rebuilding g m b).
+Proof.
+  intros g w v m b Hr Hwf Hag. destruct (agree_head g v m Hag) as [Hh Hp].
+  unfold set_rebuilding. set (i' := set_dirty_rebuilding (m_info m) true b).
+  assert (Hh' : i_head i' = i_head (cv_info v)) by (subst i'; cbn; exact Hh).
+  set (mi := set_dirty_rebuilding (m_info m) (i_dirty (m_info m)) b).
+  destruct (vol_only_op g w v i' _ (fun e => if is_ok e then Ret (set_info m mi, Ok) else Ret (m, Failed)) Hr Hh')
+    as [HF [Hfin [a [Ha Hout]]]]; [intros e; destruct (is_ok e); eexists; reflexivity |].
+  cbn in Ha. inversion Ha; subst a. clear Ha.
+  exists (enc_fs w Vol (IVol i')), (set_info m mi), Ok, (mkview i' (cv_chain v)).
+  split; [| split; [| split; [| split; [| split]]]].
+  - rewrite (surjective_pairing (ff _ w)). rewrite Hfin, Hout. reflexivity.
+  - apply recover_vol_rewrite; assumption.
+  - apply wf_view_info; [assumption | assumption | subst i'; cbn; exact Hp].
+  - apply agree_info2; [| assumption]. subst mi i'. repeat split.
+  - exact HF.
+  - split; [intros Hne; congruence | reflexivity].
+Qed.
+
+Lemma close_replica_spec : forall g w v m,
+  recover g w = Some v -> wf_view v -> agree g v m -> op_spec g w v m (close_replica g m).
+Proof.
+  intros g w v m Hr Hwf Hag. destruct (agree_head g v m Hag) as [Hh Hp].
+  unfold close_replica. cbn [m_info set_mode].
+  set (i' := set_dirty_rebuilding (m_info m) false (i_rebuilding (m_info m))).
+  assert (Hh' : i_head i' = i_head (cv_info v)) by (subst i'; cbn; exact Hh).
+  destruct (vol_only_op g w v i' _ (fun e => Ret (set_mode m CLOSED, e)) Hr Hh')
+    as [HF [Hfin [a [Ha Hout]]]]; [intros e; eexists; reflexivity |].
+  inversion Ha; subst a. clear Ha.
+  exists (enc_fs w Vol (IVol i')), (set_mode m CLOSED), Ok, (mkview i' (cv_chain v)).
+  split; [| split; [| split; [| split; [| split]]]].
+  - rewrite (surjective_pairing (ff _ w)). rewrite Hfin, Hout. reflexivity.
+  - apply recover_vol_rewrite; assumption.
+  - apply wf_view_info; [assumption | assumption | subst i'; cbn; exact Hp].
+  - destruct Hag as [H1 [H2 [H3 [H4 H5]]]]. unfold agree. cbn [cv_chain cv_info m_info m_disks m_children m_active set_mode].
+    repeat split; try assumption; try apply H1. 
+  - exact HF.
+  - split; [intros Hne; congruence | reflexivity].
+Qed.
+
+(** ** static footprints with postconditions *)
+
+(** [withinQ S Q p]: whatever the fault-free replies, [p] changes only names in [S] and every
+    value it returns satisfies [Q] *)
+Fixpoint withinQ {A} (S : name -> Prop) (Q : A -> Prop) (p : prog A) : Prop :=
+  match p with
+  | Ret a => Q a
+  | Abort _ => True
+  | Do c k => (forall n, In n (may_write c) -> S n) /\ forall r, possible c r -> withinQ S Q (k r)
+  end.
+
+Lemma withinQ_within : forall A S Q (p : prog A), withinQ S Q p -> within S p.
+Proof.
+  induction p as [a | e | c k IH]; intros Hp; cbn [within withinQ] in *; auto.
+  destruct Hp as [Hc Hk]. split; auto.
+Qed.
+
+Lemma withinQ_bind : forall A B S Q R (p : prog A) (f : A -> prog B),
+  withinQ S Q p -> (forall a, Q a -> withinQ S R (f a)) -> withinQ S R (bind p f).
+Proof.
+  induction p as [a | e | c k IH]; intros f Hp Hf; cbn [bind withinQ] in *; auto.
+  destruct Hp as [Hc Hk]. split; auto.
+Qed.
+
+Lemma withinQ_weaken : forall A (S T : name -> Prop) (Q R : A -> Prop) (p : prog A),
+  (forall n, S n -> T n) -> (forall a, Q a -> R a) -> withinQ S Q p -> withinQ T R p.
+Proof.
+  induction p as [a | e | c k IH]; intros HST HQR Hp; cbn [withinQ] in *; auto.
+  destruct Hp as [Hc Hk]. split; auto.
+Qed.
+
+(** the value a fault-free run returns satisfies the static postcondition *)
+Lemma withinQ_ff : forall A S Q (p : prog A) w a, withinQ S Q p -> snd (ff p w) = Done a -> Q a.
+Proof.
+  induction p as [a' | e | c k IH]; intros w a Hp Hd; cbn [ff withinQ] in *.
+  - inversion Hd; subst; assumption.
+  - discriminate.
+  - destruct Hp as [Hc Hk]. destruct (apply_call w c) as [w1 r] eqn:Hcall.
+    apply (IH r w1 a); [apply Hk; exists w; rewrite Hcall; reflexivity | exact Hd].
+Qed.
+
+(** ** a static two-phase footprint: before and after one commit call *)
+
+(** [phased S1 isc S2 Q1 Q2 p]: [p] changes only names in [S1] until a call satisfying [isc]
+    succeeds, and only names in [S2] after that; values returned before the commit satisfy [Q1],
+    values returned after it satisfy [Q2] *)
+Fixpoint phased {A} (S1 : name -> Prop) (isc : call -> bool) (S2 : name -> Prop) (Q1 Q2 : A -> Prop)
+  (p : prog A) : Prop :=
+  match p with
+  | Ret a => Q1 a
+  | Abort _ => True
+  | Do c k =>
+      if isc c
+      then forall r, possible c r -> if is_err r then phased S1 isc S2 Q1 Q2 (k r) else withinQ S2 Q2 (k r)
+      else (forall n, In n (may_write c) -> S1 n) /\ forall r, possible c r -> phased S1 isc S2 Q1 Q2 (k r)
+  end.
+
+Lemma phased_bind : forall A B S1 isc S2 Q1 Q2 R1 R2 (p : prog A) (f : A -> prog B),
+  phased S1 isc S2 Q1 Q2 p ->
+  (forall a, Q1 a -> phased S1 isc S2 R1 R2 (f a)) ->
+  (forall a, Q2 a -> withinQ S2 R2 (f a)) ->
+  phased S1 isc S2 R1 R2 (bind p f).
+Proof.
+  induction p as [a | e | c k IH]; intros f Hp Hf Hw; cbn [bind phased] in *; auto.
+  destruct (isc c).
+  - intros r Hr. specialize (Hp r Hr). destruct (is_err r); [apply IH; auto | eapply withinQ_bind; eauto].
+  - destruct Hp as [Hc Hk]. split; auto.
+Qed.
+
+(** a program that never issues a commit call and stays in S1 *)
+Fixpoint no_commit {A} (isc : call -> bool) (p : prog A) : Prop :=
+  match p with
+  | Do c k => isc c = false /\ forall r, no_commit isc (k r)
+  | _ => True
+  end.
+
+Lemma phased_within : forall A S1 isc S2 Q1 Q2 (p : prog A),
+  withinQ S1 Q1 p -> no_commit isc p -> phased S1 isc S2 Q1 Q2 p.
+Proof.
+  induction p as [a | e | c k IH]; intros Hp Hn; cbn [phased withinQ no_commit] in *; auto.
+  destruct Hn as [Hc0 Hn]. rewrite Hc0. destruct Hp as [Hc Hk]. split; auto.
+Qed.
+
+(** two directories agree outside [S] *)
+Definition same_outside (S : name -> Prop) (a b : fs) : Prop := forall n, ~ S n -> files a n = files b n.
+
+Lemma apply_err_same : forall w c, is_err (snd (apply_call w c)) = true -> fst (apply_call w c) = w.
+Proof.
+  intros w c H. destruct c; cbn in *;
+    repeat match goal with
+           | |- context [match files ?w ?x with _ => _ end] => destruct (files w x) as [[]|]
+           | H : context [match files ?w ?x with _ => _ end] |- _ => destruct (files w x) as [[]|]
+           | |- context [if is_img ?x then _ else _] => destruct (is_img x)
+           | H : context [if is_img ?x then _ else _] |- _ => destruct (is_img x)
+           | |- context [match ?c with IVol _ => _ | _ => _ end] => destruct c
+           | H : context [match ?c with IVol _ => _ | _ => _ end] |- _ => destruct c
+           end; cbn in *; try reflexivity; try discriminate.
+Qed.
+
+Lemma phased_states : forall A S1 isc S2 Q1 Q2 (p : prog A) w,
+  phased S1 isc S2 Q1 Q2 p ->
+  Forall (fun x => only_on S1 w x \/ same_outside S2 x (fst (ff p w))) (states p w).
+Proof.
+  induction p as [a | e | c k IH]; intros w Hp; cbn [states ff].
+  - constructor; [left; apply only_on_refl | constructor].
+  - constructor; [left; apply only_on_refl | constructor].
+  - constructor; [left; apply only_on_refl |].
+    cbn [phased] in Hp. destruct (apply_call w c) as [w1 r] eqn:Hcall.
+    assert (Hpos : possible c r) by (exists w; rewrite Hcall; reflexivity).
+    destruct (isc c) eqn:Ec.
+    + specialize (Hp r Hpos). destruct (is_err r) eqn:Er.
+      * (* the commit call failed: nothing changed *)
+        assert (w1 = w).
+        { replace w1 with (fst (apply_call w c)) by (rewrite Hcall; reflexivity).
+          apply apply_err_same. rewrite Hcall. exact Er. }
+        subst w1. apply IH. exact Hp.
+      * (* committed: from here on only S2 *)
+        apply withinQ_within in Hp.
+        pose proof (within_states _ S2 (k r) w1 Hp) as Hst.
+        pose proof (within_ff _ S2 (k r) w1 Hp) as Hfin.
+        eapply Forall_impl; [| exact Hst]. intros x Hx. right.
+        intros n Hn. rewrite Hx, Hfin; auto.
+    + destruct Hp as [Hc Hk]. specialize (IH r w1 (Hk r Hpos)).
+      eapply Forall_impl; [| exact IH]. intros x [Hx | Hx]; [left | right; exact Hx].
+      eapply only_on_trans; [| exact Hx].
+      intros n Hn. replace w1 with (fst (apply_call w c)) by (rewrite Hcall; reflexivity).
+      apply apply_call_frame. intro Hin. apply Hn. auto.
+Qed.
+
+(** the two-phase argument for crash atomicity *)
+Lemma phased_good : forall g A S1 isc S2 Q1 Q2 (p : prog A) w v vpost,
+  phased S1 isc S2 Q1 Q2 p ->
+  recover g w = Some v -> (forall n, S1 n -> ~ footprint (cv_chain v) n) ->
+  recover g (fst (ff p w)) = Some vpost -> (forall n, S2 n -> ~ footprint (cv_chain vpost) n) ->
+  Forall (Good g v vpost) (states p w).
+Proof.
+  intros g A S1 isc S2 Q1 Q2 p w v vpost Hp Hr H1 Hr' H2.
+  eapply Forall_impl; [| apply (phased_states A S1 isc S2 Q1 Q2 p w Hp)].
+  intros x [Hx | Hx].
+  - apply Good_pre. eapply recover_only_on; eauto.
+  - apply Good_post. eapply recover_frame; [exact Hr' |].
+    intros n Hn. apply Hx. intro HS. exact (H2 n HS Hn).
+Qed.
+
+(** ... and when no commit happens at all *)
+Lemma within_good : forall g A S (p : prog A) w v vpost,
+  within S p -> recover g w = Some v -> (forall n, S n -> ~ footprint (cv_chain v) n) ->
+  Forall (Good g v vpost) (states p w).
+Proof.
+  intros g A S p w v vpost Hp Hr H1.
+  eapply Forall_impl; [| apply (within_states A S p w Hp)].
+  intros x Hx. apply Good_pre. eapply recover_only_on; eauto.
+Qed.
+
+(** ** static footprints of the building blocks *)
+
+Ltac poss H :=
+  let w0 := fresh "w0" in
+  destruct H as [w0 H]; cbn in H;
+  repeat match type of H with
+         | context [match files ?w ?x with _ => _ end] => destruct (files w x) as [[]|]
+         | context [if is_img ?x then _ else _] => destruct (is_img x)
+         | context [match ?c with IVol _ => _ | _ => _ end] => destruct c
+         end; cbn in H; subst.
+
+Ltac inS := let n := fresh "n" in let H := fresh "H" in
+  intros n H; cbn in H; repeat (destruct H as [H | H]; [subst; auto |]); try contradiction.
+
+Lemma wq_sync_dir : forall S, withinQ S (eq Ok) sync_dir.
+Proof. intros S. cbn. split; [inS |]. intros r Hr. poss Hr. cbn. reflexivity. Qed.
+
+Lemma wq_sync_dir_any : forall S (Q : res -> Prop), (forall e, Q e) -> withinQ S Q sync_dir.
+Proof. intros S Q HQ. eapply withinQ_weaken; [| | apply (wq_sync_dir S)]; auto. Qed.
+
+Lemma wq_encode : forall g c n (S : name -> Prop) (Q : res -> Prop),
+  S (tmp_of n) -> S n -> (forall e, Q e) -> withinQ S Q (encode_to_file g c n).
+Proof.
+  intros g c n S Q H1 H2 HQ. unfold encode_to_file. cbn [withinQ].
+  split; [inS |]. intros r1 _. destruct (is_err r1); [cbn; auto |]. cbn [withinQ].
+  split; [inS |]. intros r2 _. destruct (fixed g && is_err r2).
+  { cbn. split; [inS |]. intros; apply HQ. }
+  cbn [withinQ]. split; [inS |]. intros r3 _. destruct (is_err r3); [cbn; auto |]. cbn [withinQ].
+  split; [inS |]. intros r4 _. destruct (is_err r4); [cbn; auto |].
+  apply wq_sync_dir_any. assumption.
+Qed.
+
+Lemma wq_rm_disk : forall d (S : name -> Prop) (Q : res -> Prop),
+  (forall x, d = Some x -> S (Img x) /\ S (Meta x)) -> (forall e, Q e) -> withinQ S Q (rm_disk d).
+Proof.
+  intros d S Q HS HQ. destruct d as [x |]; [| cbn; auto].
+  destruct (HS x eq_refl) as [H1 H2]. unfold rm_disk. cbn [withinQ].
+  split; [inS |]. intros r1 _. destruct (negb (enoent_or_ok r1)); [cbn; auto |]. cbn [withinQ].
+  split; [inS |]. intros r2 _. destruct (negb (enoent_or_ok r2)); [cbn; auto |].
+  apply wq_sync_dir_any. assumption.
+Qed.
+
+Lemma wq_link_disk : forall old new (S : name -> Prop) (Q : res -> Prop),
+  (forall x, new = Some x -> S (Img x) /\ S (Meta x)) -> (forall e, Q e) -> withinQ S Q (link_disk old new).
+Proof.
+  intros old new S Q HS HQ. destruct old as [o |]; [| cbn; auto]. destruct new as [nw |]; [| cbn; auto].
+  destruct (HS nw eq_refl) as [H1 H2]. unfold link_disk. cbn [withinQ].
+  split; [inS |]. intros r1 _. destruct (negb (is_err r1)); [cbn; auto |]. cbn [withinQ].
+  split; [inS |]. intros r2 _. destruct (negb (is_err r2)); [cbn; auto |]. cbn [withinQ].
+  split; [inS |]. intros r3 _. destruct (is_err r3); [cbn; auto |]. cbn [withinQ].
+  split; [inS |]. intros r4 _. destruct (is_err r4); [cbn; auto |].
+  apply wq_sync_dir_any. assumption.
+Qed.
+
+Lemma wq_get_rev : forall (S : name -> Prop) (Q : Z -> Prop), (forall z, Q z) -> withinQ S Q get_rev.
+Proof. intros S Q HQ. unfold get_rev. cbn. split; [inS |]. intros r _. destruct r as [| | | [] |]; cbn; auto. Qed.
+
+Lemma wq_open_file_trunc : forall n (S : name -> Prop) (Q : bool -> Prop), S n -> (forall b, Q b) -> withinQ S Q (open_file_trunc n).
+Proof.
+  intros n S Q H HQ. unfold open_file_trunc. cbn [withinQ]. split; [inS |]. intros r1 _.
+  destruct (is_err r1); cbn; auto. split; [inS |]. intros; apply HQ.
+Qed.
+Lemma wq_open_file : forall n (S : name -> Prop) (Q : bool -> Prop), S n -> (forall b, Q b) -> withinQ S Q (open_file n).
+Proof.
+  intros n S Q H HQ. unfold open_file. cbn [withinQ]. split; [inS |]. intros r1 _.
+  destruct (is_err r1); cbn; auto. split; [inS |]. intros; apply HQ.
+Qed.
+
+(** createNewHead touches only the new head's three names; the name it returns is the new head's
+    or none, and on success it is the new head's *)
+Definition cnh_post (nh : dname) (t : option dname * disk * res) : Prop :=
+  (fst (fst t) = None \/ fst (fst t) = Some nh) /\ (snd t = Ok -> fst (fst t) = Some nh).
+
+Lemma wq_create_new_head : forall g m n par cr (F : name -> Prop),
+  F (Img (Head (S n))) -> F (Meta (Head (S n))) -> F (MetaTmp (Head (S n))) ->
+  withinQ F (cnh_post (Head (S n))) (create_new_head g m (Some (Head n)) par cr).
+Proof.
+  intros g m n par cr F H1 H2 H3. unfold create_new_head. cbn [next_head].
+  set (nh := Head (S n)) in *.
+  assert (Hfail : cnh_post nh (None, mkdisk None false false 0 0, Failed)).
+  { split; cbn; [auto | discriminate]. }
+  assert (Hrest : withinQ F (cnh_post nh)
+            (okf <- open_file_trunc (Img nh);;
+             (if negb okf then Ret (None, mkdisk None false false 0 0, Failed)
+              else Do (CTruncate (Img nh) (i_size (m_info m)))
+                     (fun rt => if is_err rt then Ret (None, mkdisk None false false 0 0, Failed)
+                                else rv <- get_rev;;
+                                     e <- encode_to_file g (IDisk (mkdisk par false false cr rv)) (Meta nh);;
+                                     Ret (Some nh, mkdisk par false false cr rv, e))))).
+  { eapply withinQ_bind; [apply wq_open_file_trunc with (Q := fun _ => True); auto |].
+    intros okf _. destruct (negb okf); [exact Hfail |]. cbn [withinQ]. split; [inS |].
+    intros rt _. destruct (is_err rt); [exact Hfail |].
+    eapply withinQ_bind; [apply wq_get_rev with (Q := fun _ => True); auto |]. intros rv _.
+    eapply withinQ_bind; [apply wq_encode with (Q := fun _ => True); cbn; auto |]. intros e _.
+    cbn. split; cbn; auto. }
+  cbn [withinQ]. split; [inS |]. intros rs _. destruct (is_err rs); [exact Hrest |].
+  cbn [withinQ]. split; [inS |]. intros rb _.
+  destruct rb as [| | [] | |]; try exact Hfail;
+    (eapply withinQ_bind; [apply wq_rm_disk with (Q := fun _ => True); [intros x Hx; inversion Hx; subst; auto | auto] |];
+     intros e' _; destruct (is_ok e'); [exact Hrest | exact Hfail]).
+Qed.
+
+(** ** what the building blocks do (no fault), pointwise *)
+
+Ltac nneq := first [ discriminate | assumption | congruence
+                   | let Hq := fresh "Hq" in intro Hq; inversion Hq; subst; lia
+                   | let Hq := fresh "Hq" in intro Hq; inversion Hq; subst; congruence ].
+
+Lemma rm_disk_ff : forall w x,
+  exists w1, ff (rm_disk (Some x)) w = (w1, Done Ok)
+    /\ files w1 (Img x) = None /\ files w1 (Meta x) = None
+    /\ (forall y, y <> Img x -> y <> Meta x -> files w1 y = files w y)
+    /\ nextid w1 = nextid w.
+Proof.
+  intros w x. unfold rm_disk. cbn [ff apply_call].
+  destruct (files w (Img x)) as [ci |] eqn:Hi; cbn [ff apply_call enoent_or_ok negb].
+  - destruct (files (set_file w (Img x) None) (Meta x)) as [cm |] eqn:Hm; cbn [ff apply_call enoent_or_ok negb sync_dir is_err].
+    + eexists. split; [reflexivity |]. repeat split.
+      * rewrite set_file_neq by nneq. apply set_file_eq.
+      * apply set_file_eq.
+      * intros y H1 H2. rewrite !set_file_neq by congruence. reflexivity.
+    + eexists. split; [reflexivity |]. repeat split.
+      * apply set_file_eq.
+      * exact Hm.
+      * intros y H1 H2. rewrite !set_file_neq by congruence. reflexivity.
+  - destruct (files w (Meta x)) as [cm |] eqn:Hm; cbn [ff apply_call enoent_or_ok negb sync_dir is_err].
+    + eexists. split; [reflexivity |]. repeat split.
+      * rewrite set_file_neq by nneq. exact Hi.
+      * apply set_file_eq.
+      * intros y H1 H2. rewrite !set_file_neq by congruence. reflexivity.
+    + eexists. split; [reflexivity |]. repeat split; auto.
+Qed.
+
+Lemma get_rev_ff : forall w c, files w Counter = Some (ICounter c) -> ff get_rev w = (w, Done c).
+Proof. intros w c H. unfold get_rev. cbn [ff apply_call]. rewrite H. reflexivity. Qed.
+
+(** linkDisk: refused when a file of the new name exists; otherwise both links are made *)
+Lemma link_disk_ff : forall w o nw ci cm,
+  files w (Img o) = Some ci -> files w (Meta o) = Some cm -> o <> nw ->
+  (files w (Img nw) <> None \/ files w (Meta nw) <> None) /\ ff (link_disk (Some o) (Some nw)) w = (w, Done Refused)
+  \/ (files w (Img nw) = None /\ files w (Meta nw) = None /\
+      ff (link_disk (Some o) (Some nw)) w =
+        (set_file (set_file w (Img nw) (Some ci)) (Meta nw) (Some cm), Done Ok)).
+Proof.
+  intros w o nw ci cm Hi Hm Hne. unfold link_disk. cbn [ff apply_call].
+  destruct (files w (Img nw)) as [c1 |] eqn:H1.
+  { left. split; [left; discriminate |]. destruct c1; reflexivity. }
+  cbn [is_err negb ff apply_call].
+  destruct (files w (Meta nw)) as [c2 |] eqn:H2.
+  { left. split; [right; discriminate |]. destruct c2; reflexivity. }
+  cbn [is_err negb ff apply_call]. rewrite Hi, H1. cbn [is_err ff apply_call].
+  rewrite set_file_neq by nneq. rewrite Hm. rewrite set_file_neq by nneq. rewrite H2.
+  cbn [is_err ff apply_call sync_dir]. right. auto.
+Qed.
+
+Definition nodisk : disk := mkdisk None false false 0 0.
+
+Definition cnh_rest (g : cfg) (m : mem) (nh : dname) (par : option dname) (cr : N)
+  : prog (option dname * disk * res) :=
+  okf <- open_file_trunc (Img nh) ;;
+  if negb okf then Ret (None, nodisk, Failed) else
+  Do (CTruncate (Img nh) (i_size (m_info m))) (fun rt =>
+  if is_err rt then Ret (None, nodisk, Failed) else
+  rv <- get_rev ;;
+  let nd := mkdisk par false false cr rv in
+  e <- encode_to_file g (IDisk nd) (Meta nh) ;;
+  Ret (Some nh, nd, e)).
+
+Lemma create_new_head_unfold : forall g m n par cr,
+  create_new_head g m (Some (Head n)) par cr =
+  Do (CStat (Img (Head (S n)))) (fun rs =>
+  if is_err rs then cnh_rest g m (Head (S n)) par cr else
+  Do (CStat (Img (Head (S n)))) (fun rb =>
+  match rb with
+  | RStat true => Ret (None, nodisk, Failed)
+  | _ => e <- rm_disk (Some (Head (S n))) ;;
+         if is_ok e then cnh_rest g m (Head (S n)) par cr else Ret (None, nodisk, Failed)
+  end)).
+Proof. reflexivity. Qed.
+
+(** the part of createNewHead after the stale-file check, from a directory without that image *)
+Lemma cnh_rest_ff : forall g m nh par cr w c,
+  files w Counter = Some (ICounter c) -> files w (Img nh) = None ->
+  exists w1, ff (cnh_rest g m nh par cr) w = (w1, Done (Some nh, mkdisk par false false cr c, Ok))
+    /\ files w1 (Img nh) = Some (IImg (nextid w) 0)
+    /\ files w1 (Meta nh) = Some (IDisk (mkdisk par false false cr c))
+    /\ files w1 (MetaTmp nh) = None
+    /\ (forall x, x <> Img nh -> x <> Meta nh -> x <> MetaTmp nh -> files w1 x = files w x)
+    /\ nextid w1 = N.succ (nextid w).
+Proof.
+  intros g m nh par cr w c Hc Hn. unfold cnh_rest, open_file_trunc.
+  cbn [bind ff apply_call]. rewrite Hn. cbn [is_err ff apply_call is_img bind]. rewrite Hn.
+  cbn [is_err negb ff apply_call bind].
+  assert (Hcr : files (created w (Img nh)) (Img nh) = Some (IImg (nextid w) 0)).
+  { unfold created. cbn [files]. apply updf_eq. }
+  rewrite Hcr. cbn [is_err ff].
+  rewrite ff_bind. rewrite (get_rev_ff _ c).
+  2:{ unfold created. cbn [files]. rewrite updf_neq by nneq. exact Hc. }
+  rewrite ff_bind. rewrite ff_encode by (cbn; auto; right; eexists; reflexivity).
+  cbn [ff]. eexists. split; [reflexivity |]. split; [| split; [| split; [| split]]].
+  - rewrite enc_fs_other by (cbn; nneq). exact Hcr.
+  - apply enc_fs_self. right. eexists. reflexivity.
+  - apply (enc_fs_tmp _ (Meta nh)).
+  - intros x H1 H2 H3. rewrite enc_fs_other by (cbn; assumption).
+    unfold created. cbn [files]. apply updf_neq. congruence.
+  - reflexivity.
+Qed.
+
+(** createNewHead: either the stale head file holds data (error, nothing changed), or the new
+    head exists afterwards with a fresh inode and its metadata file *)
+Lemma cnh_ff : forall g m n par cr w c,
+  files w Counter = Some (ICounter c) ->
+  let nh := Head (S n) in
+  (ff (create_new_head g m (Some (Head n)) par cr) w = (w, Done (None, nodisk, Failed)))
+  \/ exists w1, ff (create_new_head g m (Some (Head n)) par cr) w
+                = (w1, Done (Some nh, mkdisk par false false cr c, Ok))
+      /\ files w1 (Img nh) = Some (IImg (nextid w) 0)
+      /\ files w1 (Meta nh) = Some (IDisk (mkdisk par false false cr c))
+      /\ files w1 (MetaTmp nh) = None
+      /\ (forall x, x <> Img nh -> x <> Meta nh -> x <> MetaTmp nh -> files w1 x = files w x)
+      /\ nextid w1 = N.succ (nextid w).
+Proof.
+  intros g m n par cr w c Hc nh. rewrite create_new_head_unfold. fold nh. cbn [ff apply_call].
+  destruct (files w (Img nh)) as [ci |] eqn:Hi.
+  2:{ cbn [is_err]. right. apply cnh_rest_ff; assumption. }
+  assert (Hnoerr : forall b, is_err (RStat b) = false) by reflexivity.
+  assert (Hcase : (exists b, (match ci with IImg _ g0 => (w, RStat (N.ltb 0 g0)) | _ => (w, RStat true) end) = (w, RStat b))).
+  { destruct ci; eauto. }
+  destruct Hcase as [b Hb]. rewrite Hb. rewrite Hnoerr. cbn [ff apply_call]. rewrite Hi, Hb.
+  destruct b.
+  - left. reflexivity.
+  - rewrite ff_bind. destruct (rm_disk_ff w nh) as [w0 [Hff [H1 [H2 [H3 H4]]]]]. rewrite Hff. cbn [is_ok res_eqb].
+    right. destruct (cnh_rest_ff g m nh par cr w0 c) as [w1 [Hff1 [K1 [K2 [K3 [K4 K5]]]]]].
+    + rewrite H3 by nneq. exact Hc.
+    + exact H1.
+    + exists w1. rewrite Hff1. rewrite H4 in *. repeat split; auto.
+      intros x X1 X2 X3. rewrite K4 by assumption. apply H3; assumption.
+Qed.
+
+(** ** facts that follow from a well-formed view *)
+
+Lemma find_mb_in : forall l mb, NoDup (names_of_chain l) -> In mb l -> find_mb (mb_name mb) l = Some mb.
+Proof.
+  induction l as [| a t IH]; intros mb Hnd Hin; [contradiction |].
+  cbn in *. inversion Hnd as [| x l' Hnotin Hnd']; subst.
+  destruct Hin as [Heq | Hin].
+  - subst. rewrite dname_eqb_refl. reflexivity.
+  - destruct (dname_eqb (mb_name a) (mb_name mb)) eqn:E.
+    + apply dname_eqb_eq in E. exfalso. apply Hnotin. rewrite E. apply in_map. exact Hin.
+    + apply IH; assumption.
+Qed.
+
+Lemma find_mb_none : forall l d, ~ In d (names_of_chain l) -> find_mb d l = None.
+Proof.
+  induction l as [| a t IH]; intros d Hn; [reflexivity |].
+  cbn in *. destruct (dname_eqb (mb_name a) d) eqn:E.
+  - apply dname_eqb_eq in E. exfalso. apply Hn. left. exact E.
+  - apply IH. intro H. apply Hn. right. exact H.
+Qed.
+
+Lemma find_mb_some_in : forall l d mb, find_mb d l = Some mb -> In mb l /\ mb_name mb = d.
+Proof.
+  induction l as [| a t IH]; intros d mb H; [discriminate |].
+  cbn in H. destruct (dname_eqb (mb_name a) d) eqn:E.
+  - inversion H; subst. apply dname_eqb_eq in E. split; [left; reflexivity | exact E].
+  - destruct (IH d mb H). split; [right; assumption | assumption].
+Qed.
+
+Lemma snap_not_head : forall tl k, Forall (fun mb => is_snap (mb_name mb)) tl -> ~ In (Head k) (names_of_chain tl).
+Proof.
+  intros tl k H Hin. unfold names_of_chain in Hin. apply in_map_iff in Hin. destruct Hin as [mb [Hn Hm]].
+  eapply Forall_forall in H; [| exact Hm]. destruct H as [s Hs]. congruence.
+Qed.
+
+(** everything the proofs about one operation need from "the directory recovers to a
+    well-formed view with which the memory agrees" *)
+Record ctx (g : cfg) (w : fs) (v : chainview) (m : mem) : Prop := mkctx {
+  cx_rec : recover g w = Some v;
+  cx_wf : wf_view v;
+  cx_ag : agree g v m;
+  cx_fresh : ids_fresh w;
+  cx_heads : forall k, m_children m (Some (Head k)) = []
+}.
+
+Lemma ctx_shape : forall g w v m, ctx g w v m ->
+  exists n id0 d0 tl c,
+    cv_chain v = mkmember (Head n) id0 d0 :: tl
+    /\ i_head (cv_info v) = Some (Head n) /\ i_head (m_info m) = Some (Head n)
+    /\ Forall (fun mb => is_snap (mb_name mb)) tl
+    /\ NoDup (names_of_chain (cv_chain v)) /\ NoDup (map mb_id (cv_chain v))
+    /\ files w Vol = Some (IVol (cv_info v)) /\ files w Counter = Some (ICounter c)
+    /\ linked (files w) (cv_chain v)
+    /\ length (cv_chain v) <= maxlen g
+    /\ m_disks m (Head n) = Some d0
+    /\ i_parent (cv_info v) = d_parent d0.
+Proof.
+  intros g w v m [Hr [n [id0 [d0 [tl [H1 [H2 [H3 [H4 [H5 H6]]]]]]]]] Hag Hf Hh].
+  destruct (recover_elim g w v Hr) as [Hvol [h [c [Hhd [Hw Hc]]]]].
+  exists n, id0, d0, tl, c.
+  destruct (agree_head g v m Hag) as [Ha1 Ha2].
+  destruct (walk_linked _ _ _ _ Hw) as [Hl _]. destruct (walk_length _ _ _ _ Hw) as [Hlen _].
+  repeat split; try assumption; try congruence.
+  destruct Hag as [_ [Hd _]]. rewrite Hd, H1. cbn. rewrite Nat.eqb_refl. reflexivity.
+Qed.
+
+(** [ospec]: like [op_spec], with the full context re-established for the final state *)
+Definition ospec (g : cfg) (w : fs) (v : chainview) (m : mem) (p : prog (mem * res)) : Prop :=
+  exists w' m' r vpost,
+    ff p w = (w', Done (m', r))
+    /\ ctx g w' vpost m'
+    /\ Forall (Good g v vpost) (states p w)
+    /\ (r <> Ok -> vpost = v /\ m' = m).
+
+(** ** Snapshot (createDisk) *)
+
+Definition snap_S1 (nh sn : dname) (x : name) : Prop :=
+  In x [Img nh; Meta nh; MetaTmp nh; Img sn; Meta sn; MetaTmp sn; VolTmp].
+
+Lemma snap_S1_disjoint : forall l nh sn x,
+  ~ In nh (names_of_chain l) -> ~ In sn (names_of_chain l) -> snap_S1 nh sn x -> ~ footprint l x.
+Proof.
+  intros l nh sn x H1 H2 Hx Hf. unfold snap_S1 in Hx. cbn in Hx.
+  repeat (destruct Hx as [Hx | Hx]; [subst x | ]); try contradiction.
+  - apply footprint_img in Hf. contradiction.
+  - apply footprint_meta in Hf. contradiction.
+  - exact (footprint_tmp _ _ Hf).
+  - apply footprint_img in Hf. contradiction.
+  - apply footprint_meta in Hf. contradiction.
+  - exact (footprint_tmp _ _ Hf).
+  - exact (footprint_voltmp _ Hf).
+Qed.
+
+(** the clean-up of createDisk's error exits only touches the new names *)
+Lemma snap_cleanup_within : forall nh sn (m' : mem) (e : res),
+  within (snap_S1 nh sn)
+    (_ <- rm_disk (Some nh) ;; _ <- rm_disk (Some sn) ;; Ret (m', e)).
+Proof.
+  intros nh sn m' e. apply withinQ_within with (Q := fun _ => True).
+  eapply withinQ_bind; [apply wq_rm_disk with (Q := fun _ => True); [| auto] |].
+  { intros x Hx. inversion Hx; subst. unfold snap_S1; cbn; auto 10. }
+  intros _ _. eapply withinQ_bind; [apply wq_rm_disk with (Q := fun _ => True); [| auto] |].
+  { intros x Hx. inversion Hx; subst. unfold snap_S1; cbn; auto 10. }
+  intros _ _. exact I.
+Qed.
+
+Lemma states_ret_good : forall g v vpost w (a : mem * res), recover g w = Some v -> Forall (Good g v vpost) (states (Ret a) w).
+Proof. intros. apply Forall_states_ret. apply Good_pre. assumption. Qed.
+
+(** refusal: nothing happened *)
+Lemma ospec_refuse : forall g w v m p r,
+  ctx g w v m -> r <> Ok -> p = Ret (m, r) -> ospec g w v m p.
+Proof.
+  intros g w v m p r Hc Hr Hp. subst p. exists w, m, r, v. split; [reflexivity |]. split; [exact Hc |].
+  split; [apply states_ret_good; apply Hc | auto].
+Qed.
+
+
+(** the commit stage of createDisk: volume.meta is rewritten to name the new head, then the old
+    head's two files are removed *)
+Lemma cd_commit_spec : forall g w3 v ma n s nd rec idn id0 d0 tl gn,
+  let nh := Head (S n) in let sn := Snap s in let oh := Head n in
+  recover g w3 = Some v ->
+  cv_chain v = mkmember oh id0 d0 :: tl ->
+  Forall (fun mb => is_snap (mb_name mb)) tl ->
+  NoDup (names_of_chain (cv_chain v)) ->
+  ~ In sn (names_of_chain (cv_chain v)) ->
+  S (length (cv_chain v)) <= maxlen g ->
+  files w3 (Meta nh) = Some (IDisk nd) -> files w3 (Img nh) = Some (IImg idn 0) ->
+  files w3 (Meta sn) = Some (IDisk rec) -> files w3 (Img sn) = Some (IImg id0 gn) ->
+  d_parent nd = Some sn -> d_parent rec = d_parent d0 ->
+  let mc := cd_memc ma (Some oh) nh in
+  let info' := set_head_info (m_info mc) (Some nh) true (Some sn) (d_rev nd) in
+  let vpost := mkview info' (mkmember nh idn nd :: mkmember sn id0 rec :: tl) in
+  exists w5,
+    ff (cd_commit g ma (Some oh) (Some sn) nh nd) w3 = (w5, Done (set_info mc info', Ok))
+    /\ recover g w5 = Some vpost
+    /\ Forall (Good g v vpost) (states (cd_commit g ma (Some oh) (Some sn) nh nd) w3).
+Proof.
+  intros g w3 v ma n s nd rec idn id0 d0 tl gn nh sn oh Hrec Hchain Hsnaps Hnd Hsn Hlen
+         Hmnh Hinh Hmsn Hisn Hpnd Hprec mc info' vpost.
+  destruct (recover_elim g w3 v Hrec) as [Hvol [h [c [Hhd [Hw Hc]]]]].
+  destruct (walk_linked _ _ _ _ Hw) as [Hlink _].
+  assert (Hnh : ~ In nh (names_of_chain (cv_chain v))).
+  { rewrite Hchain. cbn. intros [H | H]; [inversion H; lia | exact (snap_not_head tl (S n) Hsnaps H)]. }
+  assert (Hoh_tl : ~ In oh (names_of_chain tl)) by (apply snap_not_head; exact Hsnaps).
+  (* the directory right after the commit *)
+  set (w4 := enc_fs w3 Vol (IVol info')).
+  assert (Hlink4 : linked (files w4) (mkmember nh idn nd :: mkmember sn id0 rec :: tl)).
+  { cbn [linked mb_name mb_disk mb_id]. subst w4.
+    rewrite !enc_fs_other by (cbn; discriminate).
+    split; [exact Hmnh |]. split; [eauto |]. split; [exact Hpnd |].
+    split; [exact Hmsn |]. split; [eauto |].
+    rewrite Hchain in Hlink. cbn [linked mb_name mb_disk] in Hlink. destruct Hlink as [_ [_ [Hp0 Htl]]].
+    split; [rewrite Hprec; exact Hp0 |].
+    eapply linked_frame; [exact Htl |]. intros x Hx. split; apply enc_fs_other; cbn; discriminate. }
+  assert (Hrec4 : recover g w4 = Some vpost).
+  { subst vpost. apply recover_intro with (h := nh) (c := c).
+    - subst w4. apply enc_fs_self. left. reflexivity.
+    - reflexivity.
+    - apply (linked_walk (files w4) (mkmember nh idn nd :: mkmember sn id0 rec :: tl) (maxlen g) Hlink4); [discriminate |].
+      rewrite Hchain in Hlen. cbn [length] in *. lia.
+    - subst w4. rewrite enc_fs_other; [exact Hc | discriminate | cbn; discriminate]. }
+  (* removing the old head afterwards does not touch the new chain *)
+  assert (Hpost_fp : forall x, In x [Img oh; Meta oh] -> ~ footprint (cv_chain vpost) x).
+  { intros x Hx Hf. subst vpost. cbn [cv_chain] in Hf.
+    assert (Hno : ~ In oh (names_of_chain (mkmember nh idn nd :: mkmember sn id0 rec :: tl))).
+    { cbn. intros [H | [H | H]]; [inversion H; lia | discriminate | exact (Hoh_tl H)]. }
+    cbn in Hx. destruct Hx as [Hx | [Hx | []]]; subst x.
+    - apply footprint_img in Hf. exact (Hno Hf).
+    - apply footprint_meta in Hf. exact (Hno Hf). }
+  unfold cd_commit. fold mc. fold info'.
+  destruct (rm_disk_ff w4 oh) as [w5 [Hff5 [H5a [H5b [H5c H5d]]]]].
+  exists w5. split; [| split].
+  - rewrite ff_bind, ff_encode by (cbn; auto; left; reflexivity). fold w4. cbn [is_ok res_eqb negb].
+    rewrite ff_bind, Hff5. reflexivity.
+  - eapply recover_frame; [exact Hrec4 |]. intros x Hx. apply H5c.
+    + intro; subst x. apply (Hpost_fp (Img oh)); [left; reflexivity | exact Hx].
+    + intro; subst x. apply (Hpost_fp (Meta oh)); [right; left; reflexivity | exact Hx].
+  - apply Forall_states_bind.
+    + apply encode_states; [left; reflexivity | exact I | |].
+      * intros x Hx _. apply Good_pre. eapply recover_only_on; [exact Hrec | exact Hx |].
+        intros y Hy Hf. cbn in Hy. subst y. exact (footprint_voltmp _ Hf).
+      * apply Good_post. exact Hrec4.
+    + intros e He. rewrite ff_encode in * by (cbn; auto; left; reflexivity). cbn [fst snd] in *.
+      inversion He; subst e. cbn [is_ok res_eqb negb]. fold w4.
+      apply Forall_states_bind.
+      * eapply Forall_impl; [| apply (within_states _ (fun x => In x [Img oh; Meta oh]) (rm_disk (Some oh)) w4)].
+        { intros x Hx. apply Good_post. eapply recover_only_on; [exact Hrec4 | exact Hx | exact Hpost_fp]. }
+        apply withinQ_within with (Q := fun _ => True). apply wq_rm_disk; [| auto].
+        intros y Hy. inversion Hy; subst. cbn. auto.
+      * intros a Ha. apply Forall_states_ret. apply Good_post.
+        rewrite Hff5. cbn [fst].
+        eapply recover_frame; [exact Hrec4 |]. intros x Hx. apply H5c.
+        -- intro; subst x. apply (Hpost_fp (Img oh)); [left; reflexivity | exact Hx].
+        -- intro; subst x. apply (Hpost_fp (Meta oh)); [right; left; reflexivity | exact Hx].
+Qed.
+
+(** ** memory agreement after a snapshot *)
+
+Lemma child_in_cons2 : forall d a b t,
+  child_in d (a :: b :: t) = if dname_eqb (mb_name b) d then [mb_name a] else child_in d (b :: t).
+Proof. reflexivity. Qed.
+
+Lemma child_in_notin : forall d l, ~ In d (names_of_chain (tl l)) -> child_in d l = [].
+Proof.
+  intros d l. induction l as [| a t IH]; intros Hn; [reflexivity |].
+  destruct t as [| b t']; [reflexivity |].
+  rewrite child_in_cons2. cbn [tl names_of_chain map] in Hn.
+  destruct (dname_eqb (mb_name b) d) eqn:E.
+  - apply dname_eqb_eq in E. exfalso. apply Hn. left. exact E.
+  - apply IH. cbn [tl]. intro H. apply Hn. right. exact H.
+Qed.
+
+(** the child of a member below the second one does not depend on the first two *)
+Lemma child_in_skip : forall d a a' t, ~ (match t with b :: _ => mb_name b = d | [] => False end) ->
+  child_in d (a :: t) = child_in d (a' :: t).
+Proof.
+  intros d a a' t Hn. destruct t as [| b t']; [reflexivity |].
+  rewrite !child_in_cons2. destruct (dname_eqb (mb_name b) d) eqn:E; [| reflexivity].
+  apply dname_eqb_eq in E. contradiction.
+Qed.
+
+Lemma removelast_app1 : forall A (l : list A) x, removelast (l ++ [x]) = l.
+Proof. intros. rewrite removelast_app by discriminate. cbn. apply app_nil_r. Qed.
+
+Lemma memd_false : forall x l, ~ In x l -> memd x l = false.
+Proof.
+  induction l as [| y t IH]; intros Hn; [reflexivity |]. cbn.
+  rewrite dname_eqb_neq by (intro; subst; apply Hn; left; reflexivity).
+  apply IH. intro; apply Hn; right; assumption.
+Qed.
+
+Lemma removed_single : forall x, removed x [x] = [].
+Proof. intro x. cbn. rewrite dname_eqb_refl. reflexivity. Qed.
+
+Lemma snap_agree : forall g v m n s id0 d0 tl nd rec idn,
+  let nh := Head (S n) in let sn := Snap s in let oh := Head n in
+  agree g v m ->
+  cv_chain v = mkmember oh id0 d0 :: tl ->
+  Forall (fun mb => is_snap (mb_name mb)) tl ->
+  NoDup (names_of_chain (cv_chain v)) ->
+  ~ In sn (names_of_chain (cv_chain v)) ->
+  m_children m (Some sn) = [] -> (forall k, m_children m (Some (Head k)) = []) ->
+  d_parent rec = d_parent d0 ->
+  d_parent d0 = match tl with y :: _ => Some (mb_name y) | [] => None end ->
+  let m2 := cd_mem2 m nh nd sn in
+  let m5 := cd_mem5 (cd_mem3 m2 oh sn rec) oh sn in
+  let mc := cd_memc m5 (Some oh) nh in
+  let info' := set_head_info (m_info mc) (Some nh) true (Some sn) (d_rev nd) in
+  agree g (mkview info' (mkmember nh idn nd :: mkmember sn id0 rec :: tl)) (set_info mc info')
+  /\ (forall k, m_children (set_info mc info') (Some (Head k)) = []).
+Proof.
+  intros g v m n s id0 d0 tl nd rec idn nh sn oh [Hinfo [Hdisks [Hchild [Hfix Hact]]]] Hchain Hsnaps Hnd Hsn Hcs Hheads Hprec Hp0
+         m2 m5 mc info'.
+  assert (Hoh_tl : ~ In oh (names_of_chain tl)) by (apply snap_not_head; exact Hsnaps).
+  assert (Hnh_tl : ~ In nh (names_of_chain tl)) by (apply snap_not_head; exact Hsnaps).
+  assert (Hsn_tl : ~ In sn (names_of_chain tl)).
+  { intro H. apply Hsn. rewrite Hchain. right. exact H. }
+  rewrite Hchain in *. cbn [names_of_chain map mb_name] in Hnd, Hact.
+  (* the children map after the updates *)
+  set (p0 := d_parent d0) in *.
+  assert (Hpar3 : parent_of (cd_mem3 m2 oh sn rec) oh = p0).
+  { unfold parent_of, cd_mem3. cbn [m_disks set_disks]. rewrite updd_eq. exact Hprec. }
+  assert (Hch5 : m_children m5 =
+                 add_child (rm_child (add_child (m_children m) (Some sn) nh) p0 oh) p0 sn).
+  { subst m5. unfold cd_mem5. cbn [m_children set_active]. unfold update_child. rewrite Hpar3.
+    cbn [m_children set_children cd_mem3 set_disks m2 cd_mem2 cd_mem1]. reflexivity. }
+  assert (Hp0_sn : p0 <> Some sn).
+  { subst p0. rewrite Hp0. destruct tl as [| y t]; [discriminate |]. intro H. inversion H.
+    apply Hsn_tl. left. assumption. }
+  assert (Hp0_head : forall k, p0 <> Some (Head k)).
+  { intros k. subst p0. rewrite Hp0. destruct tl as [| y t]; [discriminate |]. intro H. inversion H as [Hy].
+    inversion Hsnaps as [| ? ? Hs _]; subst. destruct Hs as [s' Hs']. congruence. }
+  assert (Hkey : forall q, q <> p0 -> q <> Some sn -> m_children m5 q = m_children m q).
+  { intros q H1 H2. rewrite Hch5. unfold add_child, rm_child.
+    rewrite updc_neq by congruence. rewrite updc_neq by congruence. rewrite updc_neq by congruence. reflexivity. }
+  assert (Hkey_sn : m_children m5 (Some sn) = [nh]).
+  { rewrite Hch5. unfold add_child at 1. rewrite updc_neq by exact Hp0_sn.
+    unfold rm_child. rewrite updc_neq by exact Hp0_sn. unfold add_child. rewrite updc_eq, Hcs. reflexivity. }
+  assert (Hmc_ch : m_children (set_info mc info') = m_children m5) by reflexivity.
+  split.
+  - unfold agree. cbn [cv_info cv_chain m_info set_info].
+    split; [apply info_sim_refl |]. split; [| split; [| split]].
+    + (* diskData *)
+      intros d. cbn [m_disks set_info mc cd_memc set_active set_disks m5 cd_mem5 update_child set_children cd_mem3 m2 cd_mem2 cd_mem1].
+      cbn [find_mb mb_name].
+      destruct (dname_dec oh d) as [E1 | E1].
+      { subst d. rewrite updd_eq. rewrite dname_eqb_neq by (intro H; inversion H; lia).
+        rewrite dname_eqb_neq by discriminate. rewrite find_mb_none by exact Hoh_tl. reflexivity. }
+      rewrite updd_neq by exact E1. rewrite updd_neq by exact E1.
+      destruct (dname_dec sn d) as [E2 | E2].
+      { subst d. rewrite updd_eq. rewrite dname_eqb_neq by discriminate. rewrite dname_eqb_refl. reflexivity. }
+      rewrite updd_neq by exact E2.
+      destruct (dname_dec nh d) as [E3 | E3].
+      { subst d. rewrite updd_eq. rewrite dname_eqb_refl. reflexivity. }
+      rewrite updd_neq by exact E3. rewrite dname_eqb_neq by exact E3. rewrite dname_eqb_neq by exact E2.
+      rewrite Hdisks. cbn [find_mb mb_name]. rewrite dname_eqb_neq by exact E1. reflexivity.
+    + (* children of the members *)
+      intros d Hd. rewrite Hmc_ch. cbn [names_of_chain map mb_name] in Hd.
+      destruct Hd as [Hd | [Hd | Hd]].
+      * subst d. rewrite Hkey; [| apply not_eq_sym; apply Hp0_head | discriminate].
+        replace (m_children m (Some nh)) with (@nil dname) by (symmetry; apply Hheads).
+        symmetry. apply child_in_notin. cbn [List.tl names_of_chain map mb_name].
+        intros [H | H]; [discriminate | exact (Hnh_tl H)].
+      * subst d. rewrite Hkey_sn. rewrite child_in_cons2. cbn [mb_name]. rewrite dname_eqb_refl. reflexivity.
+      * rewrite child_in_cons2. cbn [mb_name]. rewrite dname_eqb_neq by (intro; subst; exact (Hsn_tl Hd)).
+        destruct (odname_eqb p0 (Some d)) eqn:Ep.
+        -- apply odname_eqb_eq in Ep. rewrite <- Ep. rewrite Hch5.
+           unfold add_child at 1. rewrite updc_eq. unfold rm_child. rewrite updc_eq.
+           unfold add_child. rewrite updc_neq by (apply not_eq_sym; exact Hp0_sn).
+           assert (Hold : m_children m p0 = [oh]).
+           { rewrite Ep. rewrite (Hchild d) by (right; exact Hd).
+             subst p0. rewrite Hp0 in Ep. destruct tl as [| y t]; [discriminate |]. inversion Ep as [Hy].
+             rewrite child_in_cons2. cbn [mb_name]. rewrite Hy. rewrite dname_eqb_refl. reflexivity. }
+           rewrite Hold. rewrite removed_single. cbn [memd app].
+           subst p0. rewrite Hp0 in Ep. destruct tl as [| y t]; [discriminate |]. inversion Ep as [Hy].
+           rewrite child_in_cons2. rewrite Hy, dname_eqb_refl. reflexivity.
+        -- assert (Ep' : p0 <> Some d) by (intro H; rewrite H, odname_eqb_refl in Ep; discriminate).
+           rewrite Hkey; [| apply not_eq_sym; exact Ep' | intro H; inversion H; subst; exact (Hsn_tl Hd)].
+           rewrite (Hchild d) by (right; exact Hd).
+           apply child_in_skip. subst p0. rewrite Hp0 in Ep'. destruct tl as [| y t]; [auto |].
+           intro Hy. apply Ep'. rewrite Hy. reflexivity.
+    + (* entries of names outside the chain (repaired code only) *)
+      intros Hfx d Hd. rewrite Hmc_ch. cbn [names_of_chain map mb_name] in Hd.
+      assert (Hd1 : d <> nh) by (intro; subst; apply Hd; left; reflexivity).
+      assert (Hd2 : d <> sn) by (intro; subst; apply Hd; right; left; reflexivity).
+      assert (Hd3 : ~ In d (names_of_chain tl)) by (intro H; apply Hd; right; right; exact H).
+      rewrite Hkey.
+      * destruct (dname_dec d oh) as [E | E]; [subst d; apply Hheads |].
+        apply Hfix; [exact Hfx |]. cbn [names_of_chain map mb_name]. intros [H | H]; [congruence | exact (Hd3 H)].
+      * intro H. subst p0. rewrite Hp0 in H. destruct tl as [| y t]; [discriminate |]. inversion H; subst.
+        apply Hd3. left. reflexivity.
+      * congruence.
+    + (* activeDiskData *)
+      cbn [m_active set_info mc cd_memc set_active set_disks m5 cd_mem5 update_child set_children cd_mem3 m2 cd_mem2 cd_mem1].
+      rewrite Hact. cbn [rev names_of_chain map mb_name]. rewrite removelast_app1.
+      rewrite <- !app_assoc. reflexivity.
+  - intros k. rewrite Hmc_ch. rewrite Hkey; [apply Hheads | apply not_eq_sym; apply Hp0_head | discriminate].
+Qed.
+
+(** the clean-up exits of createDisk: nothing of the chain is touched, the memory is the old one *)
+Lemma cd_cleanup_spec : forall g w1 v vpost nh sn m e,
+  recover g w1 = Some v ->
+  ~ In nh (names_of_chain (cv_chain v)) -> ~ In sn (names_of_chain (cv_chain v)) ->
+  exists w2, ff (cd_cleanup nh (Some sn) m e) w1 = (w2, Done (m, e))
+    /\ recover g w2 = Some v
+    /\ Forall (Good g v vpost) (states (cd_cleanup nh (Some sn) m e) w1).
+Proof.
+  intros g w1 v vpost nh sn m e Hrec Hnh Hsn.
+  pose proof (snap_cleanup_within nh sn m e) as Hw. fold (cd_cleanup nh (Some sn) m e) in Hw.
+  assert (Hdis : forall x, snap_S1 nh sn x -> ~ footprint (cv_chain v) x).
+  { intros x Hx. exact (snap_S1_disjoint _ nh sn x Hnh Hsn Hx). }
+  unfold cd_cleanup in *.
+  destruct (rm_disk_ff w1 nh) as [wa [Hffa _]]. destruct (rm_disk_ff wa sn) as [wb [Hffb _]].
+  exists wb. split; [| split].
+  - rewrite ff_bind, Hffa, ff_bind, Hffb. reflexivity.
+  - pose proof (within_ff _ _ _ w1 Hw) as Hoo. rewrite ff_bind, Hffa, ff_bind, Hffb in Hoo. cbn [fst ff] in Hoo.
+    eapply recover_only_on; eauto.
+  - eapply within_good; eauto.
+Qed.
+
+Lemma ids_lt_fresh : forall g w v, recover g w = Some v -> ids_fresh w ->
+  forall mb, In mb (cv_chain v) -> (mb_id mb < nextid w)%N.
+Proof.
+  intros g w v Hr Hf mb Hin. destruct (recover_elim g w v Hr) as [_ [h [c [_ [Hw _]]]]].
+  destruct (walk_linked _ _ _ _ Hw) as [Hl _]. clear Hw.
+  induction (cv_chain v) as [| a t IH]; [contradiction |].
+  cbn [linked] in Hl. destruct Hl as [_ [[gn Hi] [_ Ht]]]. destruct Hin as [Heq | Hin].
+  - subst. eapply Hf. exact Hi.
+  - apply IH; assumption.
+Qed.
+
+Lemma wf_view_snap : forall v n s id0 d0 tl nd rec idn info',
+  let nh := Head (S n) in let sn := Snap s in let oh := Head n in
+  cv_chain v = mkmember oh id0 d0 :: tl ->
+  Forall (fun mb => is_snap (mb_name mb)) tl ->
+  NoDup (names_of_chain (cv_chain v)) -> NoDup (map mb_id (cv_chain v)) ->
+  ~ In sn (names_of_chain (cv_chain v)) ->
+  (forall mb, In mb (cv_chain v) -> mb_id mb <> idn) ->
+  i_head info' = Some nh -> i_parent info' = d_parent nd ->
+  wf_view (mkview info' (mkmember nh idn nd :: mkmember sn id0 rec :: tl)).
+Proof.
+  intros v n s id0 d0 tl nd rec idn info' nh sn oh Hchain Hsnaps Hnd Hndi Hsn Hid Hh Hp.
+  rewrite Hchain in *. cbn [names_of_chain map mb_name mb_id] in *.
+  exists (S n), idn, nd, (mkmember sn id0 rec :: tl). cbn [cv_chain cv_info].
+  split; [reflexivity |]. split; [exact Hh |]. split; [| split; [| split]].
+  - constructor; [exists s; reflexivity | exact Hsnaps].
+  - cbn [names_of_chain map mb_name]. inversion Hnd as [| ? ? Hn1 Hn2]; subst.
+    constructor.
+    + intros [H | H]; [discriminate | exact (snap_not_head tl (S n) Hsnaps H)].
+    + constructor; [intro H; apply Hsn; right; exact H | exact Hn2].
+  - cbn [map mb_id]. inversion Hndi as [| ? ? Hi1 Hi2]; subst. constructor.
+    + intros [H | H].
+      * apply (Hid (mkmember oh id0 d0)); [left; reflexivity | cbn; congruence].
+      * apply in_map_iff in H. destruct H as [mb [Hm1 Hm2]]. apply (Hid mb); [right; exact Hm2 | exact Hm1].
+    + constructor; assumption.
+  - exact Hp.
+Qed.
+
+Lemma cd_link_spec : forall g w w1 v m n s id0 d0 tl c user cr,
+  let nh := Head (S n) in let sn := Snap s in let oh := Head n in
+  let nd := mkdisk (Some sn) false false cr c in
+  ctx g w v m ->
+  recover g w1 = Some v -> ids_fresh w1 ->
+  cv_chain v = mkmember oh id0 d0 :: tl ->
+  ~ In sn (names_of_chain (cv_chain v)) ->
+  S (length (cv_chain v)) <= maxlen g ->
+  m_children m (Some sn) = [] ->
+  files w1 (Img nh) = Some (IImg (nextid w) 0) -> files w1 (Meta nh) = Some (IDisk nd) ->
+  files w1 Counter = Some (ICounter c) ->
+  (forall p, Forall (Good g v p) (states (Ret (m, Failed)) w) -> True) ->
+  exists w' m' r vpost,
+    ff (cd_link g m (Some oh) (Some sn) nh nd user cr) w1 = (w', Done (m', r))
+    /\ ctx g w' vpost m'
+    /\ Forall (Good g v vpost) (states (cd_link g m (Some oh) (Some sn) nh nd user cr) w1)
+    /\ (r <> Ok -> vpost = v /\ m' = m).
+Proof.
+  intros g w w1 v m n s id0 d0 tl c user cr nh sn oh nd Hctx Hrec1 Hfr1 Hchain Hsn Hlen Hcs Hinh Hmnh Hcnt _.
+  destruct (ctx_shape g w v m Hctx) as [n' [id0' [d0' [tl' [c' [Hchain' [Hvh [Hmh [Hsnaps [Hnd [Hndi [Hvol [Hcnt0 [Hlink0 [Hlen0 [Hd0 Hpar]]]]]]]]]]]]]]]].
+  rewrite Hchain in Hchain'. inversion Hchain'; subst n' id0' d0' tl'. clear Hchain'.
+  pose proof (cx_ag _ _ _ _ Hctx) as Hag. pose proof (cx_heads _ _ _ _ Hctx) as Hheads.
+  assert (Hnh : ~ In nh (names_of_chain (cv_chain v))).
+  { rewrite Hchain. cbn. intros [H | H]; [inversion H; lia | exact (snap_not_head tl (S n) Hsnaps H)]. }
+  assert (Hdis : forall x, snap_S1 nh sn x -> ~ footprint (cv_chain v) x).
+  { intros x Hx. exact (snap_S1_disjoint _ nh sn x Hnh Hsn Hx). }
+  (* the old head's files in w1 *)
+  destruct (recover_elim g w1 v Hrec1) as [Hvol1 [h1 [c1 [Hhd1 [Hw1 Hc1]]]]].
+  destruct (walk_linked _ _ _ _ Hw1) as [Hlink1 _]. rewrite Hchain in Hlink1.
+  cbn [linked mb_name mb_disk mb_id] in Hlink1. destruct Hlink1 as [Hmoh [[gn Hioh] [Hp0 Htl1]]].
+  unfold cd_link.
+  destruct (link_disk_ff w1 oh sn (IImg id0 gn) (IDisk d0) Hioh Hmoh) as [[_ Hffl] | [Hn1 [Hn2 Hffl]]]; [discriminate | |].
+  - (* refused: a file of that name exists (it is not in the chain) *)
+    destruct (cd_cleanup_spec g w1 v v nh sn m Refused Hrec1 Hnh Hsn) as [w2 [Hff2 [Hrec2 Hst2]]].
+    exists w2, m, Refused, v. split; [| split; [| split]].
+    + rewrite ff_bind, Hffl. cbn [is_ok res_eqb negb]. exact Hff2.
+    + constructor; try apply Hctx; [exact Hrec2 |].
+      pose proof (ff_fresh _ (cd_cleanup nh (Some sn) m Refused) w1 Hfr1) as H. rewrite Hff2 in H. exact H.
+    + apply Forall_states_bind.
+      * eapply within_good; [| exact Hrec1 | exact Hdis].
+        apply withinQ_within with (Q := fun _ => True). apply wq_link_disk; [| auto].
+        intros x Hx. inversion Hx; subst. unfold snap_S1; cbn; auto 10.
+      * intros e He. rewrite Hffl in *. cbn [fst snd] in *. inversion He; subst e. cbn [is_ok res_eqb negb]. exact Hst2.
+    + auto.
+  - (* both links made *)
+    set (w2 := set_file (set_file w1 (Img sn) (Some (IImg id0 gn))) (Meta sn) (Some (IDisk d0))) in *.
+    assert (Hoo2 : only_on (snap_S1 nh sn) w1 w2).
+    { intros x Hx. subst w2. rewrite !set_file_neq; [reflexivity | |]; intro; subst x; apply Hx; unfold snap_S1; cbn; auto 10. }
+    assert (Hrec2 : recover g w2 = Some v) by (eapply recover_only_on; eauto).
+    assert (Hc2 : files w2 Counter = Some (ICounter c)).
+    { subst w2. rewrite !set_file_neq by discriminate. exact Hcnt. }
+    (* the snapshot's metadata *)
+    set (rec := mkdisk (d_parent d0) (d_removed d0) user cr c).
+    set (m2 := cd_mem2 m nh nd sn). set (m3 := cd_mem3 m2 oh sn rec). set (m5 := cd_mem5 m3 oh sn).
+    assert (Hm2oh : m_disks m2 oh = Some d0).
+    { subst m2. unfold cd_mem2, cd_mem1. cbn [m_disks set_children set_disks]. rewrite updd_neq by (intro H; inversion H; lia). exact Hd0. }
+    set (w3 := enc_fs w2 (Meta sn) (IDisk rec)).
+    assert (Hffm : ff (cd_snapmeta g m (Some oh) (Some sn) nh nd user cr) w2 = (w3, Done (m5, Ok))).
+    { unfold cd_snapmeta. fold m2. rewrite ff_bind, (get_rev_ff _ c Hc2). rewrite Hm2oh. fold rec. fold m3.
+      rewrite ff_bind, ff_encode by (cbn; auto; right; eexists; reflexivity). reflexivity. }
+    assert (Hoo3 : only_on (snap_S1 nh sn) w2 w3).
+    { intros x Hx. subst w3. apply enc_fs_other; intro; subst x; apply Hx; unfold snap_S1; cbn; auto 10. }
+    assert (Hrec3 : recover g w3 = Some v) by (eapply recover_only_on; eauto).
+    assert (Hw3a : files w3 (Meta nh) = Some (IDisk nd)).
+    { subst w3. rewrite enc_fs_other by (cbn; discriminate). subst w2. rewrite !set_file_neq by discriminate. exact Hmnh. }
+    assert (Hw3b : files w3 (Img nh) = Some (IImg (nextid w) 0)).
+    { subst w3. rewrite enc_fs_other by (cbn; discriminate). subst w2. rewrite !set_file_neq by discriminate. exact Hinh. }
+    assert (Hw3c : files w3 (Meta sn) = Some (IDisk rec)).
+    { subst w3. apply enc_fs_self. right. eexists. reflexivity. }
+    assert (Hw3d : files w3 (Img sn) = Some (IImg id0 gn)).
+    { subst w3. rewrite enc_fs_other by (cbn; discriminate). subst w2. rewrite set_file_neq by discriminate. apply set_file_eq. }
+    destruct (cd_commit_spec g w3 v m5 n s nd rec (nextid w) id0 d0 tl gn Hrec3 Hchain Hsnaps Hnd Hsn Hlen Hw3a Hw3b Hw3c Hw3d eq_refl eq_refl)
+      as [w5 [Hff5 [Hrec5 Hst5]]].
+    set (mc := cd_memc m5 (Some oh) nh) in *.
+    set (info' := set_head_info (m_info mc) (Some nh) true (Some sn) (d_rev nd)) in *.
+    set (vpost := mkview info' (mkmember nh (nextid w) nd :: mkmember sn id0 rec :: tl)) in *.
+    destruct (snap_agree g v m n s id0 d0 tl nd rec (nextid w) Hag Hchain Hsnaps Hnd Hsn Hcs Hheads eq_refl Hp0) as [Hag' Hheads'].
+    assert (Hfin : ff (e2 <- link_disk (Some oh) (Some sn);;
+                       (if negb (is_ok e2) then cd_cleanup nh (Some sn) m e2
+                        else mid <- cd_snapmeta g m (Some oh) (Some sn) nh nd user cr;;
+                             (let '(ma, e4) := mid in
+                              if negb (is_ok e4) then cd_cleanup nh (Some sn) ma e4
+                              else cd_commit g ma (Some oh) (Some sn) nh nd))) w1
+                   = (w5, Done (set_info mc info', Ok))).
+    { rewrite ff_bind, Hffl. cbn [is_ok res_eqb negb]. rewrite ff_bind, Hffm. cbn [is_ok res_eqb negb]. exact Hff5. }
+    exists w5, (set_info mc info'), Ok, vpost. split; [| split; [| split]].
+    + exact Hfin.
+    + constructor.
+      * exact Hrec5.
+      * eapply wf_view_snap; eauto.
+        -- intros mb Hin. pose proof (ids_lt_fresh g w v (cx_rec _ _ _ _ Hctx) (cx_fresh _ _ _ _ Hctx) mb Hin). lia.
+      * exact Hag'.
+      * match type of Hfin with ff ?p _ = _ => pose proof (ff_fresh _ p w1 Hfr1) as Hfr5 end.
+        rewrite Hfin in Hfr5. exact Hfr5.
+      * exact Hheads'.
+    + apply Forall_states_bind.
+      * eapply within_good; [| exact Hrec1 | exact Hdis].
+        apply withinQ_within with (Q := fun _ => True). apply wq_link_disk; [| auto].
+        intros x Hx. inversion Hx; subst. unfold snap_S1; cbn; auto 10.
+      * intros e He. rewrite Hffl in *. cbn [fst snd] in *. inversion He; subst e. cbn [is_ok res_eqb negb].
+        apply Forall_states_bind.
+        -- eapply within_good; [| exact Hrec2 | exact Hdis].
+           unfold cd_snapmeta. fold m2. apply withinQ_within with (Q := fun _ => True).
+           eapply withinQ_bind; [apply wq_get_rev with (Q := fun _ => True); auto |]. intros rv _.
+           destruct (m_disks m2 oh); [| exact I].
+           eapply withinQ_bind; [apply wq_encode with (Q := fun _ => True); auto; unfold snap_S1; cbn; auto 10 |].
+           intros e3 _. destruct (negb (is_ok e3)); exact I.
+        -- intros a Ha. rewrite Hffm in *. cbn [fst snd] in *. inversion Ha; subst a. cbn [is_ok res_eqb negb]. exact Hst5.
+    + intros H. congruence.
+Qed.
+
+Theorem create_disk_spec : forall g w v m s user cr,
+  ctx g w v m -> cfg_ok g ->
+  (fix_dup g = true \/ ~ In (Snap s) (names_of_chain (cv_chain v))) ->
+  (~ In (Snap s) (names_of_chain (cv_chain v)) -> m_children m (Some (Snap s)) = []) ->
+  ospec g w v m (create_disk g m s user cr).
+Proof.
+  intros g w v m s user cr Hctx Hcfg Hdup Hch.
+  destruct (ctx_shape g w v m Hctx) as [n [id0 [d0 [tl [c [Hchain [Hvh [Hmh [Hsnaps [Hnd [Hndi [Hvol [Hcnt [Hlink [Hlen [Hd0 Hpar]]]]]]]]]]]]]]]].
+  pose proof (cx_rec _ _ _ _ Hctx) as Hrec. pose proof (cx_ag _ _ _ _ Hctx) as Hag.
+  pose proof (cx_fresh _ _ _ _ Hctx) as Hfr.
+  destruct Hag as [Hinfo [Hdisks [Hchild [Hfixch Hact]]]].
+  assert (Hnh : ~ In (Head (S n)) (names_of_chain (cv_chain v))).
+  { rewrite Hchain. cbn. intros [H | H]; [inversion H; lia | exact (snap_not_head tl (S n) Hsnaps H)]. }
+  unfold create_disk. rewrite Hmh.
+  (* sync_dir: one call, nothing changes *)
+  assert (Hsync : forall (k : res -> prog (mem * res)), ospec g w v m (k Ok) -> ospec g w v m (bind sync_dir k)).
+  { intros k [w' [m' [r [vp [Hff [Hc' [Hst Hr]]]]]]]. exists w', m', r, vp.
+    split; [rewrite ff_bind, ff_sync_dir; exact Hff |]. split; [exact Hc' |]. split; [| exact Hr].
+    apply Forall_states_bind.
+    - cbn. constructor; [apply Good_pre; exact Hrec |]. constructor; [apply Good_pre; exact Hrec | constructor].
+    - intros a Ha. rewrite ff_sync_dir in *. cbn [fst snd] in *. inversion Ha; subst a. exact Hst. }
+  apply Hsync. clear Hsync. cbn [is_ok res_eqb negb].
+  (* chain length limit *)
+  destruct (Nat.ltb (maxlen g) (S (S (length (m_active m))))) eqn:Hmax.
+  { eapply ospec_refuse; [exact Hctx | | reflexivity]. discriminate. }
+  apply Nat.ltb_ge in Hmax.
+  assert (Hlen1 : S (length (cv_chain v)) <= maxlen g).
+  { rewrite Hact, rev_length in Hmax. unfold names_of_chain in Hmax. rewrite map_length in Hmax. lia. }
+  (* duplicate name (repaired code) *)
+  destruct (fix_dup g && match m_disks m (Snap s) with Some _ => true | None => false end) eqn:Hfd.
+  { eapply ospec_refuse; [exact Hctx | | reflexivity]. discriminate. }
+  assert (Hsn : ~ In (Snap s) (names_of_chain (cv_chain v))).
+  { destruct Hdup as [Hdup | Hdup]; [| exact Hdup]. rewrite Hdup in Hfd. cbn in Hfd.
+    intro Hin. rewrite Hdisks in Hfd. unfold names_of_chain in Hin. apply in_map_iff in Hin.
+    destruct Hin as [mb [Hn Hm]]. rewrite <- Hn in Hfd. rewrite (find_mb_in _ _ Hnd Hm) in Hfd. discriminate. }
+  assert (Hdis : forall x, snap_S1 (Head (S n)) (Snap s) x -> ~ footprint (cv_chain v) x).
+  { intros x Hx. exact (snap_S1_disjoint _ (Head (S n)) (Snap s) x Hnh Hsn Hx). }
+  assert (Hcnh_within : within (snap_S1 (Head (S n)) (Snap s)) (create_new_head g m (Some (Head n)) (Some (Snap s)) cr)).
+  { apply withinQ_within with (Q := cnh_post (Head (S n))). apply wq_create_new_head; unfold snap_S1; cbn; auto 10. }
+  destruct (cnh_ff g m n (Some (Snap s)) cr w c Hcnt) as [Hff1 | [w1 [Hff1 [K1 [K2 [K3 [K4 K5]]]]]]].
+  - (* the stale head file holds data: error, nothing changed *)
+    exists w, m, Failed, v. split; [| split; [| split]].
+    + rewrite ff_bind, Hff1. cbn [is_ok res_eqb negb rm_disk bind ff]. reflexivity.
+    + exact Hctx.
+    + apply Forall_states_bind.
+      * eapply within_good; [exact Hcnh_within | exact Hrec | exact Hdis].
+      * intros a Ha. rewrite Hff1 in *. cbn [fst snd] in *. inversion Ha; subst a.
+        cbn [is_ok res_eqb negb rm_disk bind]. apply states_ret_good. exact Hrec.
+    + auto.
+  - (* the new head exists *)
+    assert (Hoo1 : only_on (snap_S1 (Head (S n)) (Snap s)) w w1).
+    { intros x Hx. apply K4; intro; subst x; apply Hx; unfold snap_S1; cbn; auto 10. }
+    assert (Hrec1 : recover g w1 = Some v) by (eapply recover_only_on; eauto).
+    assert (Hfr1 : ids_fresh w1).
+    { pose proof (ff_fresh _ (create_new_head g m (Some (Head n)) (Some (Snap s)) cr) w Hfr) as H. rewrite Hff1 in H. exact H. }
+    assert (Hc1 : files w1 Counter = Some (ICounter c)) by (rewrite K4 by discriminate; exact Hcnt).
+    destruct (cd_link_spec g w w1 v m n s id0 d0 tl c user cr Hctx Hrec1 Hfr1 Hchain Hsn Hlen1 (Hch Hsn) K1 K2 Hc1 (fun _ _ => I))
+      as [w' [m' [r [vpost [Hff2 [Hctx' [Hst2 Hr2]]]]]]].
+    exists w', m', r, vpost. split; [| split; [| split]].
+    + rewrite ff_bind, Hff1. cbn [is_ok res_eqb negb]. exact Hff2.
+    + exact Hctx'.
+    + apply Forall_states_bind.
+      * eapply within_good; [exact Hcnh_within | exact Hrec | exact Hdis].
+      * intros a Ha. rewrite Hff1 in *. cbn [fst snd] in *. inversion Ha; subst a.
+        cbn [is_ok res_eqb negb]. exact Hst2.
+    + exact Hr2.
+Qed.
+
+(** ** rewriting one member's metadata file *)
+
+Definition set_mdisk (mb : member) (d : disk) : member := mkmember (mb_name mb) (mb_id mb) d.
+
+(** replace the disk record of the member named [x] *)
+Fixpoint upd_member (x : dname) (d : disk) (l : list member) : list member :=
+  match l with
+  | [] => []
+  | mb :: t => (if dname_eqb (mb_name mb) x then set_mdisk mb d else mb) :: upd_member x d t
+  end.
+
+Lemma upd_member_names : forall x d l, names_of_chain (upd_member x d l) = names_of_chain l.
+Proof.
+  induction l as [| mb t IH]; [reflexivity |]. cbn [upd_member names_of_chain map] in *.
+  destruct (dname_eqb (mb_name mb) x); cbn [set_mdisk mb_name]; f_equal; exact IH.
+Qed.
+Lemma upd_member_ids : forall x d l, map mb_id (upd_member x d l) = map mb_id l.
+Proof.
+  induction l as [| mb t IH]; [reflexivity |]. cbn [upd_member map] in *.
+  destruct (dname_eqb (mb_name mb) x); cbn [set_mdisk mb_id]; f_equal; exact IH.
+Qed.
+Lemma upd_member_notin : forall x d l, ~ In x (names_of_chain l) -> upd_member x d l = l.
+Proof.
+  induction l as [| mb t IH]; intros Hn; [reflexivity |]. cbn in *.
+  rewrite dname_eqb_neq by (intro; apply Hn; left; assumption). rewrite IH; [reflexivity |].
+  intro; apply Hn; right; assumption.
+Qed.
+Lemma upd_member_length : forall x d l, length (upd_member x d l) = length l.
+Proof. induction l as [| mb t IH]; [reflexivity |]. cbn. rewrite IH. reflexivity. Qed.
+
+(** a rewrite that keeps the Parent field keeps the chain linked *)
+Lemma linked_upd_same_parent : forall f f' x d d' l,
+  linked f l -> NoDup (names_of_chain l) ->
+  f (Meta x) = Some (IDisk d) -> d_parent d' = d_parent d ->
+  f' (Meta x) = Some (IDisk d') ->
+  (forall y, f' (Img y) = f (Img y)) -> (forall y, y <> x -> f' (Meta y) = f (Meta y)) ->
+  linked f' (upd_member x d' l).
+Proof.
+  intros f f' x d d' l. induction l as [| mb t IH]; intros Hl Hnd Hx Hp Hx' Himg Hoth; [exact I |].
+  cbn [linked upd_member] in *. destruct Hl as [Hm [[gn Hi] [Hpar Ht]]].
+  inversion Hnd as [| ? ? Hnotin Hnd']; subst.
+  assert (Hnext : match upd_member x d' t with y :: _ => Some (mb_name y) | [] => None end
+                  = match t with y :: _ => Some (mb_name y) | [] => None end).
+  { destruct t as [| y t']; [reflexivity |]. cbn. destruct (dname_eqb (mb_name y) x); reflexivity. }
+  destruct (dname_eqb (mb_name mb) x) eqn:E.
+  - apply dname_eqb_eq in E. cbn [set_mdisk mb_name mb_disk mb_id]. rewrite E.
+    split; [exact Hx' |]. split; [exists gn; rewrite Himg; rewrite <- E; exact Hi |].
+    split.
+    + rewrite Hnext, Hp. rewrite E in Hm. rewrite Hm in Hx. inversion Hx; subst d. exact Hpar.
+    + apply IH; assumption.
+  - assert (Hne : mb_name mb <> x) by (intro H; rewrite H, dname_eqb_refl in E; discriminate).
+    split; [rewrite Hoth by exact Hne; exact Hm |].
+    split; [exists gn; rewrite Himg; exact Hi |].
+    split; [rewrite Hnext; exact Hpar |]. apply IH; assumption.
+Qed.
+
+(** dropping the member after [cmb] when [cmb]'s metadata is rewritten to point past it *)
+Lemma linked_unlink : forall f f' l1 cmb dmb l2 cd',
+  linked f (l1 ++ cmb :: dmb :: l2) -> NoDup (names_of_chain (l1 ++ cmb :: dmb :: l2)) ->
+  d_parent cd' = d_parent (mb_disk dmb) ->
+  f' (Meta (mb_name cmb)) = Some (IDisk cd') ->
+  (forall y, f' (Img y) = f (Img y)) -> (forall y, y <> mb_name cmb -> f' (Meta y) = f (Meta y)) ->
+  linked f' (l1 ++ set_mdisk cmb cd' :: l2).
+Proof.
+  intros f f' l1 cmb dmb l2 cd'. induction l1 as [| a t IH]; intros Hl Hnd Hp Hx' Himg Hoth.
+  - cbn [app linked] in *. destruct Hl as [Hm [[gn Hi] [Hpar [Hmd [[gd Hid] [Hpd Ht]]]]]].
+    cbn [set_mdisk mb_name mb_disk mb_id].
+    split; [exact Hx' |]. split; [exists gn; rewrite Himg; exact Hi |].
+    split; [rewrite Hp; exact Hpd |].
+    eapply linked_frame; [exact Ht |]. intros x Hx.
+    assert (x <> mb_name cmb).
+    { intro; subst x. cbn [names_of_chain map app] in Hnd. inversion Hnd as [| ? ? Hn1 _]; subst.
+      apply Hn1. right. exact Hx. }
+    split; [apply Hoth; assumption | apply Himg].
+  - cbn [app linked] in *. destruct Hl as [Hm [[gn Hi] [Hpar Ht]]].
+    cbn [names_of_chain map app] in Hnd. inversion Hnd as [| ? ? Hn1 Hnd']; subst.
+    assert (Hne : mb_name a <> mb_name cmb).
+    { intro H. apply Hn1. rewrite H. fold (names_of_chain (t ++ cmb :: dmb :: l2)).
+      unfold names_of_chain. rewrite map_app. apply in_or_app. right. left. reflexivity. }
+    split; [rewrite Hoth by exact Hne; exact Hm |].
+    split; [exists gn; rewrite Himg; exact Hi |].
+    split.
+    + rewrite Hpar. destruct t; reflexivity.
+    + apply IH; assumption.
+Qed.
+
+(** ** lists of members: lookup, deletion, children as a function of the names only *)
+
+Fixpoint child_of (d : dname) (ns : list dname) : list dname :=
+  match ns with
+  | a :: ((b :: _) as t) => if dname_eqb b d then [a] else child_of d t
+  | _ => []
+  end.
+
+Lemma child_in_names : forall d l, child_in d l = child_of d (names_of_chain l).
+Proof.
+  intros d l. induction l as [| a t IH]; [reflexivity |].
+  destruct t as [| b t']; [reflexivity |].
+  rewrite child_in_cons2. cbn [names_of_chain map child_of] in *. rewrite IH. reflexivity.
+Qed.
+
+Fixpoint del_mb (d : dname) (l : list member) : list member :=
+  match l with
+  | [] => []
+  | mb :: t => if dname_eqb d (mb_name mb) then del_mb d t else mb :: del_mb d t
+  end.
+
+Lemma del_mb_names : forall d l, names_of_chain (del_mb d l) = removed d (names_of_chain l).
+Proof.
+  induction l as [| mb t IH]; [reflexivity |]. cbn [del_mb names_of_chain map removed] in *.
+  destruct (dname_eqb d (mb_name mb)); [exact IH | cbn [names_of_chain map]; f_equal; exact IH].
+Qed.
+
+Lemma find_mb_del : forall x d l, find_mb x (del_mb d l) = if dname_eqb d x then None else find_mb x l.
+Proof.
+  induction l as [| mb t IH]; [cbn; destruct (dname_eqb d x); reflexivity |].
+  cbn [del_mb find_mb]. destruct (dname_eqb d (mb_name mb)) eqn:E1.
+  - apply dname_eqb_eq in E1. subst d. rewrite IH. destruct (dname_eqb (mb_name mb) x); reflexivity.
+  - cbn [find_mb]. rewrite IH. destruct (dname_eqb (mb_name mb) x) eqn:E2; [| reflexivity].
+    apply dname_eqb_eq in E2. subst x. rewrite E1. reflexivity.
+Qed.
+
+Lemma find_mb_upd : forall x y d l,
+  find_mb x (upd_member y d l) =
+  if dname_eqb y x then option_map (fun mb => set_mdisk mb d) (find_mb x l) else find_mb x l.
+Proof.
+  induction l as [| mb t IH]; [cbn; destruct (dname_eqb y x); reflexivity |].
+  cbn [upd_member find_mb]. destruct (dname_eqb (mb_name mb) y) eqn:E1.
+  - apply dname_eqb_eq in E1. subst y. cbn [set_mdisk mb_name find_mb]. rewrite IH.
+    destruct (dname_eqb (mb_name mb) x) eqn:E2; reflexivity.
+  - cbn [find_mb]. destruct (dname_eqb (mb_name mb) x) eqn:E2.
+    + apply dname_eqb_eq in E2. subst x. rewrite dname_eqb_sym, E1. reflexivity.
+    + exact IH.
+Qed.
+
+Lemma removed_notin : forall d l, ~ In d l -> removed d l = l.
+Proof.
+  induction l as [| a t IH]; intros Hn; [reflexivity |]. cbn.
+  rewrite dname_eqb_neq by (intro; subst; apply Hn; left; reflexivity).
+  rewrite IH; [reflexivity | intro; apply Hn; right; assumption].
+Qed.
+Lemma removed_app : forall d l1 l2, removed d (l1 ++ l2) = removed d l1 ++ removed d l2.
+Proof.
+  induction l1 as [| a t IH]; intros l2; [reflexivity |]. cbn.
+  destruct (dname_eqb d a); [apply IH | cbn; f_equal; apply IH].
+Qed.
+Lemma removed_rev : forall d l, removed d (rev l) = rev (removed d l).
+Proof.
+  induction l as [| a t IH]; [reflexivity |]. cbn [rev removed]. rewrite removed_app, IH. cbn [removed].
+  destruct (dname_eqb d a); [apply app_nil_r | reflexivity].
+Qed.
+Lemma removed_in : forall d x l, In x (removed d l) <-> In x l /\ x <> d.
+Proof.
+  induction l as [| a t IH]; [cbn; tauto |]. cbn. destruct (dname_eqb d a) eqn:E.
+  - apply dname_eqb_eq in E. subst a. rewrite IH. split; [intros [H1 H2]; auto | intros [[H | H] H2]; [congruence | auto]].
+  - cbn. rewrite IH. assert (a <> d) by (intro; subst; rewrite dname_eqb_refl in E; discriminate).
+    split; [intros [H1 | [H1 H2]]; [subst; auto | auto] | intros [[H1 | H1] H2]; auto].
+Qed.
+Lemma removed_nodup : forall d l, NoDup l -> NoDup (removed d l).
+Proof.
+  induction l as [| a t IH]; intros Hnd; [constructor |]. inversion Hnd; subst. cbn.
+  destruct (dname_eqb d a); [auto |]. constructor; [rewrite removed_in; tauto | auto].
+Qed.
+
+(** in a duplicate-free list [l1 ++ c :: d :: l2], deleting [d] changes the child relation only at
+    [d] itself and at the element after it *)
+Lemma child_of_split : forall d c l1 l2, NoDup (l1 ++ c :: d :: l2) -> child_of d (l1 ++ c :: d :: l2) = [c].
+Proof.
+  intros d c. induction l1 as [| a t IH]; intros l2 Hnd.
+  - cbn. rewrite dname_eqb_refl. reflexivity.
+  - cbn [app] in *. inversion Hnd as [| ? ? Hn Hnd']; subst.
+    destruct t as [| b t'].
+    + cbn [app child_of] in *. rewrite (dname_eqb_neq c d).
+      * rewrite dname_eqb_refl. reflexivity.
+      * intro Hcd. subst c. inversion Hnd' as [| ? ? Hn' _]; subst. apply Hn'. left. reflexivity.
+    + cbn [app child_of] in *. rewrite (dname_eqb_neq b d).
+      * apply (IH l2 Hnd').
+      * intro Hbd. subst b. inversion Hnd' as [| ? ? Hn' _]; subst. apply Hn'.
+        apply in_or_app. right. right. left. reflexivity.
+Qed.
+
+Lemma child_of_removed : forall d c l1 l2 x,
+  NoDup (l1 ++ c :: d :: l2) -> x <> d ->
+  child_of x (l1 ++ c :: l2) =
+  if odname_eqb (match l2 with p :: _ => Some p | [] => None end) (Some x) then [c]
+  else child_of x (l1 ++ c :: d :: l2).
+Proof.
+  induction l1 as [| a t IH]; intros l2 x Hnd Hx.
+  - cbn [app]. destruct l2 as [| p l2'].
+    + cbn. rewrite dname_eqb_neq by congruence. reflexivity.
+    + cbn [child_of odname_eqb]. rewrite (dname_eqb_neq d x) by congruence.
+      destruct (dname_eqb p x) eqn:E; reflexivity.
+  - cbn [app] in *. inversion Hnd as [| ? ? Hn Hnd']; subst.
+    specialize (IH l2 x Hnd' Hx).
+    destruct t as [| b t']; cbn [app child_of] in *.
+    + destruct (dname_eqb c x) eqn:E.
+      * destruct (odname_eqb match l2 with p :: _ => Some p | [] => None end (Some x)) eqn:E2; [| reflexivity].
+        apply dname_eqb_eq in E. subst x. exfalso. destruct l2 as [| p l2']; [discriminate |].
+        cbn in E2. apply dname_eqb_eq in E2. subst p.
+        inversion Hnd' as [| ? ? Hn' _]; subst. apply Hn'. right. left. reflexivity.
+      * exact IH.
+    + destruct (dname_eqb b x) eqn:E.
+      * destruct (odname_eqb match l2 with p :: _ => Some p | [] => None end (Some x)) eqn:E2; [| reflexivity].
+        apply dname_eqb_eq in E. subst x. exfalso. destruct l2 as [| p l2']; [discriminate |].
+        cbn in E2. apply dname_eqb_eq in E2. subst p.
+        inversion Hnd' as [| ? ? Hn' _]; subst. apply Hn'. apply in_or_app. right. right. right. left. reflexivity.
+      * exact IH.
+Qed.
+
+(** a member that is not the first has a predecessor *)
+Lemma split_at_member : forall d (l : list member),
+  In d (names_of_chain l) -> (match l with a :: _ => mb_name a <> d | [] => True end) ->
+  exists l1 cmb dmb l2, l = l1 ++ cmb :: dmb :: l2 /\ mb_name dmb = d.
+Proof.
+  intros d l. induction l as [| a t IH]; intros Hin Hne; [contradiction |].
+  cbn in Hin. destruct Hin as [H | Hin]; [contradiction |].
+  destruct t as [| b t']; [contradiction |].
+  destruct (dname_dec (mb_name b) d) as [E | E].
+  - exists [], a, b, t'. split; [reflexivity | exact E].
+  - destruct (IH Hin E) as [l1 [cmb [dmb [l2 [Heq Hd]]]]].
+    exists (a :: l1), cmb, dmb, l2. split; [rewrite Heq; reflexivity | exact Hd].
+Qed.
+
+Lemma del_upd_split : forall l1 cmb dmb l2 cd',
+  NoDup (names_of_chain (l1 ++ cmb :: dmb :: l2)) ->
+  upd_member (mb_name cmb) cd' (del_mb (mb_name dmb) (l1 ++ cmb :: dmb :: l2)) = l1 ++ set_mdisk cmb cd' :: l2.
+Proof.
+  intros l1 cmb dmb l2 cd'. induction l1 as [| a t IH]; intros Hnd.
+  - cbn [app names_of_chain map] in *. inversion Hnd as [| ? ? Hn1 Hnd1]; subst. inversion Hnd1 as [| ? ? Hn2 Hnd2]; subst.
+    cbn [del_mb]. rewrite dname_eqb_neq by (intro H; apply Hn1; left; congruence).
+    rewrite dname_eqb_refl. cbn [upd_member]. rewrite dname_eqb_refl. f_equal.
+    fold (names_of_chain l2) in *.
+    assert (Hd : del_mb (mb_name dmb) l2 = l2).
+    { clear -Hn2. induction l2 as [| y l2' IH2]; [reflexivity |]. cbn in *.
+      rewrite dname_eqb_neq by (intro H; apply Hn2; left; congruence). f_equal. apply IH2. tauto. }
+    rewrite Hd. apply upd_member_notin. intro H. apply Hn1. right. exact H.
+  - cbn [app names_of_chain map] in *. inversion Hnd as [| ? ? Hn1 Hnd1]; subst.
+    fold (names_of_chain (t ++ cmb :: dmb :: l2)) in *.
+    assert (Hin_d : In (mb_name dmb) (names_of_chain (t ++ cmb :: dmb :: l2))).
+    { unfold names_of_chain. rewrite map_app. apply in_or_app. right. right. left. reflexivity. }
+    assert (Hin_c : In (mb_name cmb) (names_of_chain (t ++ cmb :: dmb :: l2))).
+    { unfold names_of_chain. rewrite map_app. apply in_or_app. right. left. reflexivity. }
+    cbn [del_mb]. rewrite dname_eqb_neq by (intro H; apply Hn1; rewrite <- H; exact Hin_d).
+    cbn [upd_member]. rewrite dname_eqb_neq by (intro H; apply Hn1; rewrite H; exact Hin_c).
+    f_equal. apply IH. exact Hnd1.
+Qed.
+
+(** ** RemoveDiffDisk *)
+
+Lemma nodup_app_disj : forall (a b : list dname) x, NoDup (a ++ b) -> In x a -> In x b -> False.
+Proof.
+  induction a as [| y t IH]; intros b x Hnd Ha Hb; [contradiction |].
+  cbn [app] in Hnd. inversion Hnd as [| ? ? Hn Hnd']; subst. destruct Ha as [E | Ha].
+  - subst y. apply Hn. apply in_or_app. right. exact Hb.
+  - eapply IH; eauto.
+Qed.
+Lemma nodup_app_r : forall (a b : list dname), NoDup (a ++ b) -> NoDup b.
+Proof. induction a as [| y t IH]; intros b H; [exact H |]. cbn [app] in H. inversion H; subst. auto. Qed.
+
+Lemma nodup_mid_gen : forall A (a : list A) c d b, NoDup (a ++ c :: d :: b) ->
+  c <> d /\ ~ In d a /\ ~ In d b /\ ~ In c a /\ ~ In c b /\ NoDup (a ++ c :: b).
+Proof.
+  induction a as [| x t IH]; intros c d b H.
+  - cbn in *. inversion H as [| ? ? H1 H2]; subst. inversion H2 as [| ? ? H3 H4]; subst.
+    repeat split; auto.
+    + intro; subst; apply H1; left; reflexivity.
+    + intro Hc; apply H1; right; exact Hc.
+    + constructor; [intro Hc; apply H1; right; exact Hc | exact H4].
+  - cbn [app] in *. inversion H as [| ? ? H1 H2]; subst. destruct (IH c d b H2) as [K1 [K2 [K3 [K4 [K5 K6]]]]].
+    repeat split; auto.
+    + intros [E | E]; [subst; apply H1; apply in_or_app; right; right; left; reflexivity | exact (K2 E)].
+    + intros [E | E]; [subst; apply H1; apply in_or_app; right; left; reflexivity | exact (K4 E)].
+    + constructor; [| exact K6]. intro Hin. apply H1. apply in_app_or in Hin. apply in_or_app.
+      destruct Hin as [Hin | [Hin | Hin]]; [left; exact Hin | right; left; exact Hin | right; right; right; exact Hin].
+Qed.
+Lemma nodup_mid : forall (a : list dname) c d b, NoDup (a ++ c :: d :: b) ->
+  c <> d /\ ~ In d a /\ ~ In d b /\ ~ In c a /\ ~ In c b /\ NoDup (a ++ c :: b).
+Proof. intros. apply nodup_mid_gen. assumption. Qed.
+
+Definition first_name (l : list member) : option dname := match l with y :: _ => Some (mb_name y) | [] => None end.
+
+(** the memory removeDiskNode leaves, as a function of what it read *)
+Definition rm_mem (g : cfg) (m : mem) (d child : dname) (cd' : disk) (ppd : option (dname * disk)) : mem :=
+  let m1 := update_child m d (Some child) in
+  let m2 := set_disks m1 (updd (m_disks m1) child (Some cd')) in
+  let m3 := match ppd with Some (p, pd') => set_disks m2 (updd (m_disks m2) p (Some pd')) | None => m2 end in
+  let m4 := set_disks m3 (updd (m_disks m3) d None) in
+  let m4 := if fix_children g then set_children m4 (updc (m_children m4) (Some d) []) else m4 in
+  set_active m4 (removed d (m_active m4)).
+
+Lemma names_app_mid : forall l1 (cmb dmb : member) l2,
+  names_of_chain (l1 ++ cmb :: dmb :: l2) = names_of_chain l1 ++ mb_name cmb :: mb_name dmb :: names_of_chain l2.
+Proof. intros. unfold names_of_chain. rewrite map_app. reflexivity. Qed.
+
+Lemma find_mb_some : forall x l, In x (names_of_chain l) -> exists mb, find_mb x l = Some mb.
+Proof.
+  induction l as [| a t IH]; intros Hin; [contradiction |]. cbn in *.
+  destruct (dname_eqb (mb_name a) x) eqn:E; [eauto |].
+  destruct Hin as [H | H]; [subst; rewrite dname_eqb_refl in E; discriminate | auto].
+Qed.
+
+Lemma rm_agree : forall g v m l1 cmb dmb l2 cd' ppd,
+  agree g v m ->
+  cv_chain v = l1 ++ cmb :: dmb :: l2 ->
+  NoDup (names_of_chain (cv_chain v)) ->
+  (forall k, m_children m (Some (Head k)) = []) ->
+  (forall k, mb_name dmb <> Head k) ->
+  (forall k, first_name l2 <> Some (Head k)) ->
+  d_parent (mb_disk dmb) = first_name l2 ->
+  (match ppd with Some (p, pd') => first_name l2 = Some p | None => True end) ->
+  let post := match ppd with
+              | Some (p, pd') => upd_member p pd' (l1 ++ set_mdisk cmb cd' :: l2)
+              | None => l1 ++ set_mdisk cmb cd' :: l2
+              end in
+  let m' := rm_mem g m (mb_name dmb) (mb_name cmb) cd' ppd in
+  agree g (mkview (cv_info v) post) m' /\ (forall k, m_children m' (Some (Head k)) = []).
+Proof.
+  intros g v m l1 cmb dmb l2 cd' ppd [Hinfo [Hdisks [Hchild [Hfix Hact]]]] Hchain Hnd Hheads Hdh Hl2h Hpd Hppd post m'.
+  remember (mb_name dmb) as d eqn:Ed. remember (mb_name cmb) as child eqn:Ec.
+  rewrite Hchain in *.
+  assert (Hmid : l1 ++ set_mdisk cmb cd' :: l2 = upd_member child cd' (del_mb d (l1 ++ cmb :: dmb :: l2))).
+  { subst d child. symmetry. apply del_upd_split. exact Hnd. }
+  assert (Hnames_post : names_of_chain post = names_of_chain l1 ++ child :: names_of_chain l2).
+  { subst post. destruct ppd as [[p pd'] |]; [rewrite upd_member_names |];
+      unfold names_of_chain; rewrite map_app; cbn [map set_mdisk mb_name]; subst child; reflexivity. }
+  assert (Hnames_rm : removed d (names_of_chain (l1 ++ cmb :: dmb :: l2)) = names_of_chain l1 ++ child :: names_of_chain l2).
+  { rewrite <- del_mb_names. rewrite <- (upd_member_names child cd'). rewrite <- Hmid.
+    unfold names_of_chain. rewrite map_app. cbn [map set_mdisk mb_name]. subst child. reflexivity. }
+  assert (Hfd : find_mb d (l1 ++ cmb :: dmb :: l2) = Some dmb).
+  { rewrite Ed. apply find_mb_in; [exact Hnd | apply in_or_app; right; right; left; reflexivity]. }
+  assert (Hfc : find_mb child (l1 ++ cmb :: dmb :: l2) = Some cmb).
+  { rewrite Ec. apply find_mb_in; [exact Hnd | apply in_or_app; right; left; reflexivity]. }
+  rewrite names_app_mid in Hnd. rewrite <- Ed, <- Ec in Hnd.
+  destruct (nodup_mid _ _ _ _ Hnd) as [Hcd [Hd1 [Hd2 [Hc1 [Hc2 Hnd']]]]].
+  set (p0 := first_name l2) in *.
+  assert (Hp0in : forall p, p0 = Some p -> In p (names_of_chain l2)).
+  { intros p Hp. subst p0. destruct l2 as [| y l2']; [discriminate |]. cbn in Hp. inversion Hp. left. reflexivity. }
+  assert (Hpar : parent_of m d = p0).
+  { unfold parent_of. rewrite Hdisks, Hfd. cbn. exact Hpd. }
+  assert (Hp0d : p0 <> Some d) by (intro E; apply Hd2; apply Hp0in; exact E).
+  assert (Hp0c : p0 <> Some child) by (intro E; apply Hc2; apply Hp0in; exact E).
+  (* the children map *)
+  assert (Hch' : forall q, m_children m' q =
+                 (if fix_children g then updc (add_child (rm_child (m_children m) p0 d) p0 child) (Some d) []
+                  else add_child (rm_child (m_children m) p0 d) p0 child) q).
+  { intros q. subst m'. unfold rm_mem. cbn [m_children set_active]. unfold update_child. rewrite Hpar.
+    destruct (fix_children g); cbn [m_children set_children set_disks];
+      destruct ppd as [[p pd'] |]; reflexivity. }
+  assert (Hch_other : forall q, q <> p0 -> q <> Some d -> m_children m' q = m_children m q).
+  { intros q H1 H2. rewrite Hch'. destruct (fix_children g); [rewrite updc_neq by congruence |];
+      unfold add_child, rm_child; rewrite !updc_neq by congruence; reflexivity. }
+  split.
+  - unfold agree. cbn [cv_info cv_chain].
+    split; [| split; [| split; [| split]]].
+    + subst m'. unfold rm_mem. destruct (fix_children g); destruct ppd as [[p pd'] |]; cbn [m_info set_active set_children set_disks update_child]; exact Hinfo.
+    + (* diskData *)
+      intros x.
+      assert (Hd' : m_disks m' x =
+                    updd (match ppd with Some (p, pd') => updd (updd (m_disks m) child (Some cd')) p (Some pd')
+                                       | None => updd (m_disks m) child (Some cd') end) d None x).
+      { subst m'. unfold rm_mem. destruct (fix_children g); destruct ppd as [[p pd'] |];
+          cbn [m_disks set_active set_children set_disks update_child]; reflexivity. }
+      rewrite Hd'. clear Hd'.
+      assert (Hpost_find : find_mb x post =
+                match ppd with
+                | Some (p, pd') => if dname_eqb p x then option_map (fun mb => set_mdisk mb pd')
+                                                          (find_mb x (upd_member child cd' (del_mb d (l1 ++ cmb :: dmb :: l2))))
+                                   else find_mb x (upd_member child cd' (del_mb d (l1 ++ cmb :: dmb :: l2)))
+                | None => find_mb x (upd_member child cd' (del_mb d (l1 ++ cmb :: dmb :: l2)))
+                end).
+      { subst post. destruct ppd as [[p pd'] |]; [rewrite find_mb_upd |]; rewrite Hmid; reflexivity. }
+      rewrite Hpost_find. clear Hpost_find. rewrite find_mb_upd, find_mb_del.
+      destruct (dname_dec d x) as [E1 | E1].
+      { subst x. rewrite updd_eq. rewrite dname_eqb_refl. rewrite (dname_eqb_neq child d) by exact Hcd.
+        destruct ppd as [[p pd'] |]; [| reflexivity].
+        rewrite dname_eqb_neq; [reflexivity |]. intro E; subst p. apply Hd2. apply Hp0in. exact Hppd. }
+      rewrite updd_neq by exact E1. rewrite (dname_eqb_neq d x) by exact E1.
+      destruct ppd as [[p pd'] |].
+      * destruct (dname_dec p x) as [E2 | E2].
+        { subst x. rewrite updd_eq, dname_eqb_refl.
+          rewrite (dname_eqb_neq child p) by (intro E; subst p; apply Hc2; apply Hp0in; exact Hppd).
+          destruct (find_mb_some p (l1 ++ cmb :: dmb :: l2)) as [pmb Hpmb].
+          { rewrite names_app_mid. apply in_or_app. right. right. right. apply Hp0in. exact Hppd. }
+          rewrite Hpmb. reflexivity. }
+        rewrite updd_neq by exact E2. rewrite (dname_eqb_neq p x) by exact E2.
+        destruct (dname_dec child x) as [E3 | E3].
+        { subst x. rewrite updd_eq, dname_eqb_refl, Hfc. reflexivity. }
+        rewrite updd_neq by exact E3. rewrite (dname_eqb_neq child x) by exact E3. apply Hdisks.
+      * destruct (dname_dec child x) as [E3 | E3].
+        { subst x. rewrite updd_eq, dname_eqb_refl, Hfc. reflexivity. }
+        rewrite updd_neq by exact E3. rewrite (dname_eqb_neq child x) by exact E3. apply Hdisks.
+    + (* children of the members *)
+      intros x Hx. rewrite Hnames_post in Hx. rewrite child_in_names, Hnames_post.
+      assert (Hxd : x <> d).
+      { intro E; subst x. apply in_app_or in Hx. destruct Hx as [Hx | [Hx | Hx]]; [exact (Hd1 Hx) | exact (Hcd Hx) | exact (Hd2 Hx)]. }
+      rewrite (child_of_removed d child (names_of_chain l1) (names_of_chain l2) x Hnd Hxd).
+      assert (Hfn : match names_of_chain l2 with p :: _ => Some p | [] => None end = p0).
+      { subst p0. destruct l2; reflexivity. }
+      rewrite Hfn.
+      assert (Hx_in : In x (names_of_chain (l1 ++ cmb :: dmb :: l2))).
+      { rewrite names_app_mid, <- Ed, <- Ec. apply in_app_or in Hx. apply in_or_app.
+        destruct Hx as [Hx | [Hx | Hx]]; [left; exact Hx | right; left; exact Hx | right; right; right; exact Hx]. }
+      destruct (odname_eqb p0 (Some x)) eqn:Ep.
+      * apply odname_eqb_eq in Ep. rewrite <- Ep. rewrite Hch'.
+        assert (Hold : m_children m p0 = [d]).
+        { rewrite Ep. rewrite (Hchild x Hx_in). rewrite child_in_names, names_app_mid, <- Ed, <- Ec.
+          assert (Hsplit : names_of_chain l1 ++ child :: d :: names_of_chain l2
+                           = (names_of_chain l1 ++ [child]) ++ d :: x :: List.tl (names_of_chain l2)).
+          { rewrite <- app_assoc. cbn [app]. f_equal. f_equal. f_equal.
+            subst p0. destruct l2 as [| y l2']; [discriminate |]. cbn in Ep. inversion Ep. reflexivity. }
+          rewrite Hsplit. apply child_of_split. rewrite <- Hsplit. exact Hnd. }
+        assert (Hval : add_child (rm_child (m_children m) p0 d) p0 child p0 = [child]).
+        { unfold add_child. rewrite updc_eq. unfold rm_child. rewrite updc_eq. rewrite Hold, removed_single. reflexivity. }
+        destruct (fix_children g); [rewrite updc_neq by (apply not_eq_sym; exact Hp0d) |]; exact Hval.
+      * assert (Ep' : p0 <> Some x) by (intro H; rewrite H, odname_eqb_refl in Ep; discriminate).
+        rewrite Hch_other; [| apply not_eq_sym; exact Ep' | congruence].
+        rewrite (Hchild x Hx_in). rewrite child_in_names, names_app_mid, <- Ed, <- Ec. reflexivity.
+    + (* entries of names outside the chain (repaired code only) *)
+      intros Hfx x Hx. rewrite Hnames_post in Hx.
+      destruct (dname_dec x d) as [E | E].
+      { subst x. rewrite Hch', Hfx. apply updc_eq. }
+      rewrite Hch_other; [| | congruence].
+      * apply Hfix; [exact Hfx |]. rewrite names_app_mid, <- Ed, <- Ec. intro Hin. apply Hx.
+        apply in_app_or in Hin. apply in_or_app.
+        destruct Hin as [Hin | [Hin | [Hin | Hin]]]; [left; exact Hin | right; left; exact Hin | congruence | right; right; exact Hin].
+      * intro Eq. apply Hx. apply in_or_app. right. right. apply Hp0in. symmetry. exact Eq.
+    + (* activeDiskData *)
+      assert (Ha' : m_active m' = removed d (m_active m)).
+      { subst m'. unfold rm_mem. destruct (fix_children g); destruct ppd as [[p pd'] |];
+          cbn [m_active set_active set_children set_disks update_child]; reflexivity. }
+      rewrite Ha', Hact, removed_rev, Hnames_rm, Hnames_post. reflexivity.
+  - intros k. rewrite Hch_other; [apply Hheads | apply not_eq_sym; apply Hl2h | intro E; inversion E; eapply Hdh; eauto].
+Qed.
+
+Lemma veq_upd_member : forall i l p pd pd',
+  (forall mb, In mb l -> mb_name mb = p -> mb_disk mb = pd) -> attrs_same pd pd' ->
+  veq (mkview i l) (mkview i (upd_member p pd' l)).
+Proof.
+  intros i l p pd pd' Hall Hat. split; [apply info_sim_refl |]. cbn [cv_chain].
+  induction l as [| mb t IH]; [constructor |]. cbn [upd_member].
+  constructor.
+  - destruct (dname_eqb (mb_name mb) p) eqn:E; [| apply member_sim_refl].
+    apply dname_eqb_eq in E. unfold member_sim, set_mdisk. cbn [mb_name mb_id mb_disk].
+    split; [reflexivity |]. split; [reflexivity |]. rewrite (Hall mb (or_introl eq_refl) E). exact Hat.
+  - apply IH. intros mb' Hin. apply Hall. right. exact Hin.
+Qed.
+
+Lemma Good_veq_post : forall g vpre vpost vmid x, recover g x = Some vmid -> veq vmid vpost -> Good g vpre vpost x.
+Proof. intros. exists vmid. split; [assumption | right; assumption]. Qed.
+
+(** removing files of a name that is not in the chain *)
+Lemma rm_offchain : forall g w v vpost d (m : mem) (r : res),
+  recover g w = Some v -> ~ In d (names_of_chain (cv_chain v)) ->
+  exists w', ff (e2 <- rm_disk (Some d) ;; Ret (m, e2)) w = (w', Done (m, Ok))
+    /\ recover g w' = Some v
+    /\ Forall (Good g v vpost) (states (e2 <- rm_disk (Some d) ;; Ret (m, e2)) w).
+Proof.
+  intros g w v vpost d m r Hrec Hd.
+  assert (Hdis : forall x, In x [Img d; Meta d] -> ~ footprint (cv_chain v) x).
+  { intros x Hx Hf. cbn in Hx. destruct Hx as [Hx | [Hx | []]]; subst x.
+    - apply footprint_img in Hf. exact (Hd Hf).
+    - apply footprint_meta in Hf. exact (Hd Hf). }
+  assert (Hw : within (fun x => In x [Img d; Meta d]) (e2 <- rm_disk (Some d) ;; Ret (m, e2))).
+  { apply withinQ_within with (Q := fun _ => True). eapply withinQ_bind; [apply wq_rm_disk with (Q := fun _ => True); [| auto] |].
+    - intros y Hy. inversion Hy; subst. cbn. auto.
+    - intros; exact I. }
+  destruct (rm_disk_ff w d) as [w' [Hff _]]. exists w'. split; [| split].
+  - rewrite ff_bind, Hff. reflexivity.
+  - pose proof (within_ff _ _ _ w Hw) as Hoo. rewrite ff_bind, Hff in Hoo. cbn [fst ff] in Hoo.
+    eapply recover_only_on; eauto.
+  - eapply within_good; eauto.
+Qed.
+
+Definition rm_cd' (dd cd : disk) : disk := mkdisk (d_parent dd) (d_removed cd) (d_user cd) (d_created cd) (d_rev cd).
+Definition rm_ppd (dd : disk) (l2 : list member) : option (dname * disk) :=
+  match l2 with
+  | pmb :: _ => let pd := mb_disk pmb in
+                Some (mb_name pmb, mkdisk (d_parent pd) (d_removed pd) (d_user pd) (d_created pd) (d_rev dd))
+  | [] => None
+  end.
+Definition rm_post (l1 : list member) (cmb dmb : member) (l2 : list member) : list member :=
+  let cd' := rm_cd' (mb_disk dmb) (mb_disk cmb) in
+  match rm_ppd (mb_disk dmb) l2 with
+  | Some (p, pd') => upd_member p pd' (l1 ++ set_mdisk cmb cd' :: l2)
+  | None => l1 ++ set_mdisk cmb cd' :: l2
+  end.
+
+Lemma memd_true : forall x l, In x l -> memd x l = true.
+Proof.
+  induction l as [| y t IH]; intros Hin; [contradiction |]. cbn.
+  destruct Hin as [H | H]; [subst; rewrite dname_eqb_refl; reflexivity | rewrite IH by assumption; apply Bool.orb_true_r].
+Qed.
+
+(** when the removed disk is in the live chain and is not the latest snapshot, the bookkeeping of
+    removeDiskNode is: forget it everywhere *)
+Lemma rdn_finish_eq : forall g m3 d,
+  In d (m_active m3) ->
+  (forall x t, rev (m_active m3) = x :: d :: t -> False) ->
+  rdn_finish g m3 d =
+  (let m4 := set_disks m3 (updd (m_disks m3) d None) in
+   let m4 := if fix_children g then set_children m4 (updc (m_children m4) (Some d) []) else m4 in
+   set_active m4 (removed d (m_active m4))).
+Proof.
+  intros g m3 d Hin Hnl. unfold rdn_finish, find_disk.
+  assert (Hact : forall mm, m_active mm = m_active m3 ->
+            (if negb (memd d (m_active mm)) then mm
+             else set_active
+                    match rev (m_active mm) with
+                    | _ :: lat :: _ => if dname_eqb lat d
+                                       then set_info mm (set_iparent (m_info mm)
+                                              match i_head (m_info mm) with Some h => parent_of mm h | None => None end)
+                                       else mm
+                    | _ => mm
+                    end
+                    (removed d (m_active match rev (m_active mm) with
+                                         | _ :: lat :: _ => if dname_eqb lat d
+                                                            then set_info mm (set_iparent (m_info mm)
+                                                                   match i_head (m_info mm) with Some h => parent_of mm h | None => None end)
+                                                            else mm
+                                         | _ => mm
+                                         end)))
+            = set_active mm (removed d (m_active mm))).
+  { intros mm Hmm. rewrite memd_true by (rewrite Hmm; exact Hin). cbn [negb].
+    destruct (rev (m_active mm)) as [| x [| y t]] eqn:Hrv; try reflexivity.
+    destruct (dname_eqb y d) eqn:E; [| reflexivity].
+    apply dname_eqb_eq in E. subst y. exfalso. eapply Hnl. rewrite <- Hmm. exact Hrv. }
+  destruct (fix_children g); apply Hact; reflexivity.
+Qed.
+
+Lemma rdn_spec : forall g w v m a l1' cmb dmb l2,
+  ctx g w v m ->
+  cv_chain v = (a :: l1') ++ cmb :: dmb :: l2 ->
+  let l1 := a :: l1' in
+  let d := mb_name dmb in let child := mb_name cmb in
+  let cd' := rm_cd' (mb_disk dmb) (mb_disk cmb) in
+  let ppd := rm_ppd (mb_disk dmb) l2 in
+  let vpost := mkview (cv_info v) (rm_post l1 cmb dmb l2) in
+  exists w2,
+    ff (remove_disk_node g m d) w = (w2, Done (rm_mem g m d child cd' ppd, Ok))
+    /\ recover g w2 = Some vpost
+    /\ Forall (Good g v vpost) (states (remove_disk_node g m d) w).
+Proof.
+  intros g w v m a l1' cmb dmb l2 Hctx Hchain l1 d child cd' ppd vpost.
+  destruct (ctx_shape g w v m Hctx) as [n [id0 [d0 [tl0 [c [Hchain0 [Hvh [Hmh [Hsnaps [Hnd [Hndi [Hvol [Hcnt [Hlink [Hlen [Hd0 Hpar]]]]]]]]]]]]]]]].
+  pose proof (cx_rec _ _ _ _ Hctx) as Hrec. pose proof (cx_ag _ _ _ _ Hctx) as Hag.
+  destruct Hag as [Hinfo [Hdisks [Hchild [Hfixch Hact]]]].
+  rewrite Hchain in Hnd, Hlink, Hlen, Hdisks, Hchild, Hact. fold l1 in Hnd, Hlink, Hlen, Hdisks, Hchild, Hact.
+  assert (Hfd : find_mb d (l1 ++ cmb :: dmb :: l2) = Some dmb).
+  { apply find_mb_in; [exact Hnd | apply in_or_app; right; right; left; reflexivity]. }
+  assert (Hfc : find_mb child (l1 ++ cmb :: dmb :: l2) = Some cmb).
+  { apply find_mb_in; [exact Hnd | apply in_or_app; right; left; reflexivity]. }
+  pose proof Hnd as Hndn. rewrite names_app_mid in Hndn. fold d child in Hndn.
+  destruct (nodup_mid _ _ _ _ Hndn) as [Hcd [Hd1 [Hd2 [Hc1 [Hc2 Hnd']]]]].
+  (* what the files hold *)
+  assert (Hlk : linked (files w) (cmb :: dmb :: l2)).
+  { clear -Hlink. induction l1 as [| x t IH]; [exact Hlink |]. apply IH. cbn [app linked] in Hlink. tauto. }
+  cbn [linked] in Hlk. destruct Hlk as [Hmc [_ [Hpc [Hmdd [_ [Hpd Hl2]]]]]].
+  fold child in Hmc. fold d in Hmdd.
+  (* the in-memory lookups of removeDiskNode *)
+  assert (Hmd : m_disks m d = Some (mb_disk dmb)) by (rewrite Hdisks, Hfd; reflexivity).
+  assert (Hmch : m_children m (Some d) = [child]).
+  { rewrite Hchild by (rewrite names_app_mid; apply in_or_app; right; right; left; reflexivity).
+    rewrite child_in_names, names_app_mid. apply child_of_split. exact Hndn. }
+  assert (Hm1c : m_disks (update_child m d (Some child)) child = Some (mb_disk cmb)).
+  { unfold update_child. cbn [m_disks set_children]. rewrite Hdisks, Hfc. reflexivity. }
+  unfold remove_disk_node. rewrite Hmd, Hmch. rewrite Hm1c.
+  fold (rm_cd' (mb_disk dmb) (mb_disk cmb)). fold cd'.
+  set (m2 := set_disks (update_child m d (Some child)) (updd (m_disks (update_child m d (Some child))) child (Some cd'))).
+  (* first rewrite: the child now points past d *)
+  set (w1 := enc_fs w (Meta child) (IDisk cd')).
+  set (mid := l1 ++ set_mdisk cmb cd' :: l2).
+  assert (Hlink1 : linked (files w1) mid).
+  { subst mid. eapply (linked_unlink (files w) (files w1) l1 cmb dmb l2 cd'); [exact Hlink | exact Hnd | reflexivity | | |].
+    - subst w1. apply enc_fs_self. right. eexists. reflexivity.
+    - intros y. subst w1. apply enc_fs_other; cbn; discriminate.
+    - intros y Hy. subst w1. apply enc_fs_other; cbn; [intro E; inversion E; apply Hy; assumption | discriminate]. }
+  assert (Hhead_mid : first_name mid = Some (Head n)).
+  { subst mid l1. rewrite Hchain in Hchain0. cbn [app] in *. inversion Hchain0; subst a. reflexivity. }
+  assert (Hwalk_of : forall f l, linked f l -> first_name l = Some (Head n) -> length l <= maxlen g ->
+                              walk f (maxlen g) (Head n) = Some l).
+  { intros f l Hl Hf Hle. pose proof (linked_walk f l (maxlen g) Hl) as Hwk.
+    destruct l as [| y t]; [discriminate |]. cbn in Hf. injection Hf as Hy. rewrite Hy in Hwk.
+    apply Hwk; [discriminate | exact Hle]. }
+  assert (Hlen_mid : S (length mid) = length (l1 ++ cmb :: dmb :: l2)).
+  { subst mid. rewrite !app_length. cbn [length]. lia. }
+  assert (Hrec1 : recover g w1 = Some (mkview (cv_info v) mid)).
+  { apply recover_intro with (h := Head n) (c := c).
+    - subst w1. rewrite enc_fs_other by (cbn; discriminate). exact Hvol.
+    - exact Hvh.
+    - apply Hwalk_of; [exact Hlink1 | exact Hhead_mid | lia].
+    - subst w1. rewrite enc_fs_other by (cbn; discriminate). exact Hcnt. }
+  assert (Hst1 : forall vp, veq (mkview (cv_info v) mid) vp ->
+            Forall (Good g v vp) (states (encode_to_file g (IDisk cd') (Meta child)) w)).
+  { intros vp Hveq. apply encode_states; [right; eexists; reflexivity | exact I | |].
+    - intros x Hx _. apply Good_pre. eapply recover_only_on; [exact Hrec | exact Hx |].
+      intros y Hy Hf. cbn in Hy. subst y. exact (footprint_tmp _ _ Hf).
+    - fold w1. eapply Good_veq_post; [exact Hrec1 | exact Hveq]. }
+  (* the bookkeeping at the end *)
+  assert (Hfin : forall m3, m_active m3 = m_active m ->
+            rdn_finish g m3 d =
+            (let m4 := set_disks m3 (updd (m_disks m3) d None) in
+             let m4 := if fix_children g then set_children m4 (updc (m_children m4) (Some d) []) else m4 in
+             set_active m4 (removed d (m_active m4)))).
+  { intros m3 Hm3. apply rdn_finish_eq.
+    - rewrite Hm3, Hact. apply in_rev. rewrite rev_involutive, names_app_mid.
+      apply in_or_app. right. right. left. reflexivity.
+    - intros x t. rewrite Hm3, Hact, rev_involutive, names_app_mid. subst l1. cbn [names_of_chain map app].
+      destruct l1' as [| b t']; cbn [names_of_chain map app]; intro E; inversion E.
+      + apply Hcd. assumption.
+      + apply Hd1. right. left. assumption. }
+  rewrite ff_bind, ff_encode by (cbn; auto; right; eexists; reflexivity). fold w1. cbn [is_ok res_eqb negb].
+  destruct l2 as [| pmb l2'].
+  - (* d is the base: no parent to update *)
+    cbn [rm_ppd] in ppd. subst ppd.
+    assert (Hpostmid : rm_post l1 cmb dmb [] = mid) by reflexivity.
+    unfold rdn_parent_rev. rewrite Hpd. cbn [bind ff is_ok res_eqb negb].
+    exists w1. split; [| split].
+    + rewrite (Hfin m2 eq_refl). reflexivity.
+    + subst vpost. rewrite Hpostmid. exact Hrec1.
+    + subst vpost. rewrite Hpostmid. apply Forall_states_bind.
+      * apply Hst1. apply veq_refl.
+      * intros e He. rewrite ff_encode in * by (cbn; auto; right; eexists; reflexivity). cbn [fst snd] in *.
+        inversion He; subst e. cbn [is_ok res_eqb negb bind]. apply Forall_states_ret. apply Good_post. exact Hrec1.
+  - (* the parent inherits d's revision counter *)
+    set (p := mb_name pmb) in *. set (pd := mb_disk pmb) in *.
+    set (pd' := mkdisk (d_parent pd) (d_removed pd) (d_user pd) (d_created pd) (d_rev (mb_disk dmb))).
+    assert (Hppd : ppd = Some (p, pd')) by reflexivity.
+    assert (Hpin : In p (names_of_chain (pmb :: l2'))) by (left; reflexivity).
+    assert (Hpc' : p <> child) by (intro E; apply Hc2; rewrite <- E; exact Hpin).
+    assert (Hpdd : p <> d) by (intro E; apply Hd2; rewrite <- E; exact Hpin).
+    assert (Hm2p : m_disks m2 p = Some pd).
+    { subst m2. cbn [m_disks set_disks update_child set_children]. rewrite updd_neq by (apply not_eq_sym; exact Hpc').
+      rewrite Hdisks. rewrite (find_mb_in _ pmb); [reflexivity | exact Hnd |].
+      apply in_or_app. right. right. right. left. reflexivity. }
+    cbn [linked] in Hl2. destruct Hl2 as [Hmp [_ [Hpp _]]]. fold p pd in Hmp, Hpp.
+    unfold rdn_parent_rev. rewrite Hpd. cbn [first_name]. fold p. rewrite Hm2p. fold pd'.
+    set (m3 := set_disks m2 (updd (m_disks m2) p (Some pd'))).
+    set (w2 := enc_fs w1 (Meta p) (IDisk pd')).
+    assert (Hpost : rm_post l1 cmb dmb (pmb :: l2') = upd_member p pd' mid) by reflexivity.
+    assert (Hw1p : files w1 (Meta p) = Some (IDisk pd)).
+    { subst w1. rewrite enc_fs_other; [exact Hmp | intro E; inversion E; exact (Hpc' H0) | cbn; discriminate]. }
+    assert (Hnd_mid : NoDup (names_of_chain mid)).
+    { subst mid. unfold names_of_chain. rewrite map_app. cbn [map set_mdisk mb_name]. exact Hnd'. }
+    assert (Hlink2 : linked (files w2) (upd_member p pd' mid)).
+    { eapply (linked_upd_same_parent (files w1) (files w2) p pd pd' mid Hlink1 Hnd_mid Hw1p); [reflexivity | | |].
+      - subst w2. apply enc_fs_self. right. eexists. reflexivity.
+      - intros y. subst w2. apply enc_fs_other; cbn; discriminate.
+      - intros y Hy. subst w2. apply enc_fs_other; cbn; [intro E; inversion E; apply Hy; assumption | discriminate]. }
+    assert (Hrec2 : recover g w2 = Some vpost).
+    { subst vpost. rewrite Hpost. apply recover_intro with (h := Head n) (c := c).
+      - subst w2. rewrite enc_fs_other by (cbn; discriminate). subst w1. rewrite enc_fs_other by (cbn; discriminate). exact Hvol.
+      - exact Hvh.
+      - apply Hwalk_of; [exact Hlink2 | | rewrite upd_member_length; lia].
+        destruct mid as [| y t]; [discriminate |]. cbn [upd_member first_name] in *.
+        destruct (dname_eqb (mb_name y) p); exact Hhead_mid.
+      - subst w2. rewrite enc_fs_other by (cbn; discriminate). subst w1. rewrite enc_fs_other by (cbn; discriminate). exact Hcnt. }
+    assert (Hveq : veq (mkview (cv_info v) mid) vpost).
+    { subst vpost. rewrite Hpost. apply veq_upd_member with (pd := pd).
+      - intros mb Hin Hn. subst mid. apply in_app_or in Hin. destruct Hin as [Hin | [Hin | Hin]].
+        + exfalso. apply (in_map mb_name) in Hin. rewrite Hn in Hin.
+          apply (nodup_app_disj _ _ p Hndn Hin). right. right. exact Hpin.
+        + exfalso. subst mb. cbn in Hn. apply Hpc'. symmetry. exact Hn.
+        + destruct Hin as [Hin | Hin]; [subst mb; reflexivity |].
+          exfalso. apply (in_map mb_name) in Hin. rewrite Hn in Hin.
+          pose proof (nodup_app_r _ _ Hndn) as Hr. inversion Hr as [| ? ? _ Hr1]; subst. inversion Hr1 as [| ? ? _ Hr2]; subst.
+          cbn [names_of_chain map] in Hr2. inversion Hr2; subst. contradiction.
+      - repeat split. }
+    exists w2. split; [| split].
+    + rewrite ff_bind, ff_bind, ff_encode by (cbn; auto; right; eexists; reflexivity). fold w2. cbn [ff is_ok res_eqb negb].
+      rewrite (Hfin m3 eq_refl). rewrite Hppd. reflexivity.
+    + exact Hrec2.
+    + apply Forall_states_bind.
+      * apply Hst1. exact Hveq.
+      * intros e He. rewrite ff_encode in * by (cbn; auto; right; eexists; reflexivity). cbn [fst snd] in *.
+        inversion He; subst e. cbn [is_ok res_eqb negb]. fold w1.
+        apply Forall_states_bind.
+        -- apply Forall_states_bind.
+           ++ apply encode_states; [right; eexists; reflexivity | exact I | |].
+              ** intros x Hx _. eapply Good_veq_post; [| exact Hveq]. eapply recover_only_on; [exact Hrec1 | exact Hx |].
+                 intros y Hy Hf. cbn in Hy. subst y. exact (footprint_tmp _ _ Hf).
+              ** fold w2. apply Good_post. exact Hrec2.
+           ++ intros e2 He2. rewrite ff_encode in * by (cbn; auto; right; eexists; reflexivity). cbn [fst snd] in *.
+              apply Forall_states_ret. fold w2. apply Good_post. exact Hrec2.
+        -- intros a0 Ha0. rewrite ff_bind, ff_encode in * by (cbn; auto; right; eexists; reflexivity).
+           cbn [ff fst snd] in *. inversion Ha0; subst a0. cbn [is_ok res_eqb negb].
+           apply Forall_states_ret. fold w2. apply Good_post. exact Hrec2.
+Qed.
+
+Lemma rm_post_shape : forall a l1' cmb dmb l2,
+  NoDup (names_of_chain ((a :: l1') ++ cmb :: dmb :: l2)) ->
+  exists rest, rm_post (a :: l1') cmb dmb l2 = a :: rest
+    /\ names_of_chain (rm_post (a :: l1') cmb dmb l2) = names_of_chain (a :: l1') ++ mb_name cmb :: names_of_chain l2
+    /\ map mb_id (rm_post (a :: l1') cmb dmb l2) = map mb_id (a :: l1') ++ mb_id cmb :: map mb_id l2.
+Proof.
+  intros a l1' cmb dmb l2 Hnd. unfold rm_post.
+  set (mid := (a :: l1') ++ set_mdisk cmb (rm_cd' (mb_disk dmb) (mb_disk cmb)) :: l2).
+  assert (Hn : names_of_chain mid = names_of_chain (a :: l1') ++ mb_name cmb :: names_of_chain l2).
+  { subst mid. unfold names_of_chain. rewrite map_app. reflexivity. }
+  assert (Hi : map mb_id mid = map mb_id (a :: l1') ++ mb_id cmb :: map mb_id l2).
+  { subst mid. rewrite map_app. reflexivity. }
+  destruct (rm_ppd (mb_disk dmb) l2) as [[p pd'] |] eqn:Hp.
+  - rewrite upd_member_names, upd_member_ids. split with (x := upd_member p pd' (l1' ++ set_mdisk cmb (rm_cd' (mb_disk dmb) (mb_disk cmb)) :: l2)).
+    split; [| split; assumption].
+    subst mid. cbn [app upd_member]. rewrite dname_eqb_neq; [reflexivity |].
+    unfold rm_ppd in Hp. destruct l2 as [| pmb l2']; [discriminate |]. inversion Hp; subst p.
+    intro E. rewrite names_app_mid in Hnd. cbn [names_of_chain map app] in Hnd. inversion Hnd as [| ? ? Hn1 _]; subst.
+    apply Hn1. apply in_or_app. right. right. right. left. symmetry. exact E.
+  - exists (l1' ++ set_mdisk cmb (rm_cd' (mb_disk dmb) (mb_disk cmb)) :: l2). auto.
+Qed.
+
+Theorem remove_diff_disk_spec : forall g w v m d,
+  ctx g w v m -> cfg_ok g -> ospec g w v m (remove_diff_disk g m d).
+Proof.
+  intros g w v m d Hctx Hcfg.
+  destruct (ctx_shape g w v m Hctx) as [n [id0 [d0 [tl0 [c [Hchain0 [Hvh [Hmh [Hsnaps [Hnd [Hndi [Hvol [Hcnt [Hlink [Hlen [Hd0 Hpar]]]]]]]]]]]]]]]].
+  pose proof (cx_rec _ _ _ _ Hctx) as Hrec. pose proof (cx_ag _ _ _ _ Hctx) as Hag. pose proof (cx_fresh _ _ _ _ Hctx) as Hfr.
+  pose proof (cx_heads _ _ _ _ Hctx) as Hheads.
+  pose proof Hag as [Hinfo [Hdisks [Hchild [Hfixch Hact]]]].
+  unfold remove_diff_disk.
+  destruct (negb (mode_eqb (m_mode m) RW)) eqn:Em; [eapply ospec_refuse; [exact Hctx | | reflexivity]; discriminate |].
+  destruct (odname_eqb (Some d) (i_head (m_info m))) eqn:Eh; [eapply ospec_refuse; [exact Hctx | | reflexivity]; discriminate |].
+  destruct (odname_eqb (i_parent (m_info m)) (Some d)) eqn:Ep; [eapply ospec_refuse; [exact Hctx | | reflexivity]; discriminate |].
+  assert (Hdh : d <> Head n).
+  { intro E. subst d. rewrite Hmh, odname_eqb_refl in Eh. discriminate. }
+  destruct (m_disks m d) as [dd |] eqn:Hmd.
+  - (* a member of the chain *)
+    assert (Hin : In d (names_of_chain (cv_chain v))).
+    { rewrite Hdisks in Hmd. destruct (find_mb d (cv_chain v)) as [mb |] eqn:Hf; [| discriminate].
+      destruct (find_mb_some_in _ _ _ Hf) as [Hi Hn]. rewrite <- Hn. apply in_map. exact Hi. }
+    destruct (split_at_member d (cv_chain v) Hin) as [l1 [cmb [dmb [l2 [Hsplit Hdn]]]]].
+    { rewrite Hchain0. cbn. congruence. }
+    (* d is not the latest snapshot, so something precedes its child *)
+    destruct l1 as [| a l1'].
+    { exfalso. rewrite Hsplit in Hlink, Hchain0. cbn [app] in Hlink, Hchain0.
+      cbn [linked] in Hlink. destruct Hlink as [_ [_ [Hp0 _]]].
+      inversion Hchain0 as [[Hc0 Ht0]]. rewrite Hc0 in Hp0. cbn [mb_disk] in Hp0.
+      destruct Hinfo as [_ [_ [_ [Hip _]]]]. rewrite Hip, Hpar, Hp0, Hdn, odname_eqb_refl in Ep. discriminate. }
+    subst d.
+    destruct (rdn_spec g w v m a l1' cmb dmb l2 Hctx Hsplit) as [w2 [Hff2 [Hrec2 Hst2]]].
+    set (vpost := mkview (cv_info v) (rm_post (a :: l1') cmb dmb l2)) in *.
+    set (m' := rm_mem g m (mb_name dmb) (mb_name cmb) (rm_cd' (mb_disk dmb) (mb_disk cmb)) (rm_ppd (mb_disk dmb) l2)) in *.
+    pose proof Hnd as Hnd2. rewrite Hsplit in Hnd2.
+    destruct (rm_post_shape a l1' cmb dmb l2 Hnd2) as [rest [Hshape [Hnames Hids]]].
+    pose proof Hnd2 as Hndn. rewrite names_app_mid in Hndn.
+    destruct (nodup_mid _ _ _ _ Hndn) as [Hcd [Hd1 [Hd2 [Hc1 [Hc2 Hnd']]]]].
+    assert (Hd_post : ~ In (mb_name dmb) (names_of_chain (cv_chain vpost))).
+    { subst vpost. cbn [cv_chain]. rewrite Hnames. intro H. apply in_app_or in H.
+      destruct H as [H | [H | H]]; [exact (Hd1 H) | exact (Hcd H) | exact (Hd2 H)]. }
+    destruct (rm_offchain g w2 vpost vpost (mb_name dmb) m' Ok Hrec2 Hd_post) as [w3 [Hff3 [Hrec3 Hst3]]].
+    (* the chain below the head *)
+    assert (Ha : a = mkmember (Head n) id0 d0 /\ tl0 = l1' ++ cmb :: dmb :: l2).
+    { rewrite Hsplit in Hchain0. cbn [app] in Hchain0. inversion Hchain0. auto. }
+    destruct Ha as [Ha Htl0].
+    assert (Hl2_linked : d_parent (mb_disk dmb) = first_name l2).
+    { rewrite Hsplit in Hlink. clear -Hlink. induction (a :: l1') as [| x t IH]; cbn [app linked] in Hlink; [| apply IH; tauto].
+      destruct Hlink as [_ [_ [_ [_ [_ [H _]]]]]]. exact H. }
+    assert (Hsn_all : forall x, In x (names_of_chain tl0) -> forall k, x <> Head k).
+    { intros x Hx k E. subst x. exact (snap_not_head tl0 k Hsnaps Hx). }
+    destruct (rm_agree g v m (a :: l1') cmb dmb l2 (rm_cd' (mb_disk dmb) (mb_disk cmb)) (rm_ppd (mb_disk dmb) l2) Hag Hsplit Hnd Hheads)
+      as [Hag' Hheads'].
+    { intros k. apply Hsn_all. rewrite Htl0. unfold names_of_chain. rewrite map_app. apply in_or_app. right. right. left. reflexivity. }
+    { intros k E. destruct l2 as [| pmb l2']; [discriminate |]. cbn in E. inversion E as [E1].
+      eapply (Hsn_all (mb_name pmb)); [| exact E1]. rewrite Htl0. unfold names_of_chain. rewrite map_app.
+      apply in_or_app. right. right. right. left. reflexivity. }
+    { exact Hl2_linked. }
+    { unfold rm_ppd. destruct l2 as [| pmb l2']; [exact I | reflexivity]. }
+    exists w3, m', Ok, vpost. split; [| split; [| split]].
+    + rewrite ff_bind, Hff2. cbn [is_ok res_eqb negb]. exact Hff3.
+    + constructor.
+      * exact Hrec3.
+      * (* the new view is well formed *)
+        exists n, id0, d0, rest. subst vpost. cbn [cv_chain cv_info]. rewrite Hshape, Ha.
+        split; [reflexivity |]. split; [exact Hvh |]. split; [| split; [| split]].
+        -- apply Forall_forall. intros mb Hmb.
+           assert (Hmn : In (mb_name mb) (names_of_chain rest)) by (apply in_map; exact Hmb).
+           assert (Hsub : In (mb_name mb) (names_of_chain tl0)).
+           { rewrite Hshape in Hnames. cbn [names_of_chain map app] in Hnames. inversion Hnames as [Hr].
+             fold (names_of_chain rest) in Hr. rewrite Hr in Hmn. rewrite Htl0. unfold names_of_chain. rewrite map_app.
+             apply in_app_or in Hmn. apply in_or_app. destruct Hmn as [H | [H | H]];
+               [left; exact H | right; left; exact H | right; right; right; exact H]. }
+           unfold names_of_chain in Hsub. apply in_map_iff in Hsub. destruct Hsub as [mb' [Hn' Hi']].
+           eapply Forall_forall in Hsnaps; [| exact Hi']. rewrite <- Hn'. exact Hsnaps.
+        -- rewrite <- Ha, <- Hshape, Hnames. exact Hnd'.
+        -- rewrite <- Ha, <- Hshape, Hids. rewrite Hsplit, map_app in Hndi. cbn [map] in Hndi.
+           apply (nodup_mid_gen _ _ _ _ _ Hndi).
+        -- exact Hpar.
+      * exact Hag'.
+      * match goal with |- ids_fresh ?x => assert (Hx : x = fst (ff (remove_diff_disk g m (mb_name dmb)) w)) end.
+        { unfold remove_diff_disk. rewrite Em, Eh, Ep.
+          rewrite ff_bind, Hff2. cbn [is_ok res_eqb negb]. rewrite Hff3. reflexivity. }
+        rewrite Hx. apply ff_fresh. exact Hfr.
+      * exact Hheads'.
+    + apply Forall_states_bind; [exact Hst2 |].
+      intros a0 Ha0. rewrite Hff2 in *. cbn [fst snd] in *. inversion Ha0; subst a0. cbn [is_ok res_eqb negb].
+      eapply Forall_impl; [| exact Hst3]. intros x [vx [Hx1 Hx2]]. exists vx. split; [exact Hx1 | right; destruct Hx2; assumption].
+    + intros H. congruence.
+  - (* not in diskData: only files of that name (if any) are removed *)
+    assert (Hnot : ~ In d (names_of_chain (cv_chain v))).
+    { intro Hin. rewrite Hdisks in Hmd. destruct (find_mb_some d (cv_chain v) Hin) as [mb Hf]. rewrite Hf in Hmd. discriminate. }
+    destruct (rm_offchain g w v v d m Ok Hrec Hnot) as [w3 [Hff3 [Hrec3 Hst3]]].
+    exists w3, m, Ok, v. split; [| split; [| split]].
+    + unfold remove_disk_node. rewrite Hmd. cbn [bind is_ok res_eqb negb]. exact Hff3.
+    + constructor; try apply Hctx; [exact Hrec3 |].
+      pose proof (ff_fresh _ (e2 <- rm_disk (Some d);; Ret (m, e2)) w Hfr) as H. rewrite Hff3 in H. exact H.
+    + unfold remove_disk_node. rewrite Hmd. cbn [bind is_ok res_eqb negb]. exact Hst3.
+    + intros H. congruence.
+Qed.
+
+(** ** the open path: readMetadata / readDiskData *)
+
+Definition frev (c : Z) (d : disk) : disk :=
+  if Z.leb (d_rev d) 1 then mkdisk (d_parent d) (d_removed d) (d_user d) (d_created d) c else d.
+
+Definition norm_chain (c : Z) (l : list member) : list member :=
+  map (fun mb => set_mdisk mb (frev c (mb_disk mb))) l.
+
+Lemma frev_parent : forall c d, d_parent (frev c d) = d_parent d.
+Proof. intros. unfold frev. destruct (Z.leb (d_rev d) 1); reflexivity. Qed.
+Lemma frev_attrs : forall c d, attrs_same d (frev c d).
+Proof. intros. unfold frev. destruct (Z.leb (d_rev d) 1); repeat split. Qed.
+
+Lemma norm_chain_names : forall c l, names_of_chain (norm_chain c l) = names_of_chain l.
+Proof. intros. unfold norm_chain, names_of_chain. rewrite map_map. reflexivity. Qed.
+Lemma norm_chain_ids : forall c l, map mb_id (norm_chain c l) = map mb_id l.
+Proof. intros. unfold norm_chain. rewrite map_map. reflexivity. Qed.
+Lemma norm_chain_sim : forall c l, Forall2 member_sim l (norm_chain c l).
+Proof.
+  induction l as [| a t IH]; [constructor |]. cbn. constructor; [| exact IH].
+  split; [reflexivity |]. split; [reflexivity |]. apply frev_attrs.
+Qed.
+
+(** the memory readMetadata's loop builds from the chain [l] (head first) *)
+Fixpoint rc_mem (c : Z) (m : mem) (l : list member) : mem :=
+  match l with
+  | [] => m
+  | a :: t =>
+      let m1 := set_disks m (updd (m_disks m) (mb_name a) (Some (frev c (mb_disk a)))) in
+      match d_parent (mb_disk a) with
+      | None => m1
+      | Some p => rc_mem c (set_children m1 (add_child (m_children m1) (Some p) (mb_name a))) t
+      end
+  end.
+
+(** names a run of the loop over [l] may change *)
+Definition rc_touch (l : list member) (n : name) : Prop :=
+  exists y, In y (names_of_chain l) /\ (n = Meta y \/ n = MetaTmp y).
+
+Lemma sim_linked_names : forall l l', Forall2 member_sim l l' -> names_of_chain l = names_of_chain l'.
+Proof.
+  intros l l' H. induction H as [| x y l0 l0' Hxy _ IH]; [reflexivity |].
+  unfold names_of_chain in *. cbn [map]. destruct Hxy as [Hn _]. rewrite Hn, IH. reflexivity.
+Qed.
+
+Lemma read_chain_spec : forall g c present l w m fuel,
+  l <> [] -> linked (files w) l -> NoDup (names_of_chain l) ->
+  (forall y, In y (names_of_chain l) -> present (Meta y) = true) ->
+  files w Counter = Some (ICounter c) -> length l <= fuel ->
+  let x := match l with a :: _ => mb_name a | [] => Head 0 end in
+  exists w',
+    ff (read_chain g fuel present m x) w = (w', Done (rc_mem c m l, Ok))
+    /\ linked (files w') (norm_chain c l)
+    /\ only_on (rc_touch l) w w'
+    /\ Forall (fun x' => only_on (rc_touch l) w x'
+                         /\ exists l', linked (files x') l' /\ Forall2 member_sim l l')
+              (states (read_chain g fuel present m x) w).
+Proof.
+  intros g c present l. induction l as [| a t IH]; intros w m fuel Hne Hl Hnd Hpres Hcnt Hlen x; [congruence |].
+  subst x. destruct fuel as [| fuel]; [cbn in Hlen; lia |].
+  cbn [linked] in Hl. destruct Hl as [Hma [[gn Hia] [Hpa Ht]]].
+  cbn [names_of_chain map] in Hnd, Hpres. inversion Hnd as [| ? ? Hnotin Hndt]; subst.
+  cbn [read_chain]. rewrite (Hpres (mb_name a)) by (left; reflexivity). cbn [negb].
+  set (da := mb_disk a) in *. set (xa := mb_name a) in *.
+  (* the first iteration: read, possibly rewrite with the current revision counter *)
+  set (da' := frev c da).
+  set (w1 := if Z.leb (d_rev da) 1 then enc_fs w (Meta xa) (IDisk da') else w).
+  assert (Hw1_meta : files w1 (Meta xa) = Some (IDisk da')).
+  { subst w1 da'. unfold frev. destruct (Z.leb (d_rev da) 1); [apply enc_fs_self; right; eexists; reflexivity | exact Hma]. }
+  assert (Hw1_oo : only_on (fun n => n = Meta xa \/ n = MetaTmp xa) w w1).
+  { subst w1. destruct (Z.leb (d_rev da) 1); [| apply only_on_refl]. intros n Hn. apply enc_fs_other; cbn; intro; subst n; apply Hn; auto. }
+  assert (Hw1_cnt : files w1 Counter = Some (ICounter c)) by (rewrite Hw1_oo; [exact Hcnt | intros [H | H]; discriminate]).
+  assert (Hw1_img : forall y, files w1 (Img y) = files w (Img y)) by (intros y; apply Hw1_oo; intros [H | H]; discriminate).
+  assert (Hw1_other : forall y, y <> xa -> files w1 (Meta y) = files w (Meta y)).
+  { intros y Hy. apply Hw1_oo. intros [H | H]; [inversion H; congruence | discriminate]. }
+  set (first := if Z.leb (d_rev da) 1
+                then rv <- get_rev;;
+                     e <- encode_to_file g (IDisk (mkdisk (d_parent da) (d_removed da) (d_user da) (d_created da) rv)) (Meta xa);;
+                     Ret (mkdisk (d_parent da) (d_removed da) (d_user da) (d_created da) rv, e)
+                else Ret (da, Ok)).
+  assert (Hfirst : ff first w = (w1, Done (da', Ok))).
+  { subst first w1 da'. unfold frev. destruct (Z.leb (d_rev da) 1).
+    - rewrite ff_bind, (get_rev_ff _ c Hcnt). rewrite ff_bind, ff_encode by (cbn; auto; right; eexists; reflexivity). reflexivity.
+    - reflexivity. }
+  set (a' := set_mdisk a da').
+  assert (Hsim_a : member_sim a a').
+  { subst a' da'. split; [reflexivity |]. split; [reflexivity |]. apply frev_attrs. }
+  (* a directory that differs from w only in the temp file, or equals w1, has the head entry linked *)
+  assert (Hlift : forall x' l', (only_on (fun n => n = MetaTmp xa) w x' \/ only_on (rc_touch t) w1 x') ->
+            linked (files x') l' -> Forall2 member_sim t l' ->
+            exists a2, (a2 = a \/ a2 = a') /\ linked (files x') (a2 :: l')).
+  { intros x' l' Hx' Hl' Hs'.
+    assert (Hfn : match l' with y :: _ => Some (mb_name y) | [] => None end = match t with y :: _ => Some (mb_name y) | [] => None end).
+    { inversion Hs' as [| ? ? ? ? [Hn _] _]; subst; [reflexivity | cbn; rewrite Hn; reflexivity]. }
+    destruct Hx' as [Hx' | Hx'].
+    - exists a. split; [left; reflexivity |]. cbn [linked]. fold xa da.
+      rewrite (Hx' (Meta xa)) by discriminate. rewrite (Hx' (Img xa)) by discriminate.
+      split; [exact Hma |]. split; [eauto |]. split; [rewrite Hfn; exact Hpa | exact Hl'].
+    - exists a'. split; [right; reflexivity |]. cbn [linked]. subst a'. cbn [set_mdisk mb_name mb_disk mb_id]. fold xa.
+      assert (Hnt : forall n, (n = Meta xa \/ n = Img xa) -> ~ rc_touch t n).
+      { intros n Hn [y [Hy Hy2]]. destruct Hn as [Hn | Hn]; subst n; destruct Hy2 as [E | E]; try discriminate.
+        inversion E; subst y. exact (Hnotin Hy). }
+      rewrite (Hx' (Meta xa)) by (apply Hnt; auto). rewrite (Hx' (Img xa)) by (apply Hnt; auto).
+      split; [exact Hw1_meta |]. split; [exists gn; rewrite Hw1_img; exact Hia |].
+      split; [subst da'; rewrite frev_parent, Hfn; exact Hpa | exact Hl']. }
+  assert (Htouch_a : forall n, (n = Meta xa \/ n = MetaTmp xa) -> rc_touch (a :: t) n).
+  { intros n Hn. exists xa. split; [left; reflexivity | exact Hn]. }
+  assert (Htouch_t : forall n, rc_touch t n -> rc_touch (a :: t) n).
+  { intros n [y [Hy Hy2]]. exists y. split; [right; exact Hy | exact Hy2]. }
+  assert (Hlt_w1 : linked (files w1) t).
+  { eapply linked_frame; [exact Ht |]. intros y Hy. split; [apply Hw1_other; intro; subst y; exact (Hnotin Hy) | apply Hw1_img]. }
+  (* states of the first iteration *)
+  assert (Hfirst_st : Forall (fun x' => only_on (rc_touch (a :: t)) w x'
+                                       /\ exists l', linked (files x') l' /\ Forall2 member_sim (a :: t) l') (states first w)).
+  { assert (Hw_ok : only_on (rc_touch (a :: t)) w w /\ exists l', linked (files w) l' /\ Forall2 member_sim (a :: t) l').
+    { split; [apply only_on_refl |]. exists (a :: t). split; [cbn [linked]; eauto 6 | apply Forall2_refl; apply member_sim_refl]. }
+    assert (Hw1_ok : only_on (rc_touch (a :: t)) w w1 /\ exists l', linked (files w1) l' /\ Forall2 member_sim (a :: t) l').
+    { split; [intros n Hn; apply Hw1_oo; intro H; apply Hn; apply Htouch_a; exact H |].
+      destruct (Hlift w1 t (or_intror (only_on_refl _ w1)) Hlt_w1 (Forall2_refl _ _ member_sim_refl t)) as [a2 [Ha2 Hl2]].
+      exists (a2 :: t). split; [exact Hl2 |]. constructor; [destruct Ha2; subst a2; [apply member_sim_refl | exact Hsim_a] | apply Forall2_refl; apply member_sim_refl]. }
+    subst first. destruct (Z.leb (d_rev da) 1) eqn:Erev.
+    - apply Forall_states_bind.
+      + unfold get_rev. cbn [states apply_call]. rewrite Hcnt. cbn [states]. constructor; [exact Hw_ok | constructor; [exact Hw_ok | constructor]].
+      + intros rv Hrv. rewrite (get_rev_ff _ c Hcnt) in *. cbn [fst snd] in *. inversion Hrv; subst rv.
+        apply Forall_states_bind.
+        * apply encode_states; [right; eexists; reflexivity | exact I | |].
+          -- intros x' Hx' _. split; [intros n Hn; apply Hx'; intro E; apply Hn; apply Htouch_a; right; subst n; reflexivity |].
+             destruct (Hlift x' t) as [a2 [Ha2 Hl2]]; [left; intros n Hn; apply Hx'; cbn; congruence | | apply Forall2_refl; apply member_sim_refl |].
+             ++ eapply linked_frame; [exact Ht |]. intros y Hy. split; apply Hx'; cbn; discriminate.
+             ++ exists (a2 :: t). split; [exact Hl2 |]. constructor; [destruct Ha2; subst a2; [apply member_sim_refl | exact Hsim_a] | apply Forall2_refl; apply member_sim_refl].
+          -- subst w1 da'. unfold frev in Hw1_ok. rewrite ?Erev in Hw1_ok. exact Hw1_ok.
+        * intros e He. apply Forall_states_ret. rewrite ff_encode by (cbn; auto; right; eexists; reflexivity). cbn [fst].
+          subst w1 da'. unfold frev in Hw1_ok. rewrite ?Erev in Hw1_ok. exact Hw1_ok.
+    - apply Forall_states_ret. exact Hw_ok. }
+  (* the whole iteration: the read, [first], then the parent *)
+  set (m1 := set_disks m (updd (m_disks m) xa (Some da'))).
+  assert (Hhead_ff : forall (k : disk * res -> prog (mem * res)) wz o,
+            ff (k (da', Ok)) w1 = (wz, o) ->
+            ff (Do (CReadFile (Meta xa)) (fun r => match r with
+                                                   | RIno (IDisk d) => bind (if Z.leb (d_rev d) 1
+                                                         then rv <- get_rev;;
+                                                              e <- encode_to_file g (IDisk (mkdisk (d_parent d) (d_removed d) (d_user d) (d_created d) rv)) (Meta xa);;
+                                                              Ret (mkdisk (d_parent d) (d_removed d) (d_user d) (d_created d) rv, e)
+                                                         else Ret (d, Ok)) k
+                                                   | _ => Ret (m, Failed) end)) w = (wz, o)).
+  { intros k wz o Hk. cbn [ff apply_call]. rewrite Hma. fold da. fold first. rewrite ff_bind, Hfirst. exact Hk. }
+  assert (Hhead_st : forall (k : disk * res -> prog (mem * res)) (P : fs -> Prop),
+            (forall x', (only_on (rc_touch (a :: t)) w x' /\ exists l', linked (files x') l' /\ Forall2 member_sim (a :: t) l') -> P x') ->
+            Forall P (states (k (da', Ok)) w1) ->
+            Forall P (states (Do (CReadFile (Meta xa)) (fun r => match r with
+                                                   | RIno (IDisk d) => bind (if Z.leb (d_rev d) 1
+                                                         then rv <- get_rev;;
+                                                              e <- encode_to_file g (IDisk (mkdisk (d_parent d) (d_removed d) (d_user d) (d_created d) rv)) (Meta xa);;
+                                                              Ret (mkdisk (d_parent d) (d_removed d) (d_user d) (d_created d) rv, e)
+                                                         else Ret (d, Ok)) k
+                                                   | _ => Ret (m, Failed) end)) w)).
+  { intros k P HP Hk. rewrite states_Do. cbn [apply_call]. rewrite Hma. fold da. fold first.
+    constructor.
+    - apply HP. split; [apply only_on_refl |]. exists (a :: t). split; [cbn [linked]; eauto 6 | apply Forall2_refl; apply member_sim_refl].
+    - apply Forall_states_bind.
+      + eapply Forall_impl; [| exact Hfirst_st]. exact HP.
+      + intros r Hr. rewrite Hfirst in *. cbn [fst snd] in *. inversion Hr; subst r. exact Hk. }
+  destruct t as [| b t'].
+  - (* the base of the chain *)
+    cbn [first_name] in Hpa.
+    assert (Hpa' : d_parent da' = None) by (subst da'; rewrite frev_parent; exact Hpa).
+    exists w1. split; [| split; [| split]].
+    + eapply Hhead_ff. cbn [is_ok res_eqb negb]. rewrite Hpa'. cbn [ff rc_mem]. fold da. rewrite Hpa. reflexivity.
+    + cbn [norm_chain map linked]. fold da da'. cbn [set_mdisk mb_name mb_disk mb_id]. fold xa.
+      split; [exact Hw1_meta |]. split; [exists gn; rewrite Hw1_img; exact Hia |]. split; [exact Hpa' | exact I].
+    + intros n Hn. apply Hw1_oo. intro H. apply Hn. apply Htouch_a. exact H.
+    + eapply Hhead_st; [intros x' Hx'; exact Hx' |].
+      cbn [is_ok res_eqb negb]. rewrite Hpa'. apply Forall_states_ret.
+      split; [intros n Hn; apply Hw1_oo; intro H; apply Hn; apply Htouch_a; exact H |].
+      exists [a']. split.
+      * cbn [linked]. subst a'. cbn [set_mdisk mb_name mb_disk mb_id]. fold xa.
+        split; [exact Hw1_meta |]. split; [exists gn; rewrite Hw1_img; exact Hia |]. split; [exact Hpa' | exact I].
+      * constructor; [exact Hsim_a | constructor].
+  - (* the parent: the rest of the chain by induction *)
+    set (p := mb_name b) in *.
+    assert (Hpa' : d_parent da' = Some p) by (subst da'; rewrite frev_parent; exact Hpa).
+    set (m2 := set_children m1 (add_child (m_children m1) (Some p) xa)).
+    destruct (IH w1 m2 fuel) as [w' [Hff' [Hl' [Hoo' Hst']]]].
+    + discriminate.
+    + exact Hlt_w1.
+    + exact Hndt.
+    + intros y Hy. apply Hpres. right. exact Hy.
+    + exact Hw1_cnt.
+    + cbn [length] in *. lia.
+    + cbn [mb_name] in Hff', Hst'. fold p in Hff', Hst'.
+      assert (Hrc : rc_mem c m (a :: b :: t') = rc_mem c m2 (b :: t')).
+      { cbn [rc_mem]. fold da xa. rewrite Hpa. reflexivity. }
+      exists w'. split; [| split; [| split]].
+      * eapply Hhead_ff. cbn [is_ok res_eqb negb]. rewrite Hpa'. rewrite Hrc. exact Hff'.
+      * destruct (Hlift w' (norm_chain c (b :: t')) (or_intror Hoo') Hl' (norm_chain_sim c (b :: t'))) as [a2 [Ha2 Hl2]].
+        destruct Ha2 as [Ha2 | Ha2]; subst a2.
+        -- (* a = a' as far as the files are concerned: the same entry *)
+           cbn [norm_chain map]. fold da da'. fold a'.
+           cbn [linked] in Hl2 |- *. destruct Hl2 as [K1 [K2 [K3 K4]]].
+           assert (Hnt : ~ rc_touch (b :: t') (Meta xa)).
+           { intros [y [Hy Hy2]]. destruct Hy2 as [E | E]; [inversion E; subst y; exact (Hnotin Hy) | discriminate]. }
+           subst a'. cbn [set_mdisk mb_name mb_disk mb_id]. fold xa.
+           split; [rewrite (Hoo' (Meta xa) Hnt); exact Hw1_meta |]. split; [exact K2 |].
+           split; [rewrite Hpa'; cbn [norm_chain map set_mdisk mb_name]; reflexivity | exact K4].
+        -- cbn [norm_chain map]. fold da da'. fold a'. exact Hl2.
+      * intros n Hn. rewrite Hoo' by (intro H; apply Hn; apply Htouch_t; exact H).
+        apply Hw1_oo. intro H. apply Hn. apply Htouch_a. exact H.
+      * eapply Hhead_st; [intros x' Hx'; exact Hx' |].
+        cbn [is_ok res_eqb negb]. rewrite Hpa'. fold m1. fold m2.
+        eapply Forall_impl; [| exact Hst']. intros x' [Hx1 [l' [Hx2 Hx3]]]. split.
+        -- intros n Hn. rewrite Hx1 by (intro H; apply Hn; apply Htouch_t; exact H).
+           apply Hw1_oo. intro H. apply Hn. apply Htouch_a. exact H.
+        -- destruct (Hlift x' l' (or_intror Hx1) Hx2 Hx3) as [a2 [Ha2 Hl2]].
+           exists (a2 :: l'). split; [exact Hl2 |].
+           constructor; [destruct Ha2; subst a2; [apply member_sim_refl | exact Hsim_a] | exact Hx3].
+Qed.
+
+Lemma norm_chain_cons : forall c a t, norm_chain c (a :: t) = set_mdisk a (frev c (mb_disk a)) :: norm_chain c t.
+Proof. reflexivity. Qed.
+
+(** the memory the loop builds agrees with the normalised chain *)
+Definition chain_parents_ok (l : list member) : Prop :=
+  forall l1 a t, l = l1 ++ a :: t -> d_parent (mb_disk a) = first_name t.
+
+Lemma linked_parents : forall f l, linked f l -> chain_parents_ok l.
+Proof.
+  intros f l. induction l as [| x r IH]; intros Hl l1 a t Heq.
+  - destruct l1; discriminate.
+  - cbn [linked] in Hl. destruct Hl as [_ [_ [Hp Hr]]]. destruct l1 as [| y l1'].
+    + cbn [app] in Heq. inversion Heq; subst. exact Hp.
+    + cbn [app] in Heq. inversion Heq; subst. eapply IH; [exact Hr | reflexivity].
+Qed.
+
+Lemma rc_mem_spec : forall c l m,
+  NoDup (names_of_chain l) -> chain_parents_ok l ->
+  (forall y, In y (names_of_chain (List.tl l)) -> m_children m (Some y) = []) ->
+  let m' := rc_mem c m l in
+  m_info m' = m_info m /\ m_active m' = m_active m /\ m_mode m' = m_mode m /\ m_cache m' = m_cache m
+  /\ (forall d, m_disks m' d = match find_mb d (norm_chain c l) with Some mb => Some (mb_disk mb) | None => m_disks m d end)
+  /\ (forall y, In y (names_of_chain (List.tl l)) -> m_children m' (Some y) = child_of y (names_of_chain l))
+  /\ (forall q, (forall y, q = Some y -> ~ In y (names_of_chain (List.tl l))) -> m_children m' q = m_children m q).
+Proof.
+  intros c l. induction l as [| a t IH]; intros m Hnd Hpar Hch m'.
+  - subst m'. cbn. repeat split; auto.
+  - subst m'. cbn [rc_mem]. cbn [names_of_chain map] in Hnd. inversion Hnd as [| ? ? Hnotin Hndt]; subst.
+    assert (Hpa : d_parent (mb_disk a) = first_name t) by (apply (Hpar [] a t); reflexivity).
+    assert (Hpar_t : chain_parents_ok t).
+    { intros l1 b t2 Heq. apply (Hpar (a :: l1) b t2). rewrite Heq. reflexivity. }
+    set (m1 := set_disks m (updd (m_disks m) (mb_name a) (Some (frev c (mb_disk a))))).
+    rewrite Hpa. destruct t as [| b t'].
+    + cbn [first_name]. cbn [List.tl names_of_chain map norm_chain find_mb set_mdisk mb_name mb_disk].
+      repeat split; auto.
+      intros d. subst m1. cbn [m_disks set_disks]. unfold updd. destruct (dname_eqb (mb_name a) d); reflexivity.
+    + cbn [first_name]. set (p := mb_name b).
+      set (m2 := set_children m1 (add_child (m_children m1) (Some p) (mb_name a))).
+      cbn [names_of_chain map] in Hndt. inversion Hndt as [| ? ? Hpnot Hndt']; subst.
+      destruct (IH m2) as [K1 [K2 [K3 [K4 [K5 [K6 K7]]]]]].
+      * exact Hndt.
+      * exact Hpar_t.
+      * intros y Hy. subst m2 m1. cbn [m_children set_children set_disks]. unfold add_child.
+        rewrite updc_neq by (intro E; inversion E; subst y; exact (Hpnot Hy)).
+        apply Hch. cbn [List.tl names_of_chain map]. right. exact Hy.
+      * cbn [List.tl] in *. split; [exact K1 |]. split; [exact K2 |]. split; [exact K3 |]. split; [exact K4 |].
+        split; [| split].
+        -- intros d. rewrite K5. rewrite (norm_chain_cons c a (b :: t')). cbn [find_mb set_mdisk mb_name mb_disk].
+           destruct (dname_eqb (mb_name a) d) eqn:E.
+           ++ apply dname_eqb_eq in E. subst d.
+              rewrite find_mb_none by (rewrite norm_chain_names; exact Hnotin).
+              subst m2 m1. cbn [m_disks set_children set_disks]. apply updd_eq.
+           ++ destruct (find_mb d (norm_chain c (b :: t'))); [reflexivity |].
+              subst m2 m1. cbn [m_disks set_children set_disks]. unfold updd. rewrite E. reflexivity.
+        -- intros y Hy. cbn [names_of_chain map] in Hy |- *. fold p. destruct Hy as [Hy | Hy].
+           ++ subst y. cbn [child_of]. rewrite dname_eqb_refl.
+              rewrite K7 by (intros y Ey; inversion Ey; subst y; exact Hpnot).
+              subst m2 m1. cbn [m_children set_children set_disks]. unfold add_child. rewrite updc_eq.
+              rewrite (Hch p) by (left; reflexivity). reflexivity.
+           ++ rewrite (K6 y Hy). cbn [child_of]. rewrite dname_eqb_neq by (intro E; subst y; exact (Hpnot Hy)). reflexivity.
+        -- intros q Hq. rewrite K7.
+           ++ subst m2 m1. cbn [m_children set_children set_disks]. unfold add_child.
+              apply updc_neq. intro E. apply (Hq p); [symmetry; exact E | left; reflexivity].
+           ++ intros y Ey Hy. apply (Hq y Ey). right. exact Hy.
+Qed.
+
+Lemma Forall2_len : forall A B (R : A -> B -> Prop) l l', Forall2 R l l' -> length l = length l'.
+Proof. intros A B R l l' H. induction H; cbn; congruence. Qed.
+
+Lemma chain_from_spec : forall disks l fuel,
+  (forall l1 a t, l = l1 ++ a :: t -> exists da, disks (mb_name a) = Some da /\ d_parent da = first_name t) ->
+  length l <= fuel ->
+  chain_from disks fuel (first_name l) = Some (names_of_chain l).
+Proof.
+  intros disks l. induction l as [| a t IH]; intros fuel Hall Hlen.
+  - destruct fuel; reflexivity.
+  - destruct fuel as [| fuel]; [cbn in Hlen; lia |].
+    cbn [first_name chain_from]. destruct (Hall [] a t eq_refl) as [da [Hda Hpa]]. rewrite Hda, Hpa.
+    rewrite IH.
+    + reflexivity.
+    + intros l1 b t2 Heq. apply (Hall (a :: l1) b t2). rewrite Heq. reflexivity.
+    + cbn in Hlen. lia.
+Qed.
+
+Lemma open_all_spec : forall l w, (forall y, In y l -> files w (Img y) <> None) ->
+  ff (open_all l) w = (w, Done true) /\ Forall (eq w) (states (open_all l) w).
+Proof.
+  induction l as [| y t IH]; intros w Hex.
+  - cbn. split; [reflexivity | constructor; [reflexivity | constructor]].
+  - cbn [open_all]. unfold open_file. cbn [bind ff states apply_call].
+    destruct (files w (Img y)) as [ci |] eqn:Hi; [| exfalso; apply (Hex y); [left; reflexivity | exact Hi]].
+    cbn [is_err bind ff states]. destruct (IH w) as [H1 H2]; [intros z Hz; apply Hex; right; exact Hz |].
+    split; [exact H1 |]. constructor; [reflexivity | exact H2].
+Qed.
+
+Lemma set_iparent_same : forall i, set_iparent i (i_parent i) = i.
+Proof. intros []. reflexivity. Qed.
+
+Lemma init_rev_spec : forall w c, files w Counter = Some (ICounter c) ->
+  ff init_revision_counter w = (w, Done (Some c)) /\ Forall (eq w) (states init_revision_counter w).
+Proof.
+  intros w c Hc. unfold init_revision_counter. cbn [ff states apply_call]. rewrite Hc.
+  cbn [is_err ff states apply_call]. rewrite Hc. cbn [is_err ff states apply_call]. rewrite Hc.
+  split; [reflexivity |]. repeat constructor.
+Qed.
+
+(** opening a well-formed directory: the memory agrees with what recovery says, the only changes
+    are RevisionCounter values <= 1 brought up to date and volume.meta rewritten as dirty *)
+Lemma construct_spec : forall g w v size now,
+  recover g w = Some v -> wf_view v -> ids_fresh w -> cfg_ok g ->
+  exists wF mF c,
+    files w Counter = Some (ICounter c)
+    /\ let iF := set_dirty_rebuilding (cv_info v) true (i_rebuilding (cv_info v)) in
+       let vF := mkview iF (norm_chain c (cv_chain v)) in
+       ff (construct g size now) w = (wF, Done (Some mF, Ok))
+       /\ ctx g wF vF mF
+       /\ m_mode mF = INIT /\ m_info mF = cv_info v
+       /\ Forall (Good g v vF) (states (construct g size now) w)
+       /\ veq v vF.
+Proof.
+  intros g w v size now Hrec Hwf Hfr Hcfg.
+  destruct (recover_elim g w v Hrec) as [Hvol [h [c [Hhd [Hw Hc]]]]].
+  destruct Hwf as [n [id0 [d0 [tl0 [Hchain [Hvh [Hsnaps [Hnd [Hndi Hpar]]]]]]]]].
+  rewrite Hvh in Hhd. inversion Hhd; subst h. clear Hhd.
+  destruct (walk_linked _ _ _ _ Hw) as [Hlink _]. destruct (walk_length _ _ _ _ Hw) as [Hlen _].
+  set (i := cv_info v) in *. set (l := cv_chain v) in *.
+  exists (enc_fs
+            (fst (ff (read_chain g (read_fuel g) (fun n0 => match files w n0 with Some _ => true | None => false end)
+                        (set_info (set_children (set_disks (mkmem (empty_info size) no_disks no_children [] INIT c) no_disks) no_children) i) (Head n)) w))
+            Vol (IVol (set_dirty_rebuilding i true (i_rebuilding i)))).
+  set (pres := fun n0 => match files w n0 with Some _ => true | None => false end).
+  set (m1 := set_info (set_children (set_disks (mkmem (empty_info size) no_disks no_children [] INIT c) no_disks) no_children) i).
+  destruct (read_chain_spec g c pres l w m1 (read_fuel g)) as [w2 [Hff2 [Hl2 [Hoo2 Hst2]]]].
+  { subst l. rewrite Hchain. discriminate. }
+  { exact Hlink. }
+  { exact Hnd. }
+  { intros y Hy. subst pres. cbn beta.
+    assert (Hex : exists dk, files w (Meta y) = Some (IDisk dk)).
+    { clear -Hlink Hy. induction l as [| a t IH]; [contradiction |]. cbn [linked] in Hlink. destruct Hlink as [Hm [_ [_ Ht]]].
+      cbn in Hy. destruct Hy as [E | Hy]; [subst; eauto | auto]. }
+    destruct Hex as [dk Hdk]. rewrite Hdk. reflexivity. }
+  { exact Hc. }
+  { unfold read_fuel. lia. }
+  assert (Hx : match l with a :: _ => mb_name a | [] => Head 0 end = Head n) by (subst l; rewrite Hchain; reflexivity).
+  rewrite Hx in Hff2, Hst2. rewrite Hff2. cbn [fst].
+  set (m2 := rc_mem c m1 l) in *.
+  set (iF := set_dirty_rebuilding i true (i_rebuilding i)).
+  set (wF := enc_fs w2 Vol (IVol iF)).
+  (* the memory the loop built *)
+  destruct (rc_mem_spec c l m1 Hnd (linked_parents _ _ Hlink)) as [K1 [K2 [K3 [K4 [K5 [K6 K7]]]]]].
+  { intros y _. reflexivity. }
+  fold m2 in K1, K2, K3, K4, K5, K6, K7.
+  assert (Hdisks2 : forall d, m_disks m2 d = option_map mb_disk (find_mb d (norm_chain c l))).
+  { intros d. rewrite K5. destruct (find_mb d (norm_chain c l)); reflexivity. }
+  assert (Hnames_n : names_of_chain (norm_chain c l) = names_of_chain l) by apply norm_chain_names.
+  assert (Hhead2 : m_disks m2 (Head n) = Some (frev c d0)).
+  { rewrite Hdisks2. subst l. rewrite Hchain. rewrite norm_chain_cons. cbn [find_mb set_mdisk mb_name mb_disk]. rewrite dname_eqb_refl. reflexivity. }
+  (* Chain() on that memory *)
+  assert (Hmchain : mchain g m2 = Some (names_of_chain l)).
+  { unfold mchain. rewrite K1. subst m1. cbn [m_info set_info]. fold i. rewrite Hvh.
+    replace (Some (Head n)) with (first_name l) by (subst l; rewrite Hchain; reflexivity).
+    apply chain_from_spec; [| unfold chain_fuel; lia].
+    intros l1 a t Heq. exists (frev c (mb_disk a)). split.
+    - rewrite Hdisks2. rewrite (find_mb_in _ (set_mdisk a (frev c (mb_disk a)))).
+      + reflexivity.
+      + rewrite Hnames_n. exact Hnd.
+      + unfold norm_chain. rewrite Heq, map_app. apply in_or_app. right. left. reflexivity.
+    - rewrite frev_parent. apply (linked_parents _ _ Hlink l1 a t Heq). }
+  assert (Himgs : forall y, In y (rev (names_of_chain l)) -> files w2 (Img y) <> None).
+  { intros y Hy. apply in_rev in Hy.
+    assert (Hex : exists id gn, files w (Img y) = Some (IImg id gn)).
+    { clear -Hlink Hy. induction l as [| a t IH]; [contradiction |]. cbn [linked] in Hlink. destruct Hlink as [_ [[gn Hi] [_ Ht]]].
+      cbn in Hy. destruct Hy as [E | Hy]; [subst; eauto | auto]. }
+    destruct Hex as [id [gn Hi]]. rewrite Hoo2; [rewrite Hi; discriminate |].
+    intros [z [_ [E | E]]]; discriminate. }
+  destruct (open_all_spec (rev (names_of_chain l)) w2 Himgs) as [Hffo Hsto].
+  set (m3 := set_active m2 (m_active m2 ++ rev (names_of_chain l))).
+  assert (Hffolc : ff (open_live_chain g m2) w2 = (w2, Done (m3, Ok)) /\ Forall (eq w2) (states (open_live_chain g m2) w2)).
+  { unfold open_live_chain. rewrite Hmchain.
+    assert (Hle : Nat.ltb (maxlen g) (length (names_of_chain l)) = false).
+    { apply Nat.ltb_ge. unfold names_of_chain. rewrite map_length. exact Hlen. }
+    rewrite Hle. split.
+    - rewrite ff_bind, Hffo. reflexivity.
+    - apply Forall_states_bind; [exact Hsto |]. intros a Ha. rewrite Hffo in *. cbn [fst snd] in *. inversion Ha; subst a.
+      apply Forall_states_ret. reflexivity. }
+  destruct Hffolc as [Hffolc Hstolc].
+  (* recovery of the intermediate and final directories *)
+  assert (Hvol2 : files w2 Vol = Some (IVol i)) by (rewrite Hoo2; [exact Hvol | intros [z [_ [E | E]]]; discriminate]).
+  assert (Hc2 : files w2 Counter = Some (ICounter c)) by (rewrite Hoo2; [exact Hc | intros [z [_ [E | E]]]; discriminate]).
+  assert (Hrec_of : forall x' l', files x' Vol = Some (IVol i) -> files x' Counter = Some (ICounter c) ->
+             linked (files x') l' -> Forall2 member_sim l l' -> recover g x' = Some (mkview i l') /\ veq v (mkview i l')).
+  { intros x' l' H1 H2 H3 H4. split.
+    - apply recover_intro with (h := Head n) (c := c); [exact H1 | exact Hvh | | exact H2].
+      pose proof (linked_walk (files x') l' (maxlen g) H3) as Hwk.
+      assert (Hl'ne : l' <> []) by (intro E; subst l'; inversion H4 as [E0 |]; subst l; rewrite Hchain in E0; discriminate).
+      assert (Hfirst : match l' with mb :: _ => mb_name mb | [] => Head 0 end = Head n).
+      { subst l. rewrite Hchain in H4. inversion H4 as [| ? y ? ? [Hn _] _]; subst. cbn. rewrite <- Hn. reflexivity. }
+      rewrite Hfirst in Hwk. apply Hwk; [exact Hl'ne |].
+      rewrite <- (Forall2_len _ _ _ _ _ H4). exact Hlen.
+    - split; [apply info_sim_refl | exact H4]. }
+  destruct (Hrec_of w2 (norm_chain c l) Hvol2 Hc2 Hl2 (norm_chain_sim c l)) as [Hrec2 Hveq2].
+  set (vF := mkview iF (norm_chain c l)).
+  assert (HrecF : recover g wF = Some vF).
+  { subst wF vF. apply (recover_vol_rewrite g w2 (mkview i (norm_chain c l)) iF Hrec2). reflexivity. }
+  assert (HveqF : veq v vF).
+  { eapply veq_trans; [exact Hveq2 |]. split; [subst iF; repeat split | apply Forall2_refl; apply member_sim_refl]. }
+  set (mF := set_info m3 i).
+  exists mF, c. split; [exact Hc |]. cbn zeta. fold i l iF vF.
+  (* the run *)
+  assert (Hffrm : ff (read_metadata g (mkmem (empty_info size) no_disks no_children [] INIT c)) w = (w2, Done (m2, true, Ok))).
+  { unfold read_metadata. cbn [ff apply_call m_children]. rewrite Hvol. cbn [negb ff apply_call]. rewrite Hvol.
+    fold i. rewrite Hvh.
+    change (fun n0 : name => match files w n0 with Some _ => true | None => false end) with pres.
+    fold m1. rewrite ff_bind, Hff2. cbn [is_ok res_eqb negb ff]. rewrite Hhead2. reflexivity. }
+  assert (Hi3 : m_info m3 = i) by (subst m3; cbn [m_info set_active]; rewrite K1; reflexivity).
+  assert (Hpar_eq : set_iparent i (d_parent (frev c d0)) = i).
+  { rewrite frev_parent, <- Hpar. apply set_iparent_same. }
+  assert (Hffc : ff (construct g size now) w = (wF, Done (Some mF, Ok))).
+  { unfold construct. cbn [ff apply_call]. rewrite ff_bind. destruct (init_rev_spec w c Hc) as [Hir _]. rewrite Hir.
+    rewrite ff_bind, Hffrm. cbn [is_ok res_eqb negb]. rewrite ff_bind, Hffolc. cbn [is_ok res_eqb negb].
+    rewrite Hi3, Hvh. assert (Hd3 : m_disks m3 (Head n) = Some (frev c d0)) by exact Hhead2. rewrite Hd3.
+    rewrite Hpar_eq. cbn [m_info set_info]. fold iF.
+    rewrite ff_bind, ff_encode by (cbn; auto; left; reflexivity). fold wF. reflexivity. }
+  split; [exact Hffc |].
+  split.
+  { (* the context of the final state *)
+    constructor.
+    - exact HrecF.
+    - exists n, id0, (frev c d0), (norm_chain c tl0). subst vF. cbn [cv_chain cv_info].
+      split; [subst l; rewrite Hchain; reflexivity |]. split; [exact Hvh |]. split; [| split; [| split]].
+      + unfold norm_chain. apply Forall_forall. intros mb Hmb. apply in_map_iff in Hmb. destruct Hmb as [mb0 [E Hin]].
+        subst mb. cbn [set_mdisk mb_name]. eapply Forall_forall in Hsnaps; [exact Hsnaps | exact Hin].
+      + rewrite Hnames_n. exact Hnd.
+      + rewrite norm_chain_ids. exact Hndi.
+      + subst iF. cbn [i_parent set_dirty_rebuilding]. rewrite frev_parent. exact Hpar.
+    - (* agreement *)
+      unfold agree. subst vF mF. cbn [cv_info cv_chain m_info m_disks m_children m_active set_info].
+      split; [subst iF; repeat split |]. split; [| split; [| split]].
+      + intros d. subst m3. cbn [m_disks set_active]. apply Hdisks2.
+      + intros y Hy. rewrite Hnames_n in Hy. subst m3. cbn [m_children set_active].
+        rewrite child_in_names, Hnames_n.
+        destruct l as [| a t] eqn:El; [contradiction |].
+        cbn [names_of_chain map] in Hy. destruct Hy as [Hy | Hy].
+        * (* the head has no child *)
+          subst y. rewrite K7.
+          -- subst m1. cbn [m_children set_info set_children]. symmetry.
+             rewrite <- child_in_names. apply child_in_notin. cbn [List.tl]. cbn [names_of_chain map] in Hnd. inversion Hnd; assumption.
+          -- intros y Ey Hin. inversion Ey; subst y. cbn [List.tl names_of_chain map] in Hnd, Hin. inversion Hnd; contradiction.
+        * apply K6. exact Hy.
+      + intros _ y Hy. rewrite Hnames_n in Hy. subst m3. cbn [m_children set_active]. rewrite K7; [reflexivity |].
+        intros z Ez Hz. inversion Ez; subst z. apply Hy. destruct l; [contradiction | right; exact Hz].
+      + subst m3. cbn [m_active set_active]. rewrite K2. subst m1. cbn [m_active set_info set_children set_disks app].
+        rewrite Hnames_n. reflexivity.
+    - pose proof (ff_fresh _ (construct g size now) w Hfr) as Hq. rewrite Hffc in Hq. exact Hq.
+    - intros k. subst mF m3. cbn [m_children set_info set_active]. rewrite K7; [reflexivity |].
+      intros y Ey Hy. inversion Ey; subst y. subst l. rewrite Hchain in Hy. cbn [List.tl] in Hy. exact (snap_not_head tl0 k Hsnaps Hy). }
+  split; [subst mF m3; cbn [m_mode set_info set_active]; rewrite K3; reflexivity |].
+  split; [reflexivity |].
+  split; [| exact HveqF].
+  (* every directory on the way recovers to a view equivalent to v *)
+  assert (HgoodF : forall x' l', files x' Vol = Some (IVol i) -> files x' Counter = Some (ICounter c) ->
+             linked (files x') l' -> Forall2 member_sim l l' -> Good g v vF x').
+  { intros x' l' H1 H2 H3 H4. destruct (Hrec_of x' l' H1 H2 H3 H4) as [R1 R2]. exists (mkview i l'). split; [exact R1 | left; apply veq_sym; exact R2]. }
+  assert (Hgood_w : Good g v vF w) by (apply Good_pre; exact Hrec).
+  assert (Hgood_w2 : Good g v vF w2) by (eapply Good_veq_post; [exact Hrec2 |]; eapply veq_trans; [apply veq_sym; exact Hveq2 | exact HveqF]).
+  unfold construct. rewrite states_Do. cbn [apply_call]. constructor; [exact Hgood_w |].
+  apply Forall_states_bind.
+  { destruct (init_rev_spec w c Hc) as [_ Hs]. eapply Forall_impl; [| exact Hs]. intros x' E. subst x'. exact Hgood_w. }
+  intros oc Hoc. destruct (init_rev_spec w c Hc) as [Hir _]. rewrite Hir in *. cbn [fst snd] in *. inversion Hoc; subst oc.
+  apply Forall_states_bind.
+  { unfold read_metadata. rewrite states_Do. cbn [apply_call m_children]. constructor; [exact Hgood_w |].
+    rewrite Hvol. cbn [negb]. rewrite states_Do. cbn [apply_call]. rewrite Hvol. constructor; [exact Hgood_w |].
+    fold i. rewrite Hvh.
+    change (fun n0 : name => match files w n0 with Some _ => true | None => false end) with pres.
+    fold m1. apply Forall_states_bind.
+    - eapply Forall_impl; [| exact Hst2]. intros x' [Hx1 [l' [Hx2 Hx3]]]. apply (HgoodF x' l'); try assumption.
+      + rewrite Hx1; [exact Hvol | intros [z [_ [E | E]]]; discriminate].
+      + rewrite Hx1; [exact Hc | intros [z [_ [E | E]]]; discriminate].
+    - intros a Ha. rewrite Hff2 in *. cbn [fst snd] in *. inversion Ha; subst a. cbn [is_ok res_eqb negb].
+      apply Forall_states_ret. exact Hgood_w2. }
+  intros a Ha. rewrite Hffrm in *. cbn [fst snd] in *. inversion Ha; subst a. cbn [is_ok res_eqb negb].
+  apply Forall_states_bind.
+  { eapply Forall_impl; [| exact Hstolc]. intros x' E. subst x'. exact Hgood_w2. }
+  intros a2 Ha2. rewrite Hffolc in *. cbn [fst snd] in *. inversion Ha2; subst a2. cbn [is_ok res_eqb negb].
+  rewrite Hi3, Hvh. assert (Hd3 : m_disks m3 (Head n) = Some (frev c d0)) by exact Hhead2. rewrite Hd3.
+  rewrite Hpar_eq. cbn [m_info set_info]. fold iF.
+  apply Forall_states_bind.
+  - eapply Forall_impl; [| apply (vol_rewrite_states g w2 (mkview i (norm_chain c l)) iF Hrec2); reflexivity].
+    intros x' [Hxx | Hxx].
+    + eapply Good_veq_post; [exact Hxx |]. eapply veq_trans; [apply veq_sym; exact Hveq2 | exact HveqF].
+    + apply Good_post. exact Hxx.
+  - intros e He. rewrite ff_encode in * by (cbn; auto; left; reflexivity). cbn [fst snd] in *. inversion He; subst e.
+    cbn [is_ok res_eqb]. apply Forall_states_ret. apply Good_post. exact HrecF.
+Qed.
+
+(** ** Revert *)
+
+Lemma split_suffix : forall d (l : list member), In d (names_of_chain l) ->
+  exists pre suf, l = pre ++ suf /\ first_name suf = Some d.
+Proof.
+  intros d l. induction l as [| a t IH]; intros Hin; [contradiction |].
+  destruct (dname_dec (mb_name a) d) as [E | E].
+  - exists [], (a :: t). split; [reflexivity | cbn; rewrite E; reflexivity].
+  - cbn in Hin. destruct Hin as [H | Hin]; [contradiction |].
+    destruct (IH Hin) as [pre [suf [Heq Hf]]]. exists (a :: pre), suf. split; [rewrite Heq; reflexivity | exact Hf].
+Qed.
+
+Lemma linked_suffix : forall f pre suf, linked f (pre ++ suf) -> linked f suf.
+Proof. intros f pre. induction pre as [| a t IH]; intros suf H; [exact H |]. apply IH. cbn [app linked] in H. tauto. Qed.
+
+Lemma nodup_map_suffix : forall A B (h : A -> B) (pre suf : list A), NoDup (map h (pre ++ suf)) -> NoDup (map h suf).
+Proof. intros A B h pre. induction pre as [| a t IH]; intros suf H; [exact H |]. cbn in H. inversion H; subst. auto. Qed.
+
+Theorem revert_disk_spec : forall g w v m parent cr,
+  ctx g w v m -> cfg_ok g ->
+  (fix_rev g = true
+   \/ (In parent (names_of_chain (cv_chain v)) /\ Some parent <> i_head (cv_info v))
+   \/ files w (Img parent) = None) ->
+  ospec g w v m (revert_disk g m parent cr).
+Proof.
+  intros g w v m parent cr Hctx Hcfg Harg.
+  destruct (ctx_shape g w v m Hctx) as [n [id0 [d0 [tl0 [c [Hchain [Hvh [Hmh [Hsnaps [Hnd [Hndi [Hvol [Hcnt [Hlink [Hlen [Hd0 Hpar]]]]]]]]]]]]]]]].
+  pose proof (cx_rec _ _ _ _ Hctx) as Hrec. pose proof (cx_ag _ _ _ _ Hctx) as Hag. pose proof (cx_fresh _ _ _ _ Hctx) as Hfr.
+  pose proof Hag as [Hinfo [Hdisks [Hchild [Hfixch Hact]]]].
+  unfold revert_disk.
+  (* the repaired code's argument check *)
+  destruct (fix_rev g && (match m_disks m parent with Some _ => false | None => true end
+                          || odname_eqb (Some parent) (i_head (m_info m)))) eqn:Efx.
+  { eapply ospec_refuse; [exact Hctx | | reflexivity]. discriminate. }
+  (* stat of the target *)
+  assert (Hstat : forall (k : reply -> prog (mem * res)),
+            ospec g w v m (k (snd (apply_call w (CStat (Img parent))))) -> ospec g w v m (Do (CStat (Img parent)) k)).
+  { intros k [w' [m' [r [vp [Hff [Hc' [Hst Hr]]]]]]]. exists w', m', r, vp.
+    assert (Hw : fst (apply_call w (CStat (Img parent))) = w).
+    { cbn. destruct (files w (Img parent)) as [[] |]; reflexivity. }
+    split; [cbn [ff]; rewrite (surjective_pairing (apply_call w (CStat (Img parent)))), Hw; exact Hff |].
+    split; [exact Hc' |]. split; [| exact Hr].
+    rewrite states_Do. rewrite (surjective_pairing (apply_call w (CStat (Img parent)))), Hw.
+    constructor; [apply Good_pre; exact Hrec | exact Hst]. }
+  apply Hstat. clear Hstat.
+  destruct (files w (Img parent)) as [ci |] eqn:Hip.
+  2:{ cbn [apply_call]. rewrite Hip. cbn [snd is_err]. eapply ospec_refuse; [exact Hctx | | reflexivity]. discriminate. }
+  assert (Hin : In parent (names_of_chain (cv_chain v)) /\ parent <> Head n).
+  { destruct Harg as [Hfx | [[H1 H2] | H3]]; [| split; [exact H1 | intro E; apply H2; rewrite Hvh, E; reflexivity] | congruence].
+    rewrite Hfx in Efx. cbn [andb] in Efx. apply Bool.orb_false_iff in Efx. destruct Efx as [E1 E2].
+    split.
+    - rewrite Hdisks in E1. destruct (find_mb parent (cv_chain v)) as [mb |] eqn:Hf; [| discriminate].
+      destruct (find_mb_some_in _ _ _ Hf) as [Hi Hn]. rewrite <- Hn. apply in_map. exact Hi.
+    - intro E. subst parent. rewrite Hmh, odname_eqb_refl in E2. discriminate. }
+  destruct Hin as [Hin Hnothead].
+  assert (Hin_tl : In parent (names_of_chain tl0)).
+  { rewrite Hchain in Hin. cbn in Hin. destruct Hin as [E | H]; [congruence | exact H]. }
+  assert (Hstat_ok : is_err (snd (apply_call w (CStat (Img parent)))) = false).
+  { cbn [apply_call]. rewrite Hip. destruct ci; reflexivity. }
+  rewrite Hstat_ok. rewrite Hmh.
+  (* createNewHead *)
+  set (nh := Head (S n)).
+  assert (Hnh : ~ In nh (names_of_chain (cv_chain v))).
+  { rewrite Hchain. cbn. intros [H | H]; [inversion H; lia | exact (snap_not_head tl0 (S n) Hsnaps H)]. }
+  set (S1 := fun x => In x [Img nh; Meta nh; MetaTmp nh]).
+  assert (Hdis1 : forall x, S1 x -> ~ footprint (cv_chain v) x).
+  { intros x Hx Hf. subst S1. cbn in Hx. destruct Hx as [Hx | [Hx | [Hx | []]]]; subst x.
+    - apply footprint_img in Hf. exact (Hnh Hf).
+    - apply footprint_meta in Hf. exact (Hnh Hf).
+    - exact (footprint_tmp _ _ Hf). }
+  assert (Hcnh_within : within S1 (create_new_head g m (Some (Head n)) (Some parent) cr)).
+  { apply withinQ_within with (Q := cnh_post nh). apply wq_create_new_head; subst S1; cbn; auto. }
+  destruct (cnh_ff g m n (Some parent) cr w c Hcnt) as [Hff1 | [w1 [Hff1 [K1 [K2 [K3 [K4 K5]]]]]]].
+  { (* a stale head file with data: error *)
+    exists w, m, Failed, v. split; [| split; [| split]].
+    - rewrite ff_bind, Hff1. reflexivity.
+    - exact Hctx.
+    - apply Forall_states_bind; [eapply within_good; [exact Hcnh_within | exact Hrec | exact Hdis1] |].
+      intros a Ha. rewrite Hff1 in *. cbn [fst snd] in *. inversion Ha; subst a. cbn [is_ok res_eqb negb]. apply states_ret_good. exact Hrec.
+    - auto. }
+  fold nh in Hff1, K1, K2, K3, K4.
+  set (nd := mkdisk (Some parent) false false cr c) in *.
+  assert (Hoo1 : only_on S1 w w1).
+  { intros x Hx. apply K4; intro; subst x; apply Hx; subst S1; cbn; auto. }
+  assert (Hrec1 : recover g w1 = Some v) by (eapply recover_only_on; eauto).
+  (* the commit: volume.meta names the new head *)
+  set (info' := mkinfo (i_size (m_info m)) (Some nh) true (i_rebuilding (m_info m)) (d_parent nd) (i_checkpoint (m_info m)) (i_rev (m_info m))).
+  set (w2 := enc_fs w1 Vol (IVol info')).
+  destruct (split_suffix parent tl0 Hin_tl) as [pre [suf [Htl Hsuf]]].
+  set (chain2 := mkmember nh (nextid w) nd :: suf).
+  assert (Hlink_suf : linked (files w) suf).
+  { rewrite Hchain, Htl in Hlink. apply (linked_suffix (files w) (mkmember (Head n) id0 d0 :: pre) suf). exact Hlink. }
+  assert (Hsuf_names : forall y, In y (names_of_chain suf) -> In y (names_of_chain tl0)).
+  { intros y Hy. rewrite Htl. unfold names_of_chain. rewrite map_app. apply in_or_app. right. exact Hy. }
+  assert (Hlink2 : linked (files w2) chain2).
+  { subst chain2. cbn [linked mb_name mb_disk mb_id]. subst w2. rewrite !enc_fs_other by (cbn; discriminate).
+    split; [exact K2 |]. split; [eauto |]. split; [subst nd; cbn [d_parent]; symmetry; exact Hsuf |].
+    eapply linked_frame; [exact Hlink_suf |]. intros y Hy.
+    assert (Hy_tl := Hsuf_names y Hy).
+    assert (y <> nh) by (intro; subst y; exact (snap_not_head tl0 (S n) Hsnaps Hy_tl)).
+    split; (rewrite enc_fs_other by (cbn; discriminate)); apply K4; congruence. }
+  assert (Hlen2 : length chain2 <= maxlen g).
+  { subst chain2. cbn [length]. rewrite Hchain, Htl in Hlen. cbn [length] in Hlen. rewrite app_length in Hlen. lia. }
+  set (v2 := mkview info' chain2).
+  assert (Hc1 : files w1 Counter = Some (ICounter c)) by (rewrite K4 by discriminate; exact Hcnt).
+  assert (Hrec2 : recover g w2 = Some v2).
+  { subst v2. apply recover_intro with (h := nh) (c := c).
+    - subst w2. apply enc_fs_self. left. reflexivity.
+    - reflexivity.
+    - apply (linked_walk (files w2) chain2 (maxlen g) Hlink2); [subst chain2; discriminate | exact Hlen2].
+    - subst w2. rewrite enc_fs_other; [exact Hc1 | discriminate | cbn; discriminate]. }
+  assert (Hwf2 : wf_view v2).
+  { exists (S n), (nextid w), nd, suf. subst v2 chain2. cbn [cv_chain cv_info].
+    split; [reflexivity |]. split; [reflexivity |]. split; [| split; [| split]].
+    - apply Forall_forall. intros mb Hmb. eapply Forall_forall in Hsnaps; [exact Hsnaps |]. rewrite Htl. apply in_or_app. right. exact Hmb.
+    - cbn [names_of_chain map mb_name]. constructor.
+      + intro H. apply (snap_not_head tl0 (S n) Hsnaps). apply Hsuf_names. exact H.
+      + rewrite Hchain, Htl in Hnd. cbn [names_of_chain map] in Hnd. inversion Hnd as [| ? ? _ Hnd1]; subst.
+        apply (nodup_map_suffix _ _ mb_name pre suf Hnd1).
+    - cbn [map mb_id]. constructor.
+      + intro H. apply in_map_iff in H. destruct H as [mb [E Hmb]].
+        assert (Hmbin : In mb (cv_chain v)) by (rewrite Hchain, Htl; right; apply in_or_app; right; exact Hmb).
+        pose proof (ids_lt_fresh g w v Hrec Hfr mb Hmbin). lia.
+      + rewrite Hchain, Htl in Hndi. cbn [map] in Hndi. inversion Hndi as [| ? ? _ Hndi1]; subst.
+        apply (nodup_map_suffix _ _ mb_id pre suf Hndi1).
+    - reflexivity. }
+  (* the old head is removed *)
+  assert (Hoh2 : ~ In (Head n) (names_of_chain (cv_chain v2))).
+  { subst v2 chain2. cbn [cv_chain names_of_chain map mb_name]. intros [E | H]; [inversion E; lia |].
+    apply (snap_not_head tl0 n Hsnaps). apply Hsuf_names. exact H. }
+  assert (Hdis2 : forall x, In x [Img (Head n); Meta (Head n)] -> ~ footprint (cv_chain v2) x).
+  { intros x Hx Hf. cbn in Hx. destruct Hx as [Hx | [Hx | []]]; subst x.
+    - apply footprint_img in Hf. exact (Hoh2 Hf).
+    - apply footprint_meta in Hf. exact (Hoh2 Hf). }
+  destruct (rm_disk_ff w2 (Head n)) as [w3 [Hff3 [H3a [H3b [H3c H3d]]]]].
+  assert (Hrm_within : within (fun x => In x [Img (Head n); Meta (Head n)]) (rm_disk (Some (Head n)))).
+  { apply withinQ_within with (Q := fun _ => True). apply wq_rm_disk; [| auto]. intros y Hy. inversion Hy; subst. cbn. auto. }
+  assert (Hrec3 : recover g w3 = Some v2).
+  { pose proof (within_ff _ _ _ w2 Hrm_within) as Hoo. rewrite Hff3 in Hoo. cbn [fst] in Hoo. eapply recover_only_on; eauto. }
+  assert (Hfr3 : ids_fresh w3).
+  { assert (Hfr1 : ids_fresh w1) by (pose proof (ff_fresh _ (create_new_head g m (Some (Head n)) (Some parent) cr) w Hfr) as H; rewrite Hff1 in H; exact H).
+    assert (Hfr2 : ids_fresh w2) by (pose proof (ff_fresh _ (encode_to_file g (IVol info') Vol) w1 Hfr1) as H; rewrite ff_encode in H by (cbn; auto; left; reflexivity); exact H).
+    pose proof (ff_fresh _ (rm_disk (Some (Head n))) w2 Hfr2) as H. rewrite Hff3 in H. exact H. }
+  (* Reload *)
+  destruct (construct_spec g w3 v2 (i_size (m_info m)) 0 Hrec3 Hwf2 Hfr3 Hcfg) as [wF [mF [c' [HcF HF]]]].
+  cbn zeta in HF. destruct HF as [HffF [HctxF [HmodeF [HinfoF [HstF HveqF]]]]].
+  set (iF := set_dirty_rebuilding (cv_info v2) true (i_rebuilding (cv_info v2))) in *.
+  set (vF := mkview iF (norm_chain c' (cv_chain v2))) in *.
+  set (mR := set_info (set_mode mF (m_mode m)) (set_dirty_rebuilding (m_info mF) (i_dirty (m_info m)) (i_rebuilding (m_info mF)))).
+  exists wF, mR, Ok, vF. split; [| split; [| split]].
+  - rewrite ff_bind, Hff1. cbn [is_ok res_eqb negb]. fold nd. fold info'.
+    rewrite ff_bind, ff_encode by (cbn; auto; left; reflexivity). fold w2. cbn [is_ok res_eqb negb].
+    rewrite ff_bind, Hff3. cbn [is_ok res_eqb negb]. rewrite ff_bind, HffF. cbn [is_ok res_eqb]. reflexivity.
+  - destruct HctxF as [R1 R2 R3 R4 R5]. constructor; assumption.
+  - apply Forall_states_bind; [eapply within_good; [exact Hcnh_within | exact Hrec | exact Hdis1] |].
+    intros a Ha. rewrite Hff1 in *. cbn [fst snd] in *. inversion Ha; subst a. cbn [is_ok res_eqb negb]. fold nd. fold info'.
+    apply Forall_states_bind.
+    + apply encode_states; [left; reflexivity | exact I | |].
+      * intros x Hx _. apply Good_pre. eapply recover_only_on; [exact Hrec1 | exact Hx |].
+        intros y Hy Hf. cbn in Hy. subst y. exact (footprint_voltmp _ Hf).
+      * fold w2. eapply Good_veq_post; [exact Hrec2 | exact HveqF].
+    + intros e He. rewrite ff_encode in * by (cbn; auto; left; reflexivity). cbn [fst snd] in *. inversion He; subst e.
+      cbn [is_ok res_eqb negb]. fold w2. apply Forall_states_bind.
+      * eapply Forall_impl; [| apply (within_states _ _ _ w2 Hrm_within)].
+        intros x Hx. eapply Good_veq_post; [| exact HveqF]. eapply recover_only_on; [exact Hrec2 | exact Hx | exact Hdis2].
+      * intros e3 He3. rewrite Hff3 in *. cbn [fst snd] in *. inversion He3; subst e3. cbn [is_ok res_eqb negb].
+        apply Forall_states_bind.
+        -- eapply Forall_impl; [| exact HstF]. intros x [vx [Hx1 Hx2]]. exists vx. split; [exact Hx1 |].
+           right. destruct Hx2 as [Hx2 | Hx2]; [eapply veq_trans; [exact Hx2 | exact HveqF] | exact Hx2].
+        -- intros a4 Ha4. rewrite HffF in *. cbn [fst snd] in *. inversion Ha4; subst a4. cbn [is_ok res_eqb].
+           apply Forall_states_ret. apply Good_post. apply HctxF.
+  - intros H. congruence.
+Qed.
+
+(** ** the remaining operations on an open replica *)
+
+Lemma op_spec_ospec : forall g w v m p, ctx g w v m -> op_spec g w v m p -> ospec g w v m p.
+Proof.
+  intros g w v m p Hctx [w' [m' [r [vp [Hff [Hrec [Hwf [Hag [Hst [Hr Hch]]]]]]]]]].
+  exists w', m', r, vp. split; [exact Hff |]. split; [| split; [exact Hst | exact Hr]].
+  constructor; try assumption.
+  - pose proof (ff_fresh _ p w (cx_fresh _ _ _ _ Hctx)) as H. rewrite Hff in H. exact H.
+  - intros k. rewrite Hch. apply (cx_heads _ _ _ _ Hctx).
+Qed.
+
+Lemma truncate_all_spec : forall l sz w,
+  exists b, ff (truncate_all l sz) w = (w, Done b) /\ Forall (eq w) (states (truncate_all l sz) w).
+Proof.
+  induction l as [| y t IH]; intros sz w.
+  - exists true. cbn. split; [reflexivity | repeat constructor].
+  - cbn [truncate_all ff states apply_call]. destruct (files w (Img y)) as [ci |].
+    + cbn [is_err]. destruct (IH sz w) as [b [H1 H2]]. exists b. split; [exact H1 | constructor; [reflexivity | exact H2]].
+    + cbn [is_err ff states]. exists false. split; [reflexivity | repeat constructor].
+Qed.
+
+Lemma mchain_of_ctx : forall g w v m, ctx g w v m -> mchain g m = Some (names_of_chain (cv_chain v)).
+Proof.
+  intros g w v m Hctx.
+  destruct (ctx_shape g w v m Hctx) as [n [id0 [d0 [tl0 [c [Hchain [Hvh [Hmh [Hsnaps [Hnd [Hndi [Hvol [Hcnt [Hlink [Hlen [Hd0 Hpar]]]]]]]]]]]]]]]].
+  destruct (cx_ag _ _ _ _ Hctx) as [_ [Hdisks _]].
+  unfold mchain. rewrite Hmh. replace (Some (Head n)) with (first_name (cv_chain v)) by (rewrite Hchain; reflexivity).
+  apply chain_from_spec; [| unfold chain_fuel; lia].
+  intros l1 a t Heq. exists (mb_disk a). split.
+  - rewrite Hdisks. rewrite (find_mb_in _ a); [reflexivity | exact Hnd | rewrite Heq; apply in_or_app; right; left; reflexivity].
+  - apply (linked_parents _ _ Hlink l1 a t Heq).
+Qed.
+
+Theorem resize_spec : forall g w v m sz, ctx g w v m -> ospec g w v m (resize g m sz).
+Proof.
+  intros g w v m sz Hctx. pose proof (cx_rec _ _ _ _ Hctx) as Hrec. pose proof (cx_ag _ _ _ _ Hctx) as Hag.
+  destruct (agree_head g v m Hag) as [Hh Hp].
+  unfold resize. rewrite (mchain_of_ctx g w v m Hctx).
+  destruct (N.ltb sz (i_size (m_info m))); [eapply ospec_refuse; [exact Hctx | | reflexivity]; discriminate |].
+  destruct (truncate_all_spec (names_of_chain (cv_chain v)) sz w) as [b [Hfft Hstt]].
+  destruct b.
+  - (* all chain files truncated (no change of the directory): volume.meta gets the new size *)
+    set (i' := set_size (m_info m) sz).
+    assert (Hh' : i_head i' = i_head (cv_info v)) by (subst i'; cbn; exact Hh).
+    destruct (vol_only_op g w v i' _ (fun e => Ret (set_info m i', e)) Hrec Hh') as [HF [Hfin [a [Ha Hout]]]];
+      [intros e; eexists; reflexivity |].
+    inversion Ha; subst a. clear Ha.
+    apply op_spec_ospec; [exact Hctx |].
+    exists (enc_fs w Vol (IVol i')), (set_info m i'), Ok, (mkview i' (cv_chain v)).
+    split; [| split; [| split; [| split; [| split]]]].
+    + rewrite ff_bind, Hfft. cbn [negb m_info set_info]. fold i'.
+      rewrite (surjective_pairing (ff _ w)). rewrite Hfin, Hout. reflexivity.
+    + apply recover_vol_rewrite; assumption.
+    + apply wf_view_info; [apply Hctx | assumption | subst i'; cbn; exact Hp].
+    + apply agree_info. assumption.
+    + apply Forall_states_bind.
+      * eapply Forall_impl; [| exact Hstt]. intros x E. subst x. apply Good_pre. exact Hrec.
+      * intros a Ha. rewrite Hfft in *. cbn [fst snd] in *. inversion Ha; subst a. cbn [negb m_info set_info]. fold i'. exact HF.
+    + split; [intros Hne; congruence | reflexivity].
+  - (* a chain file is missing (cannot happen here, but the code has the exit) *)
+    exists w, m, Failed, v. split; [| split; [| split]].
+    + rewrite ff_bind, Hfft. reflexivity.
+    + exact Hctx.
+    + apply Forall_states_bind.
+      * eapply Forall_impl; [| exact Hstt]. intros x E. subst x. apply Good_pre. exact Hrec.
+      * intros a Ha. rewrite Hfft in *. cbn [fst snd] in *. inversion Ha; subst a. cbn [negb]. apply states_ret_good. exact Hrec.
+    + auto.
+Qed.
+
+(** a data write changes the head image's write count and the revision counter: recovery does
+    not look at either *)
+Lemma walk_frame_id : forall f f' fuel d l,
+  walk f fuel d = Some l ->
+  (forall x, In x (names_of_chain l) -> f' (Meta x) = f (Meta x)
+             /\ (f' (Img x) = f (Img x) \/ exists id g1 g2, f (Img x) = Some (IImg id g1) /\ f' (Img x) = Some (IImg id g2))) ->
+  walk f' fuel d = Some l.
+Proof.
+  induction fuel as [| fuel IH]; intros d l Hw Hsame; [discriminate |].
+  rewrite walk_unfold in *.
+  destruct (f (Meta d)) as [[| dk | | |] |] eqn:Hm; try discriminate.
+  destruct (f (Img d)) as [[| | id gn | |] |] eqn:Hi; try discriminate.
+  assert (Hdin : forall l', l = mkmember d id dk :: l' -> f' (Meta d) = Some (IDisk dk) /\ exists g2, f' (Img d) = Some (IImg id g2)).
+  { intros l' El. destruct (Hsame d) as [H1 H2]; [rewrite El; left; reflexivity |]. split; [rewrite H1; exact Hm |].
+    destruct H2 as [H2 | [id' [g1 [g2 [H2 H3]]]]]; [rewrite H2, Hi; eauto | rewrite Hi in H2; inversion H2; subst; eauto]. }
+  destruct (d_parent dk) as [p |] eqn:Hp.
+  - destruct (walk f fuel p) as [l' |] eqn:Hw'; [| discriminate].
+    inversion Hw; subst l. destruct (Hdin l' eq_refl) as [K1 [g2 K2]]. rewrite K1, K2, Hp.
+    rewrite (IH p l' Hw'); [reflexivity |]. intros x Hx. apply Hsame. right. exact Hx.
+  - inversion Hw; subst l. destruct (Hdin [] eq_refl) as [K1 [g2 K2]]. rewrite K1, K2, Hp. reflexivity.
+Qed.
+
+Theorem write_at_spec : forall g w v m, ctx g w v m -> ospec g w v m (write_at m).
+Proof.
+  intros g w v m Hctx.
+  destruct (ctx_shape g w v m Hctx) as [n [id0 [d0 [tl0 [c [Hchain [Hvh [Hmh [Hsnaps [Hnd [Hndi [Hvol [Hcnt [Hlink [Hlen [Hd0 Hpar]]]]]]]]]]]]]]]].
+  pose proof (cx_rec _ _ _ _ Hctx) as Hrec.
+  destruct (recover_elim g w v Hrec) as [_ [h [c0 [Hhd [Hw _]]]]]. rewrite Hvh in Hhd. inversion Hhd; subst h.
+  destruct (m_mode m) eqn:Hmode.
+  1: { unfold write_at. rewrite Hmode. eapply ospec_refuse; [exact Hctx | | reflexivity]. discriminate. }
+  3: { unfold write_at. rewrite Hmode. eapply ospec_refuse; [exact Hctx | | reflexivity]. discriminate. }
+  all: unfold write_at; rewrite Hmode; cbn [m_info set_info i_head set_dirty_rebuilding]; rewrite Hmh.
+  all: rewrite Hchain in Hlink; cbn [linked mb_name mb_id] in Hlink; destruct Hlink as [Hmh0 [[gn Hih] _]].
+  all: set (m1 := set_info m (set_dirty_rebuilding (m_info m) true (i_rebuilding (m_info m)))).
+  all: set (w1 := set_file w (Img (Head n)) (Some (IImg id0 (N.succ gn)))).
+  all: assert (Hrec_of : forall x', files x' Vol = files w Vol -> (exists cx, files x' Counter = Some (ICounter cx)) ->
+             (forall y, files x' (Meta y) = files w (Meta y)) ->
+             (forall y, y <> Head n -> files x' (Img y) = files w (Img y)) ->
+             (files x' (Img (Head n)) = files w (Img (Head n)) \/ exists g2, files x' (Img (Head n)) = Some (IImg id0 g2)) ->
+             recover g x' = Some v).
+  all: try (intros x' H1 [cx H2] H3 H4 H5; replace v with (mkview (cv_info v) (cv_chain v)) by (destruct v; reflexivity);
+            apply recover_intro with (h := Head n) (c := cx); [rewrite H1; exact Hvol | exact Hvh | | exact H2];
+            eapply walk_frame_id; [exact Hw |]; intros y Hy; split; [apply H3 |];
+            destruct (dname_dec y (Head n)) as [E | E]; [subst y; destruct H5 as [H5 | [g2 H5]]; [left; exact H5 | right; exists id0, gn, g2; auto] | left; apply H4; exact E]).
+  all: assert (Hag1 : agree g v m1) by (subst m1; destruct (cx_ag _ _ _ _ Hctx) as [A1 [A2 [A3 [A4 A5]]]]; unfold agree; cbn [m_info m_disks m_children m_active set_info]; repeat split; try assumption; apply A1).
+  - (* RW: the data write, then the revision counter *)
+    set (w2 := set_file w1 Counter (Some (ICounter (m_cache m1 + 1)))).
+    assert (Hr1 : recover g w1 = Some v).
+    { apply Hrec_of; subst w1.
+      - rewrite set_file_neq by discriminate. reflexivity.
+      - exists c. rewrite set_file_neq by discriminate. exact Hcnt.
+      - intros y. rewrite set_file_neq by discriminate. reflexivity.
+      - intros y Hy. rewrite set_file_neq by congruence. reflexivity.
+      - right. eexists. apply set_file_eq. }
+    assert (Hr2 : recover g w2 = Some v).
+    { apply Hrec_of; subst w2 w1.
+      - rewrite !set_file_neq by discriminate. reflexivity.
+      - eexists. apply set_file_eq.
+      - intros y. rewrite !set_file_neq by discriminate. reflexivity.
+      - intros y Hy. rewrite set_file_neq by discriminate. rewrite set_file_neq by congruence. reflexivity.
+      - right. eexists. rewrite set_file_neq by discriminate. apply set_file_eq. }
+    exists w2, (set_cache m1 (m_cache m1 + 1)%Z), Ok, v. split; [| split; [| split]].
+    + cbn [ff apply_call]. rewrite Hih. cbn [is_err ff apply_call]. fold w1.
+      change (m_mode m1) with (m_mode m). rewrite Hmode. cbn [ff apply_call].
+      replace (files w1 Counter) with (Some (ICounter c)) by (subst w1; rewrite set_file_neq by discriminate; symmetry; exact Hcnt).
+      cbn [is_err ff]. reflexivity.
+    + constructor; [exact Hr2 | apply Hctx | exact Hag1 | | apply Hctx].
+      subst w2. apply ids_fresh_set; [| intros id' gn' E; discriminate].
+      subst w1. apply ids_fresh_set; [apply Hctx |]. intros id' gn' E. inversion E; subst. eauto.
+    + cbn [states apply_call]. rewrite Hih. cbn [is_err states apply_call]. fold w1.
+      change (m_mode m1) with (m_mode m). rewrite Hmode. cbn [states apply_call].
+      replace (files w1 Counter) with (Some (ICounter c)) by (subst w1; rewrite set_file_neq by discriminate; symmetry; exact Hcnt).
+      cbn [is_err states]. repeat constructor; apply Good_pre; assumption.
+    + intros H. congruence.
+  - (* WO: the data write only *)
+    assert (Hr1 : recover g w1 = Some v).
+    { apply Hrec_of; subst w1.
+      - rewrite set_file_neq by discriminate. reflexivity.
+      - exists c. rewrite set_file_neq by discriminate. exact Hcnt.
+      - intros y. rewrite set_file_neq by discriminate. reflexivity.
+      - intros y Hy. rewrite set_file_neq by congruence. reflexivity.
+      - right. eexists. apply set_file_eq. }
+    exists w1, m1, Ok, v. split; [| split; [| split]].
+    + cbn [ff apply_call]. rewrite Hih. cbn [is_err ff]. change (m_mode m1) with (m_mode m). rewrite Hmode. reflexivity.
+    + constructor; [exact Hr1 | apply Hctx | exact Hag1 | | apply Hctx].
+      subst w1. apply ids_fresh_set; [apply Hctx |]. intros id' gn' E. inversion E; subst. eauto.
+    + cbn [states apply_call]. rewrite Hih. cbn [is_err states]. change (m_mode m1) with (m_mode m). rewrite Hmode.
+      repeat constructor; apply Good_pre; assumption.
+    + intros H. congruence.
+Qed.
+
+(** ** PrepareRemoveDisk (mark as removed) *)
+
+Definition ospec3 (g : cfg) (w : fs) (v : chainview) (m : mem) (p : prog (mem * res * nat)) : Prop :=
+  exists w' m' r k vpost,
+    ff p w = (w', Done (m', r, k))
+    /\ ctx g w' vpost m'
+    /\ Forall (Good g v vpost) (states p w)
+    /\ (r <> Ok -> vpost = v /\ m' = m).
+
+Lemma ospec3_refuse : forall g w v m p r k,
+  ctx g w v m -> p = Ret (m, r, k) -> ospec3 g w v m p.
+Proof.
+  intros g w v m p r k Hc Hp. subst p. exists w, m, r, k, v. split; [reflexivity |]. split; [exact Hc |].
+  split; [apply Forall_states_ret; apply Good_pre; apply Hc | auto].
+Qed.
+
+Lemma upd_member_agree : forall g v m d data',
+  agree g v m -> NoDup (names_of_chain (cv_chain v)) ->
+  In d (names_of_chain (cv_chain v)) ->
+  agree g (mkview (cv_info v) (upd_member d data' (cv_chain v))) (set_disks m (updd (m_disks m) d (Some data'))).
+Proof.
+  intros g v m d data' [A1 [A2 [A3 [A4 A5]]]] Hnd Hin. unfold agree.
+  cbn [cv_info cv_chain m_info m_disks m_children m_active set_disks].
+  split; [exact A1 |]. split; [| split; [| split]].
+  - intros x. rewrite find_mb_upd. unfold updd. destruct (dname_eqb d x) eqn:E.
+    + apply dname_eqb_eq in E. subst x. destruct (find_mb_some d (cv_chain v) Hin) as [mb Hmb]. rewrite Hmb. reflexivity.
+    + apply A2.
+  - intros x Hx. rewrite upd_member_names in Hx. rewrite child_in_names, upd_member_names, <- child_in_names. apply A3. exact Hx.
+  - intros Hfx x Hx. rewrite upd_member_names in Hx. apply A4; assumption.
+  - rewrite upd_member_names. exact A5.
+Qed.
+
+Theorem prepare_remove_disk_spec : forall g w v m arg,
+  ctx g w v m -> ospec3 g w v m (prepare_remove_disk g m arg).
+Proof.
+  intros g w v m arg Hctx.
+  destruct (ctx_shape g w v m Hctx) as [n [id0 [d0 [tl0 [c [Hchain [Hvh [Hmh [Hsnaps [Hnd [Hndi [Hvol [Hcnt [Hlink [Hlen [Hd0 Hpar]]]]]]]]]]]]]]]].
+  pose proof (cx_rec _ _ _ _ Hctx) as Hrec. pose proof (cx_ag _ _ _ _ Hctx) as Hag.
+  pose proof Hag as [Hinfo [Hdisks [Hchild [Hfixch Hact]]]].
+  unfold prepare_remove_disk.
+  destruct (negb (mode_eqb (m_mode m) RW)); [eapply ospec3_refuse; [exact Hctx | reflexivity] |].
+  set (found := match m_disks m arg with
+                | Some x => Some (arg, x)
+                | None => match gen_snap_name arg with
+                          | Some d2 => match m_disks m d2 with Some x => Some (d2, x) | None => None end
+                          | None => None end end).
+  assert (Hfound : forall d data, found = Some (d, data) -> m_disks m d = Some data).
+  { intros d data Hf. subst found. destruct (m_disks m arg) eqn:E1; [inversion Hf; subst; exact E1 |].
+    destruct (gen_snap_name arg) as [d2 |]; [| discriminate]. destruct (m_disks m d2) eqn:E2; [inversion Hf; subst; exact E2 | discriminate]. }
+  destruct found as [[d data] |] eqn:Ef; [| eapply ospec3_refuse; [exact Hctx | reflexivity]].
+  specialize (Hfound d data eq_refl).
+  destruct (odname_eqb (Some d) (i_head (m_info m))) eqn:Eh; [eapply ospec3_refuse; [exact Hctx | reflexivity] |].
+  destruct (odname_eqb (i_parent (m_info m)) (Some d)); [eapply ospec3_refuse; [exact Hctx | reflexivity] |].
+  destruct (d_parent data) as [par |] eqn:Hpd; [| eapply ospec3_refuse; [exact Hctx | reflexivity]].
+  (* d is a chain member with a parent *)
+  assert (Hmb : exists mb, find_mb d (cv_chain v) = Some mb /\ mb_disk mb = data).
+  { rewrite Hdisks in Hfound. destruct (find_mb d (cv_chain v)) as [mb |]; [| discriminate]. inversion Hfound. eauto. }
+  destruct Hmb as [mb [Hfmb Hmbd]]. destruct (find_mb_some_in _ _ _ Hfmb) as [Hmbin Hmbn].
+  assert (Hin : In d (names_of_chain (cv_chain v))) by (rewrite <- Hmbn; apply in_map; exact Hmbin).
+  destruct (in_split mb (cv_chain v) Hmbin) as [l1 [l2 Hsplit]].
+  assert (Hlk : linked (files w) (mb :: l2)) by (rewrite Hsplit in Hlink; apply (linked_suffix _ l1); exact Hlink).
+  cbn [linked] in Hlk. destruct Hlk as [Hmeta [[gn Himg] [Hparl _]]]. rewrite Hmbn, Hmbd in *.
+  assert (Hpar_in : In par (names_of_chain (cv_chain v))).
+  { rewrite Hpd in Hparl. destruct l2 as [| pmb l2']; [discriminate |]. inversion Hparl; subst par.
+    rewrite Hsplit. unfold names_of_chain. rewrite map_app. apply in_or_app. right. right. left. reflexivity. }
+  set (data' := mkdisk (Some par) true (d_user data) (d_created data) (d_rev data)).
+  set (m1 := set_disks m (updd (m_disks m) d (Some data'))).
+  set (w1 := enc_fs w (Meta d) (IDisk data')).
+  set (post := upd_member d data' (cv_chain v)).
+  assert (Hlink1 : linked (files w1) post).
+  { subst post. eapply (linked_upd_same_parent (files w) (files w1) d data data' (cv_chain v) Hlink Hnd Hmeta); [symmetry; exact Hpd | | |].
+    - subst w1. apply enc_fs_self. right. eexists. reflexivity.
+    - intros y. subst w1. apply enc_fs_other; cbn; discriminate.
+    - intros y Hy. subst w1. apply enc_fs_other; cbn; [intro E; inversion E; apply Hy; assumption | discriminate]. }
+  assert (Hrec1 : recover g w1 = Some (mkview (cv_info v) post)).
+  { apply recover_intro with (h := Head n) (c := c).
+    - subst w1. rewrite enc_fs_other by (cbn; discriminate). exact Hvol.
+    - exact Hvh.
+    - pose proof (linked_walk (files w1) post (maxlen g) Hlink1) as Hwk.
+      assert (Hf : match post with mb0 :: _ => mb_name mb0 | [] => Head 0 end = Head n).
+      { subst post. rewrite Hchain. cbn [upd_member]. destruct (dname_eqb (mb_name (mkmember (Head n) id0 d0)) d); reflexivity. }
+      rewrite Hf in Hwk. apply Hwk; [subst post; rewrite Hchain; discriminate | subst post; rewrite upd_member_length; exact Hlen].
+    - subst w1. rewrite enc_fs_other by (cbn; discriminate). exact Hcnt. }
+  assert (Hm1par : exists pd, m_disks m1 par = Some pd).
+  { subst m1. cbn [m_disks set_disks]. unfold updd. destruct (dname_eqb d par); [eauto |].
+    rewrite Hdisks. destruct (find_mb_some par (cv_chain v) Hpar_in) as [pmb Hp]. rewrite Hp. cbn. eauto. }
+  destruct Hm1par as [pd Hm1par].
+  exists w1, m1, Ok, 2, (mkview (cv_info v) post).
+  cbn [ff states apply_call]. rewrite Himg.
+  cbn [is_err ff states apply_call]. rewrite Hmeta. cbn [is_err ff states]. fold data'. fold m1.
+  split; [| split; [| split]].
+  - rewrite ff_bind, ff_encode by (cbn; auto; right; eexists; reflexivity). fold w1. cbn [is_ok res_eqb negb]. rewrite Hm1par. reflexivity.
+  - constructor.
+    + exact Hrec1.
+    + destruct (cx_wf _ _ _ _ Hctx) as [n' [id0' [d0' [tl0' [W1 [W2 [W3 [W4 [W5 W6]]]]]]]]].
+      rewrite Hchain in W1. inversion W1; subst n' id0' d0' tl0'.
+      assert (Hdh : d <> Head n).
+      { intro E. rewrite E, Hmh, odname_eqb_refl in Eh. discriminate. }
+      exists n, id0, d0, (upd_member d data' tl0). subst post. cbn [cv_chain cv_info]. rewrite Hchain. cbn [upd_member mb_name].
+      rewrite dname_eqb_neq by (apply not_eq_sym; exact Hdh).
+      split; [reflexivity |]. split; [exact Hvh |]. split; [| split; [| split]].
+      * apply Forall_forall. intros x Hx.
+        assert (Hxn : In (mb_name x) (names_of_chain (upd_member d data' tl0))) by (apply in_map; exact Hx).
+        rewrite upd_member_names in Hxn. unfold names_of_chain in Hxn. apply in_map_iff in Hxn. destruct Hxn as [x0 [E0 Hx0]].
+        eapply Forall_forall in Hsnaps; [| exact Hx0]. rewrite <- E0. exact Hsnaps.
+      * cbn [names_of_chain map mb_name]. fold (names_of_chain (upd_member d data' tl0)). rewrite upd_member_names.
+        rewrite Hchain in Hnd. exact Hnd.
+      * cbn [map mb_id]. rewrite upd_member_ids. rewrite Hchain in Hndi. exact Hndi.
+      * exact Hpar.
+    + apply upd_member_agree; assumption.
+    + pose proof (ff_fresh _ (encode_to_file g (IDisk data') (Meta d)) w (cx_fresh _ _ _ _ Hctx)) as Hq.
+      rewrite ff_encode in Hq by (cbn; auto; right; eexists; reflexivity). exact Hq.
+    + apply Hctx.
+  - constructor; [apply Good_pre; exact Hrec |]. constructor; [apply Good_pre; exact Hrec |].
+    apply Forall_states_bind.
+    + apply encode_states; [right; eexists; reflexivity | exact I | |].
+      * intros x Hx _. apply Good_pre. eapply recover_only_on; [exact Hrec | exact Hx |].
+        intros y Hy Hf. cbn in Hy. subst y. exact (footprint_tmp _ _ Hf).
+      * fold w1. apply Good_post. exact Hrec1.
+    + intros e He. rewrite ff_encode in * by (cbn; auto; right; eexists; reflexivity). cbn [fst snd] in *. inversion He; subst e.
+      cbn [is_ok res_eqb negb]. rewrite Hm1par. apply Forall_states_ret. fold w1. apply Good_post. exact Hrec1.
+  - intros H. congruence.
+Qed.
+
+(** ** one step of a history *)
+
+Definition heads_ok (m : mem) : Prop := forall k, m_children m (Some (Head k)) = [].
+
+(** the invariant of histories: the directory recovers to a well-formed view, inode numbers are
+    fresh, and the memory of an open replica agrees with the directory *)
+Definition InvS (g : cfg) (s : st) : Prop :=
+  exists v, recover g (s_fs s) = Some v /\ wf_view v /\ ids_fresh (s_fs s)
+            /\ match s_mem s with Some m => agree g v m /\ heads_ok m | None => True end.
+
+Lemma InvS_ctx : forall g w m, InvS g (mkst w (Some m)) -> exists v, ctx g w v m.
+Proof. intros g w m [v [H1 [H2 [H3 [H4 H5]]]]]. exists v. constructor; assumption. Qed.
+
+Lemma ctx_InvS : forall g w v m, ctx g w v m -> InvS g (mkst w (Some m)).
+Proof.
+  intros g w v m [R1 R2 R3 R4 R5]. exists v. cbn [s_fs s_mem].
+  split; [exact R1 | split; [exact R2 | split; [exact R4 | split; [exact R3 | exact R5]]]].
+Qed.
+
+(** what a Server-level operation does from an invariant state *)
+Definition sspec (g : cfg) (w : fs) (v : chainview) (om : option mem) (p : prog (option mem * res * nat)) : Prop :=
+  exists w' om' r k vpost,
+    ff p w = (w', Done (om', r, k))
+    /\ InvS g (mkst w' om') /\ recover g w' = Some vpost
+    /\ Forall (Good g v vpost) (states p w)
+    /\ (r <> Ok -> vpost = v /\ om' = om).
+
+Lemma sspec_ret : forall g w v om om' r k,
+  InvS g (mkst w om') -> recover g w = Some v -> (r <> Ok -> om' = om) ->
+  sspec g w v om (Ret (om', r, k)).
+Proof.
+  intros g w v om om' r k Hi Hr Hm. exists w, om', r, k, v. split; [reflexivity |]. split; [exact Hi |]. split; [exact Hr |].
+  split; [apply Forall_states_ret; apply Good_pre; exact Hr | intros H; split; [reflexivity | auto]].
+Qed.
+
+Lemma sspec_lift : forall g w v m p, ospec g w v m p -> sspec g w v (Some m) (lift p).
+Proof.
+  intros g w v m p [w' [m' [r [vp [Hff [Hc [Hst Hr]]]]]]]. exists w', (Some m'), r, O, vp.
+  unfold lift. split; [rewrite ff_bind, Hff; reflexivity |].
+  split; [eapply ctx_InvS; exact Hc |].
+  split; [apply Hc |]. split.
+  - apply Forall_states_bind; [exact Hst |]. intros a Ha. rewrite Hff in *. cbn [fst snd] in *. inversion Ha; subst a.
+    apply Forall_states_ret. apply Good_post. apply Hc.
+  - intros H. destruct (Hr H) as [E1 E2]. subst. auto.
+Qed.
+
+Definition ok_op (g : cfg) (s : st) (o : op) : Prop :=
+  match o, s_mem s, recover g (s_fs s) with
+  | OSnap sn _ _, Some m, Some v =>
+      (fix_dup g = true \/ ~ In (Snap sn) (names_of_chain (cv_chain v)))
+      /\ (~ In (Snap sn) (names_of_chain (cv_chain v)) -> m_children m (Some (Snap sn)) = [])
+  | ORevert d _, Some m, Some v =>
+      fix_rev g = true
+      \/ (In d (names_of_chain (cv_chain v)) /\ Some d <> i_head (cv_info v))
+      \/ files (s_fs s) (Img d) = None
+  | OCrashIn _ _, _, _ => False               (* treated separately *)
+  | _, _, _ => True
+  end.
+
+Lemma InvS_drop_mem : forall g w om, InvS g (mkst w om) -> InvS g (mkst w None).
+Proof. intros g w om [v [H1 [H2 [H3 _]]]]. exists v. repeat split; assumption. Qed.
+
+Theorem step_sspec : forall g s o,
+  cfg_ok g -> InvS g s -> ok_op g s o ->
+  exists v, recover g (s_fs s) = Some v /\ sspec g (s_fs s) v (s_mem s) (op_prog g (s_mem s) o).
+Proof.
+  intros g [w om] o Hcfg Hinv Hok. cbn [s_fs s_mem] in *.
+  pose proof Hinv as [v [Hrec [Hwf [Hfr Hmem]]]]. cbn [s_fs s_mem] in Hrec, Hfr, Hmem. exists v. split; [exact Hrec |]. unfold ok_op in Hok. cbn [s_fs s_mem] in Hok. rewrite Hrec in Hok.
+  destruct om as [m |].
+  - (* a replica is open *)
+    destruct Hmem as [Hag Hheads]. assert (Hctx : ctx g w v m) by (constructor; assumption).
+    destruct o; cbn [op_prog].
+    + apply sspec_ret; [exact Hinv | exact Hrec | auto].
+    + apply sspec_ret; [exact Hinv | exact Hrec | auto].
+    + (* close *)
+      destruct (close_replica_spec g w v m Hrec Hwf Hag) as [w' [m' [r [vp [Hff [Hr' [Hwf' [Hag' [Hst [Hrr Hch]]]]]]]]]].
+      assert (Hrok : r = Ok).
+      { unfold close_replica in Hff. rewrite ff_bind, ff_encode in Hff by (cbn; auto; left; reflexivity). inversion Hff. reflexivity. }
+      subst r. exists w', None, Ok, O, vp. split; [rewrite ff_bind, Hff; reflexivity |].
+      assert (Hfr' : ids_fresh w') by (pose proof (ff_fresh _ (close_replica g m) w Hfr) as H; rewrite Hff in H; exact H).
+      split; [exists vp; cbn [s_fs s_mem]; split; [exact Hr' | split; [exact Hwf' | split; [exact Hfr' | exact I]]] |]. split; [exact Hr' |]. split.
+      * apply Forall_states_bind; [exact Hst |]. intros a Ha. rewrite Hff in *. cbn [fst snd] in *. inversion Ha; subst a.
+        cbn [is_ok res_eqb]. apply Forall_states_ret. apply Good_post. exact Hr'.
+      * intros H. congruence.
+    + apply sspec_ret; [eapply InvS_drop_mem; exact Hinv | exact Hrec | intros H; congruence].
+    + (* set mode *)
+      assert (Hset : forall x, InvS g (mkst w (Some (set_mode m x)))).
+      { intros x. exists v. cbn [s_fs s_mem]. split; [exact Hrec | split; [exact Hwf | split; [exact Hfr | split; [exact Hag | exact Hheads]]]]. }
+      destruct mo as [[| | |] |].
+      * apply sspec_ret; [exact Hinv | exact Hrec | auto].
+      * apply sspec_ret; [apply Hset | exact Hrec | intros H; congruence].
+      * apply sspec_ret; [apply Hset | exact Hrec | intros H; congruence].
+      * apply sspec_ret; [exact Hinv | exact Hrec | auto].
+      * apply sspec_ret; [exact Hinv | exact Hrec | auto].
+    + apply sspec_lift. apply write_at_spec. exact Hctx.
+    + destruct Hok as [Hd Hc]. apply sspec_lift. apply create_disk_spec; assumption.
+    + apply sspec_lift. apply remove_diff_disk_spec; assumption.
+    + (* prepare *)
+      destruct (prepare_remove_disk_spec g w v m d Hctx) as [w' [m' [r [k [vp [Hff [Hc' [Hst Hr]]]]]]]].
+      exists w', (Some m'), r, k, vp. split; [rewrite ff_bind, Hff; reflexivity |].
+      split; [eapply ctx_InvS; exact Hc' |].
+      split; [apply Hc' |]. split.
+      * apply Forall_states_bind; [exact Hst |]. intros a Ha. rewrite Hff in *. cbn [fst snd] in *. inversion Ha; subst a.
+        apply Forall_states_ret. apply Good_post. apply Hc'.
+      * intros H. destruct (Hr H) as [E1 E2]. subst. auto.
+    + apply sspec_lift. apply revert_disk_spec; assumption.
+    + apply sspec_lift. apply resize_spec. exact Hctx.
+    + apply sspec_lift. apply op_spec_ospec; [exact Hctx |]. apply set_checkpoint_spec; assumption.
+    + destruct b; destruct (mstate m); try (apply sspec_ret; [exact Hinv | exact Hrec | auto]);
+        (apply sspec_lift; apply op_spec_ospec; [exact Hctx |]; apply set_rebuilding_spec; assumption).
+    + contradiction.
+  - (* no replica open *)
+    destruct o; cbn [op_prog]; try (apply sspec_ret; [exact Hinv | exact Hrec | auto]).
+    + (* create on an existing volume: nothing to do *)
+      unfold create_volume. destruct (recover_elim g w v Hrec) as [Hvol _].
+      exists w, None, Ok, O, v. split; [cbn [ff apply_call]; rewrite Hvol; reflexivity |].
+      split; [exact Hinv |]. split; [exact Hrec |]. split; [| intros H; congruence].
+      cbn [states apply_call]. rewrite Hvol. cbn [states]. repeat constructor; apply Good_pre; exact Hrec.
+    + (* open *)
+      unfold open_volume. destruct (recover_elim g w v Hrec) as [Hvol _].
+      destruct (construct_spec g w v (i_size (cv_info v)) 0 Hrec Hwf Hfr Hcfg) as [wF [mF [c [Hc HF]]]].
+      cbn zeta in HF. destruct HF as [HffF [HctxF [HmodeF [HinfoF [HstF HveqF]]]]].
+      eexists wF, (Some mF), Ok, O, _. split; [cbn [ff apply_call]; rewrite Hvol; rewrite ff_bind, HffF; reflexivity |].
+      split; [eapply ctx_InvS; exact HctxF |].
+      split; [apply HctxF |]. split; [| intros H; congruence].
+      rewrite states_Do. cbn [apply_call]. rewrite Hvol. constructor; [apply Good_pre; exact Hrec |].
+      apply Forall_states_bind; [exact HstF |]. intros a Ha. rewrite HffF in *. cbn [fst snd] in *. inversion Ha; subst a.
+      apply Forall_states_ret. apply Good_post. apply HctxF.
+Qed.
+
+(** ** histories *)
+
+Lemma run_ff : forall A (p : prog A) w, dir_of_run (run p w) = fst (ff p w) /\ out_of_run (run p w) = snd (ff p w).
+Proof. intros. unfold run. apply exec_ff. Qed.
+
+Lemma step_ff : forall g s o w' om' r k,
+  (forall k' o', o <> OCrashIn k' o') ->
+  ff (op_prog g (s_mem s) o) (s_fs s) = (w', Done (om', r, k)) ->
+  step g s o = (mkst w' om', result_of r, k).
+Proof.
+  intros g s o w' om' r k Hnc Hff.
+  destruct (run_ff _ (op_prog g (s_mem s) o) (s_fs s)) as [H1 H2]. rewrite Hff in H1, H2. cbn [fst snd] in H1, H2.
+  unfold step. destruct o; try (exfalso; eapply Hnc; reflexivity);
+    destruct (run _ _) as [[wx tx] ox]; unfold dir_of_run, out_of_run in H1, H2; cbn [fst snd] in H1, H2; subst wx ox; reflexivity.
+Qed.
+
+Lemma sim_ids : forall l l', Forall2 member_sim l l' -> map mb_id l = map mb_id l'.
+Proof. intros l l' H. induction H as [| x y l0 l0' [_ [Hi _]] _ IH]; [reflexivity |]. cbn [map]. rewrite Hi, IH. reflexivity. Qed.
+
+Lemma wf_view_veq : forall a b, veq a b -> wf_view b -> wf_view a.
+Proof.
+  intros a b [[I1 [I2 [I3 [I4 [I5 I6]]]]] HF] [n [id0 [d0 [tl [H1 [H2 [H3 [H4 [H5 H6]]]]]]]]].
+  pose proof (sim_linked_names _ _ HF) as Hnames. pose proof (sim_ids _ _ HF) as Hids.
+  rewrite H1 in HF. destruct (cv_chain a) as [| x l] eqn:Ea; [inversion HF |].
+  inversion HF as [| ? ? ? ? Hxy Hll]; subst.
+  destruct x as [xn xi xd]. destruct Hxy as [Hn [Hi [Hp _]]]. cbn [mb_name mb_id mb_disk] in *. subst xn xi.
+  exists n, id0, xd, l. split; [exact Ea |]. split; [congruence |]. rewrite Ea. split; [| split; [| split]].
+  - clear -Hll H3. induction Hll as [| x y l l' [Hn _] _ IH]; [constructor |]. inversion H3; subst. constructor; [rewrite Hn; assumption | auto].
+  - rewrite Hnames. exact H4.
+  - rewrite Hids. exact H5.
+  - congruence.
+Qed.
+
+(** a directory left by a process death inside an operation is again an invariant state *)
+Lemma Good_InvS : forall g vpre vpost x, Good g vpre vpost x -> wf_view vpre -> wf_view vpost -> ids_fresh x -> InvS g (mkst x None).
+Proof.
+  intros g vpre vpost x [vx [Hr [Hv | Hv]]] H1 H2 Hf; exists vx; cbn [s_fs s_mem];
+    (split; [exact Hr | split; [eapply wf_view_veq; eauto | split; [exact Hf | exact I]]]).
+Qed.
+
+Definition plain (o : op) : Prop := match o with OCrashIn _ _ => False | _ => True end.
+
+(** the operations of a history carry arguments for which the code as it is behaves (see the
+    findings); a process death may hit any plain operation at any call *)
+Definition ok_step (g : cfg) (s : st) (o : op) : Prop :=
+  match o with
+  | OCrashIn _ o' => plain o' /\ ok_op g s o'
+  | _ => ok_op g s o
+  end.
+
+Fixpoint ok_hist (g : cfg) (s : st) (os : list op) : Prop :=
+  match os with
+  | [] => True
+  | o :: t => ok_step g s o /\ ok_hist g (fst (fst (step g s o))) t
+  end.
+
+Lemma plain_not_crash : forall o, plain o -> forall k' o', o <> OCrashIn k' o'.
+Proof. intros o H k' o' E. subst o. exact H. Qed.
+
+Theorem step_inv : forall g s o, cfg_ok g -> InvS g s -> ok_step g s o -> InvS g (fst (fst (step g s o))).
+Proof.
+  intros g s o Hcfg Hinv Hok. destruct o; try (
+    destruct (step_sspec g s _ Hcfg Hinv Hok) as [v [Hrec [w' [om' [r [k [vp [Hff [Hinv' _]]]]]]]]];
+    erewrite step_ff; [exact Hinv' | intros k' o' E; discriminate | exact Hff]).
+  (* a process death inside o *)
+  destruct Hok as [Hpl Hok]. cbn [step].
+  destruct (step_sspec g s o Hcfg Hinv Hok) as [v [Hrec [w' [om' [r [k0 [vp [Hff [Hinv' [Hrec' [Hst _]]]]]]]]]]].
+  pose proof (crash_in_states _ (op_prog g (s_mem s) o) (s_fs s) k) as Hin.
+  destruct (exec (op_prog g (s_mem s) o) (s_fs s) 0 (Some k) None) as [[wx tx] ox] eqn:He.
+  unfold dir_of_run in Hin. cbn [fst] in Hin |- *.
+  eapply Forall_forall in Hst; [| exact Hin].
+  destruct Hinv as [v0 [Hr0 [Hwf0 [Hfr0 _]]]]. rewrite Hrec in Hr0. inversion Hr0; subst v0.
+  destruct Hinv' as [vp' [Hrp [Hwfp _]]]. cbn [s_fs] in Hrp. rewrite Hrec' in Hrp. inversion Hrp; subst vp'.
+  eapply Good_InvS; [exact Hst | exact Hwf0 | exact Hwfp |].
+  pose proof (states_fresh _ (op_prog g (s_mem s) o) (s_fs s) Hfr0) as Hsf. eapply Forall_forall in Hsf; [exact Hsf | exact Hin].
+Qed.
+
+Theorem hist_inv : forall g os s, cfg_ok g -> InvS g s -> ok_hist g s os -> InvS g (run_ops g s os).
+Proof.
+  intros g os. induction os as [| o t IH]; intros s Hcfg Hinv Hok; [exact Hinv |].
+  cbn [run_ops ok_hist] in *. destruct Hok as [H1 H2]. apply IH; [exact Hcfg | apply step_inv; assumption | exact H2].
+Qed.
+
+(** the state right after Server.Create on an empty directory *)
+Definition created (g : cfg) (size now : N) : st := fst (fst (step g init (OCreate size now))).
+
+Lemma ids_fresh_empty : ids_fresh empty_fs.
+Proof. intros n id gn H. discriminate. Qed.
+
+Lemma created_inv : forall g size now, cfg_ok g -> size <> 0%N -> InvS g (created g size now).
+Proof.
+  intros g size now Hcfg Hsz. unfold cfg_ok in Hcfg.
+  assert (Hfr : ids_fresh (s_fs (created g size now))).
+  { unfold created, step. destruct (run_ff _ (op_prog g (s_mem init) (OCreate size now)) (s_fs init)) as [H1 _].
+    destruct (run (op_prog g (s_mem init) (OCreate size now)) (s_fs init)) as [[wx tx] ox] eqn:Er.
+    unfold dir_of_run in H1. cbn [fst] in H1. 
+    assert (Hq : ids_fresh wx) by (rewrite H1; apply ff_fresh; apply ids_fresh_empty).
+    destruct ox as [[[om e] n] | |]; exact Hq. }
+  destruct g as [ml fx fd fr fc fch]. cbn [maxlen] in Hcfg.
+  destruct ml as [| [| ml]]; try lia. destruct size as [| p]; [congruence |].
+  assert (Hmem : s_mem (created (mkcfg (S (S ml)) fx fd fr fc fch) (N.pos p) now) = None).
+  { destruct fx, fd; vm_compute; reflexivity. }
+  assert (Hrec : exists v, recover (mkcfg (S (S ml)) fx fd fr fc fch) (s_fs (created (mkcfg (S (S ml)) fx fd fr fc fch) (N.pos p) now)) = Some v
+                          /\ wf_view v).
+  { destruct fx, fd; (eexists; split; [vm_compute; reflexivity |]);
+      (exists 0, 1%N, (mkdisk None false false now 1), []; cbn [cv_chain cv_info];
+       repeat split; try reflexivity; repeat constructor; cbn; tauto). }
+  destruct Hrec as [v [Hr Hw]]. exists v. rewrite Hmem. repeat split; assumption.
+Qed.
+
+(** ** the theorems of C12 and C08 over reachable states *)
+
+(** what the invariant says, spelled out *)
+Lemma InvS_facts : forall g s, InvS g s ->
+  exists v, recover g (s_fs s) = Some v
+    (* a single acyclic path from the head to the base, every member with its two files *)
+    /\ NoDup (names_of_chain (cv_chain v))
+    /\ first_name (cv_chain v) = i_head (cv_info v)
+    /\ linked (files (s_fs s)) (cv_chain v)
+    /\ length (cv_chain v) <= maxlen g
+    (* the memory of an open replica agrees with the directory *)
+    /\ match s_mem s with
+       | Some m => mchain g m = Some (names_of_chain (cv_chain v))
+                   /\ (forall d, m_disks m d = option_map mb_disk (find_mb d (cv_chain v)))
+                   /\ (forall d, In d (names_of_chain (cv_chain v)) -> m_children m (Some d) = child_in d (cv_chain v))
+                   /\ m_active m = rev (names_of_chain (cv_chain v))
+                   /\ info_sim (m_info m) (cv_info v)
+       | None => True
+       end.
+Proof.
+  intros g [w om] [v [Hrec [Hwf [Hfr Hmem]]]]. cbn [s_fs s_mem] in *. exists v. split; [exact Hrec |].
+  destruct (recover_elim g w v Hrec) as [Hvol [h [c [Hhd [Hw Hc]]]]].
+  destruct (walk_linked _ _ _ _ Hw) as [Hl _]. destruct (walk_length _ _ _ _ Hw) as [Hlen _].
+  pose proof Hwf as [n [id0 [d0 [tl [H1 [H2 [H3 [H4 [H5 H6]]]]]]]]].
+  split; [exact H4 |]. split; [rewrite H1, H2; reflexivity |]. split; [exact Hl |]. split; [exact Hlen |].
+  destruct om as [m |]; [| exact I]. destruct Hmem as [Hag Hh].
+  assert (Hctx : ctx g w v m) by (constructor; assumption).
+  split; [apply (mchain_of_ctx g w v m Hctx) |]. destruct Hag as [A1 [A2 [A3 [A4 A5]]]]. auto.
+Qed.
+
+Theorem C12_wf_thm : forall g size now os,
+  cfg_ok g -> size <> 0%N -> ok_hist g (created g size now) os ->
+  InvS g (run_ops g (created g size now) os).
+Proof. intros. apply hist_inv; [assumption | apply created_inv; assumption | assumption]. Qed.
+
+(** a refused or failed operation leaves view and memory as they were *)
+Theorem refused_unchanged : forall g s o,
+  cfg_ok g -> InvS g s -> plain o -> ok_op g s o ->
+  snd (fst (step g s o)) <> ResOk ->
+  recover g (s_fs (fst (fst (step g s o)))) = recover g (s_fs s) /\ s_mem (fst (fst (step g s o))) = s_mem s.
+Proof.
+  intros g s o Hcfg Hinv Hpl Hok Hne.
+  assert (Hok' : ok_step g s o) by (destruct o; try exact Hok; contradiction).
+  destruct (step_sspec g s o Hcfg Hinv Hok) as [v [Hrec [w' [om' [r [k [vp [Hff [Hinv' [Hrec' [Hst Hr]]]]]]]]]]].
+  rewrite (step_ff g s o w' om' r k (plain_not_crash o Hpl) Hff) in *. cbn [fst snd s_fs s_mem] in *.
+  assert (Hr' : r <> Ok) by (intro E; subst r; apply Hne; reflexivity).
+  destruct (Hr Hr') as [E1 E2]. subst. rewrite Hrec, Hrec'. auto.
+Qed.
+
+(** process death after any number of calls of any operation *)
+Theorem crash_atomic : forall g s o k,
+  cfg_ok g -> InvS g s -> plain o -> ok_op g s o ->
+  exists vpre vpost vk,
+    recover g (s_fs s) = Some vpre
+    /\ recover g (s_fs (fst (fst (step g s o)))) = Some vpost
+    /\ recover g (dir_of_run (exec (op_prog g (s_mem s) o) (s_fs s) 0 (Some k) None)) = Some vk
+    /\ (veq vk vpre \/ veq vk vpost).
+Proof.
+  intros g s o k Hcfg Hinv Hpl Hok.
+  destruct (step_sspec g s o Hcfg Hinv Hok) as [v [Hrec [w' [om' [r [k0 [vp [Hff [Hinv' [Hrec' [Hst Hr]]]]]]]]]]].
+  rewrite (step_ff g s o w' om' r k0 (plain_not_crash o Hpl) Hff). cbn [fst s_fs].
+  pose proof (crash_in_states _ (op_prog g (s_mem s) o) (s_fs s) k) as Hin.
+  eapply Forall_forall in Hst; [| exact Hin]. destruct Hst as [vk [Hk1 Hk2]].
+  exists v, vp, vk. auto.
+Qed.
+
+(** close (or process death between operations) followed by open reproduces the chain *)
+Theorem reopen_roundtrip : forall g w m (how : bool),
+  cfg_ok g -> InvS g (mkst w (Some m)) ->
+  let s1 := fst (fst (step g (mkst w (Some m)) (if how then OClose else OCrash))) in
+  let s2 := fst (fst (step g s1 OOpen)) in
+  exists v v2 m2,
+    recover g w = Some v /\ recover g (s_fs s2) = Some v2 /\ veq v v2
+    /\ snd (fst (step g s1 OOpen)) = ResOk
+    /\ s_mem s2 = Some m2 /\ mchain g m2 = Some (names_of_chain (cv_chain v))
+    /\ (forall d, m_disks m2 d = option_map mb_disk (find_mb d (cv_chain v2))).
+Proof.
+  intros g w m how Hcfg Hinv s1 s2.
+  pose proof Hinv as [v [Hrec [Hwf [Hfr [Hag Hh]]]]]. cbn [s_fs s_mem] in *.
+  (* the state after close / death: same chain, volume.meta possibly rewritten *)
+  assert (H1 : exists w1 v1, s1 = mkst w1 None /\ recover g w1 = Some v1 /\ wf_view v1 /\ ids_fresh w1 /\ veq v v1).
+  { subst s1. destruct how.
+    - destruct (close_replica_spec g w v m Hrec Hwf Hag) as [w' [m' [r [vp [Hff [Hr' [Hwf' [Hag' [Hst [Hrr Hch]]]]]]]]]].
+      assert (Hvp : vp = mkview (set_dirty_rebuilding (m_info m) false (i_rebuilding (m_info m))) (cv_chain v) /\ r = Ok).
+      { unfold close_replica in Hff. rewrite ff_bind, ff_encode in Hff by (cbn; auto; left; reflexivity). inversion Hff; subst.
+        split; [| reflexivity]. cbn [m_info set_mode] in Hr'.
+        rewrite (recover_vol_rewrite g w v _ Hrec) in Hr'; [inversion Hr'; reflexivity |]. cbn. apply (agree_head g v m Hag). }
+      destruct Hvp as [Hvp Hrok]. subst r.
+      exists w', vp. split; [| split; [exact Hr' | split; [exact Hwf' | split]]].
+      + erewrite step_ff; [reflexivity | intros; discriminate |]. cbn [op_prog s_mem s_fs]. rewrite ff_bind, Hff. reflexivity.
+      + pose proof (ff_fresh _ (close_replica g m) w Hfr) as H. rewrite Hff in H. exact H.
+      + subst vp. split; [| apply Forall2_refl; apply member_sim_refl]. destruct Hag as [[B1 [B2 [B3 [B4 [B5 B6]]]]] _].
+        cbn [cv_info]. repeat split; cbn; congruence.
+    - exists w, v. split; [reflexivity |]. repeat split; try assumption. apply veq_refl. }
+  destruct H1 as [w1 [v1 [Es1 [Hr1 [Hwf1 [Hfr1 Hveq1]]]]]].
+  destruct (construct_spec g w1 v1 (i_size (cv_info v1)) 0 Hr1 Hwf1 Hfr1 Hcfg) as [wF [mF [c [Hc HF]]]].
+  cbn zeta in HF. destruct HF as [HffF [HctxF [HmodeF [HinfoF [HstF HveqF]]]]].
+  destruct (recover_elim g w1 v1 Hr1) as [Hvol1 _].
+  assert (Hstep2 : step g s1 OOpen = (mkst wF (Some mF), ResOk, O)).
+  { rewrite Es1. rewrite (step_ff g (mkst w1 None) OOpen wF (Some mF) Ok O); [reflexivity | intros; discriminate |].
+    cbn [op_prog s_mem s_fs]. unfold open_volume.
+    cbn [ff apply_call]. rewrite Hvol1. rewrite ff_bind, HffF. reflexivity. }
+  subst s2. rewrite Hstep2. cbn [fst snd s_fs s_mem].
+  eexists v, _, mF. split; [exact Hrec |]. split; [apply HctxF |]. split; [eapply veq_trans; [exact Hveq1 | exact HveqF] |].
+  split; [reflexivity |]. split; [reflexivity |]. split.
+  - rewrite (mchain_of_ctx g wF _ mF HctxF). cbn [cv_chain]. rewrite norm_chain_names. f_equal. symmetry. apply veq_names. exact Hveq1.
+  - apply (cx_ag _ _ _ _ HctxF).
+Qed.
+
+(** ** C08_durable: after the last directory change of a successful operation the directory is synced *)
+
+(** the lint of Corr.v, call by call: [pending] after a call *)
+Definition cpend (pd : bool) (c : call) : bool :=
+  match c with
+  | CFsyncDir => false
+  | _ => pd || existsb changes_dir (map sys_code (sys_of_call c))
+  end.
+
+Definition codes_of_trace (t : trace) : list (N * N * N) :=
+  flat_map (fun cr => map sys_code (sys_of_call (fst cr))) t.
+
+Lemma sys_trace_codes : forall t i, map snd (sys_trace i t) = codes_of_trace t.
+Proof.
+  induction t as [| [c r] t IH]; intros i; [reflexivity |].
+  cbn [sys_trace codes_of_trace flat_map fst]. rewrite map_app, IH. f_equal.
+  rewrite map_map. cbn [snd]. reflexivity.
+Qed.
+
+Fixpoint pend_of_trace (pd : bool) (t : trace) : bool :=
+  match t with [] => pd | (c, _) :: t' => pend_of_trace (cpend pd c) t' end.
+
+(** a sync code (tag 9) is only ever produced right after the open-directory code of the same call *)
+Lemma durable_from_call : forall c pd prev rest,
+  exists prev', durable_from pd prev (map sys_code (sys_of_call c) ++ rest) = durable_from (cpend pd c) prev' rest.
+Proof.
+  intros c pd prev rest.
+  destruct c; cbn [sys_of_call map app durable_from cpend existsb];
+    try (eexists; reflexivity);
+    try (destruct prev as [[t0 a0] b0]; eexists; cbn [is_dirsync sys_code changes_dir];
+         rewrite ?Bool.andb_false_r, ?Bool.orb_false_r; cbn; rewrite ?Bool.orb_false_r; reflexivity).
+Qed.
+
+Lemma durable_from_trace : forall t pd prev,
+  exists prev', durable_from pd prev (codes_of_trace t) = durable_from (pend_of_trace pd t) prev' [].
+Proof.
+  induction t as [| [c r] t IH]; intros pd prev; [exists prev; reflexivity |].
+  cbn [codes_of_trace flat_map fst pend_of_trace]. fold (codes_of_trace t).
+  destruct (durable_from_call c pd prev (codes_of_trace t)) as [p1 H1]. rewrite H1. apply IH.
+Qed.
+
+(** static: whatever the fault-free replies, when [p] returns a value satisfying [okr] nothing is pending *)
+Fixpoint durP {A} (Q : A -> bool -> Prop) (pd : bool) (p : prog A) : Prop :=
+  match p with
+  | Ret a => Q a pd
+  | Abort _ => True
+  | Do c k => forall r, possible c r -> durP Q (cpend pd c) (k r)
+  end.
+
+Lemma durP_bind : forall A B (Q : A -> bool -> Prop) (R : B -> bool -> Prop) (p : prog A) (f : A -> prog B) pd,
+  durP Q pd p -> (forall a pd', Q a pd' -> durP R pd' (f a)) -> durP R pd (bind p f).
+Proof.
+  induction p as [a | e | c k IH]; intros f pd Hp Hf; cbn [bind durP] in *; auto.
+Qed.
+
+Lemma durP_weaken : forall A (Q R : A -> bool -> Prop) (p : prog A) pd,
+  (forall a pd', Q a pd' -> R a pd') -> durP Q pd p -> durP R pd p.
+Proof. induction p as [a | e | c k IH]; intros pd HQR Hp; cbn [durP] in *; auto. Qed.
+
+(** the fault-free trace *)
+Fixpoint fftr {A} (p : prog A) (w : fs) : trace :=
+  match p with
+  | Do c k => let '(w1, r) := apply_call w c in (c, r) :: fftr (k r) w1
+  | _ => []
+  end.
+
+Lemma exec_fftr : forall A (p : prog A) w cnt, trace_of_run (exec p w cnt None None) = fftr p w.
+Proof.
+  induction p as [a | e | c k IH]; intros w cnt; cbn; auto.
+  destruct (apply_call w c) as [w1 r]. specialize (IH r w1 (S cnt)).
+  destruct (exec (k r) w1 (S cnt) None None) as [[w2 t] o]. unfold trace_of_run in *. cbn in *. rewrite IH. reflexivity.
+Qed.
+
+Lemma durP_ff : forall A (Q : A -> bool -> Prop) (p : prog A) w pd a,
+  durP Q pd p -> snd (ff p w) = Done a -> Q a (pend_of_trace pd (fftr p w)).
+Proof.
+  induction p as [a' | e | c k IH]; intros w pd a Hp Hd; cbn [ff fftr durP pend_of_trace] in *.
+  - inversion Hd; subst. exact Hp.
+  - discriminate.
+  - destruct (apply_call w c) as [w1 r] eqn:Hc. cbn [pend_of_trace].
+    apply IH; [apply Hp; exists w; rewrite Hc; reflexivity | exact Hd].
+Qed.
+
+Lemma durP_true : forall A (p : prog A) pd, durP (fun _ _ => True) pd p.
+Proof. induction p as [a | e | c k IH]; intros pd; cbn [durP]; auto. Qed.
+
+Definition Qok (e : res) (pd : bool) : Prop := e = Ok -> pd = false.
+
+Lemma dp_sync : forall pd, durP (fun e pd' => e = Ok /\ pd' = false) pd sync_dir.
+Proof. intros pd. cbn. intros r Hr. poss Hr. cbn. auto. Qed.
+
+Lemma dp_encode : forall g c n pd, durP Qok pd (encode_to_file g c n).
+Proof.
+  intros g c n pd. unfold encode_to_file. cbn [durP]. intros r1 _.
+  destruct (is_err r1); [cbn; unfold Qok; discriminate |]. cbn [durP]. intros r2 _.
+  destruct (fixed g && is_err r2); [cbn; intros; unfold Qok; discriminate |]. cbn [durP]. intros r3 _.
+  destruct (is_err r3); [cbn; unfold Qok; discriminate |]. cbn [durP]. intros r4 _.
+  destruct (is_err r4); [cbn; unfold Qok; discriminate |].
+  eapply durP_weaken; [| apply dp_sync]. intros a pd' [_ H] _. exact H.
+Qed.
+
+Lemma dp_rm_some : forall x pd, durP (fun e pd' => e = Ok /\ pd' = false) pd (rm_disk (Some x)).
+Proof.
+  intros x pd. unfold rm_disk. cbn [durP]. intros r1 Hr1. poss Hr1; cbn [enoent_or_ok negb durP]; intros r2 Hr2; poss Hr2;
+    cbn [enoent_or_ok negb]; apply dp_sync.
+Qed.
+
+Lemma dp_rm : forall d pd, pd = false -> durP (fun e pd' => pd' = false) pd (rm_disk d).
+Proof.
+  intros d pd Hpd. destruct d as [x |]; [| cbn; exact Hpd].
+  eapply durP_weaken; [| apply dp_rm_some]. intros a pd' [_ H]. exact H.
+Qed.
+
+Lemma dp_link : forall old new pd, pd = false -> durP Qok pd (link_disk old new).
+Proof.
+  intros old new pd Hpd. destruct old as [o |]; [| cbn; intros _; exact Hpd]. destruct new as [nw |]; [| cbn; unfold Qok; discriminate].
+  unfold link_disk. cbn [durP]. intros r1 _. destruct (negb (is_err r1)); [cbn; unfold Qok; discriminate |].
+  cbn [durP]. intros r2 _. destruct (negb (is_err r2)); [cbn; unfold Qok; discriminate |].
+  cbn [durP]. intros r3 _. destruct (is_err r3); [cbn; unfold Qok; discriminate |].
+  cbn [durP]. intros r4 _. destruct (is_err r4); [cbn; unfold Qok; discriminate |].
+  eapply durP_weaken; [| apply dp_sync]. intros a pd' [_ H] _. exact H.
+Qed.
+
+Definition Qop {M} (a : M * res) (pd : bool) : Prop := snd a = Ok -> pd = false.
+
+Lemma is_ok_false : forall e, negb (is_ok e) = true -> e <> Ok.
+Proof. intros e H E. subst e. discriminate. Qed.
+
+Lemma dp_cleanup : forall nh snap (m' : mem) e pd, e <> Ok -> durP Qop pd (cd_cleanup nh snap m' e).
+Proof.
+  intros nh snap m' e pd He. unfold cd_cleanup.
+  eapply durP_bind; [apply durP_true |]. intros _ pd1 _. eapply durP_bind; [apply durP_true |]. intros _ pd2 _.
+  cbn. unfold Qop. cbn. intro; contradiction.
+Qed.
+
+Lemma dp_cd_commit : forall g ma old snap nh nd pd, durP Qop pd (cd_commit g ma old snap nh nd).
+Proof.
+  intros g ma old snap nh nd pd. unfold cd_commit.
+  eapply durP_bind; [apply dp_encode |]. intros e5 pd1 H5.
+  destruct (negb (is_ok e5)) eqn:E5.
+  - pose proof (is_ok_false e5 E5) as Hne. destruct (fix_commit g); [| apply dp_cleanup; exact Hne].
+    cbn [durP]. intros rv _. destruct rv as [| | | [iv | | | |] |]; try (apply dp_cleanup; exact Hne).
+    destruct (odname_eqb (i_head iv) (Some nh)); [| apply dp_cleanup; exact Hne].
+    eapply durP_bind; [apply durP_true |]. intros _ pd2 _. cbn. unfold Qop. cbn. intro; contradiction.
+  - assert (e5 = Ok) by (destruct e5; try discriminate; reflexivity). subst e5.
+    eapply durP_bind; [apply dp_rm; apply H5; reflexivity |]. intros x pd2 H2. cbn. unfold Qop. intros _. exact H2.
+Qed.
+
+Lemma dp_create_disk : forall g m s user cr pd, durP Qop pd (create_disk g m s user cr).
+Proof.
+  intros g m s user cr pd. unfold create_disk.
+  eapply durP_bind; [apply durP_true |]. intros e0 pd0 _.
+  destruct (negb (is_ok e0)); [cbn; unfold Qop; cbn; discriminate |].
+  destruct (Nat.ltb _ _); [cbn; unfold Qop; cbn; discriminate |].
+  destruct (fix_dup g && _); [cbn; unfold Qop; cbn; discriminate |].
+  eapply durP_bind; [apply durP_true |]. intros [[nhn nd] e1] pd1 _.
+  destruct (negb (is_ok e1)).
+  { eapply durP_bind; [apply durP_true |]. intros _ pd2 _. cbn. unfold Qop. cbn. discriminate. }
+  destruct nhn as [nh |]; [| cbn; unfold Qop; cbn; discriminate].
+  unfold cd_link. eapply durP_bind; [apply durP_true |]. intros e2 pd2 _.
+  destruct (negb (is_ok e2)) eqn:E2; [apply dp_cleanup; apply is_ok_false; exact E2 |].
+  eapply durP_bind; [apply durP_true |]. intros [ma e4] pd3 _.
+  destruct (negb (is_ok e4)) eqn:E4; [apply dp_cleanup; apply is_ok_false; exact E4 |].
+  apply dp_cd_commit.
+Qed.
+
+Lemma dp_remove_diff_disk : forall g m d pd, durP Qop pd (remove_diff_disk g m d).
+Proof.
+  intros g m d pd. unfold remove_diff_disk.
+  destruct (negb (mode_eqb (m_mode m) RW)); [cbn; unfold Qop; cbn; discriminate |].
+  destruct (odname_eqb (Some d) _); [cbn; unfold Qop; cbn; discriminate |].
+  destruct (odname_eqb _ (Some d)); [cbn; unfold Qop; cbn; discriminate |].
+  eapply durP_bind; [apply durP_true |]. intros [m1 e1] pd1 _.
+  destruct (negb (is_ok e1)) eqn:E1; [cbn; unfold Qop; cbn; intro H; exfalso; exact (is_ok_false e1 E1 H) |].
+  eapply durP_bind; [apply dp_rm_some |]. intros e2 pd2 [_ H2]. cbn. unfold Qop. intros _. exact H2.
+Qed.
+
+Lemma dp_construct : forall g size now pd, durP (fun a pd' => snd a = Ok -> pd' = false) pd (construct g size now).
+Proof.
+  intros g size now pd. unfold construct. cbn [durP]. intros rm _.
+  destruct (match rm with RErr EEXIST => false | RErr _ => true | _ => false end); [cbn; discriminate |].
+  eapply durP_bind; [apply durP_true |]. intros oc pd1 _. destruct oc as [cache |]; [| cbn; discriminate].
+  eapply durP_bind; [apply durP_true |]. intros [[m1 ex] e1] pd2 _.
+  destruct (negb (is_ok e1)); [cbn; discriminate |].
+  eapply durP_bind; [apply durP_true |]. intros [m2 e2] pd3 _.
+  destruct (negb (is_ok e2)); [cbn; discriminate |].
+  destruct (i_head (m_info m2)); [| exact I]. destruct (m_disks m2 d); [| exact I].
+  eapply durP_bind; [apply dp_encode |]. intros e3 pd4 H3.
+  destruct (is_ok e3) eqn:E3; [| cbn; discriminate].
+  assert (e3 = Ok) by (destruct e3; try discriminate; reflexivity). subst e3. cbn. intros _. apply H3. reflexivity.
+Qed.
+
+Lemma dp_revert : forall g m parent cr pd, durP Qop pd (revert_disk g m parent cr).
+Proof.
+  intros g m parent cr pd. unfold revert_disk.
+  destruct (fix_rev g && _); [cbn; unfold Qop; cbn; discriminate |].
+  cbn [durP]. intros rs _. destruct (is_err rs); [cbn; unfold Qop; cbn; discriminate |].
+  eapply durP_bind; [apply durP_true |]. intros [[nhn nd] e1] pd1 _.
+  destruct (negb (is_ok e1)); [cbn; unfold Qop; cbn; discriminate |].
+  eapply durP_bind; [apply durP_true |]. intros e2 pd2 _.
+  destruct (negb (is_ok e2)).
+  { eapply durP_bind; [apply durP_true |]. intros _ pd3 _. cbn. unfold Qop. cbn. discriminate. }
+  eapply durP_bind; [apply durP_true |]. intros e3 pd3 _.
+  destruct (negb (is_ok e3)); [cbn; unfold Qop; cbn; discriminate |].
+  eapply durP_bind; [apply dp_construct |]. intros [om e4] pd4 H4. cbn [snd] in H4.
+  destruct om as [mn |]; [| cbn; unfold Qop; cbn; discriminate].
+  destruct (is_ok e4) eqn:E4; [| cbn; unfold Qop; cbn; discriminate].
+  assert (e4 = Ok) by (destruct e4; try discriminate; reflexivity). subst e4. cbn. unfold Qop. intros _. apply H4. reflexivity.
+Qed.
+
+Lemma dp_vol_only : forall g i (k : res -> prog (mem * res)) pd,
+  (forall e pd', (e = Ok -> pd' = false) -> durP Qop pd' (k e)) ->
+  durP Qop pd (e <- encode_to_file g (IVol i) Vol ;; k e).
+Proof. intros g i k pd Hk. eapply durP_bind; [apply dp_encode |]. intros e pd' H. apply Hk. exact H. Qed.
+
+Lemma durP_no_change : forall A (Q : A -> bool -> Prop) (p : prog A),
+  (forall pd, durP (fun a pd' => pd' = pd) pd p) -> True.
+Proof. auto. Qed.
+
+Lemma dp_truncate_all : forall l sz pd, durP (fun _ pd' => pd' = pd) pd (truncate_all l sz).
+Proof.
+  induction l as [| y t IH]; intros sz pd; [reflexivity |]. cbn [truncate_all durP]. intros r _.
+  assert (Hc : cpend pd (CTruncate (Img y) sz) = pd) by (cbn; rewrite Bool.orb_false_r; reflexivity).
+  rewrite Hc. destruct (is_err r); [reflexivity | apply IH].
+Qed.
+
+(** every plain operation except the initial creation *)
+Theorem op_durable : forall g om o,
+  plain o -> (forall sz nw, o <> OCreate sz nw) ->
+  durP (fun a pd => snd (fst a) = Ok -> pd = false) false (op_prog g om o).
+Proof.
+  intros g om o Hpl Hnc.
+  assert (Hlift : forall (p : prog (mem * res)), durP Qop false p -> durP (fun a pd => snd (fst a) = Ok -> pd = false) false (lift p)).
+  { intros p Hp. unfold lift. eapply durP_bind; [exact Hp |]. intros [m e] pd' H. cbn. exact H. }
+  destruct om as [m |]; destruct o; cbn [op_prog]; try contradiction; try (exfalso; eapply Hnc; reflexivity);
+    try (cbn; intros; reflexivity).
+  - (* close *)
+    eapply durP_bind with (Q := Qop).
+    { unfold close_replica. eapply durP_bind; [apply dp_encode |]. intros e pd' H. cbn. exact H. }
+    intros [m1 e] pd' H. unfold Qop in H. cbn [snd] in H. destruct (is_ok e) eqn:E; [| cbn; discriminate].
+    assert (e = Ok) by (destruct e; try discriminate; reflexivity). subst e. cbn. intros _. apply H. reflexivity.
+  - destruct mo as [[| | |] |]; cbn; intros; reflexivity.
+  - (* write: no directory change *)
+    apply Hlift. unfold write_at. cbn [m_mode set_info]. destruct (m_mode m); try (cbn; unfold Qop; cbn; discriminate).
+    + destruct (i_head _); [| cbn; unfold Qop; cbn; discriminate]. cbn [durP]. intros r _.
+      destruct (is_err r); [cbn; unfold Qop; cbn; discriminate |]. cbn [durP]. intros r2 _.
+      destruct (is_err r2); cbn; unfold Qop; cbn; [discriminate | reflexivity].
+    + destruct (i_head _); [| cbn; unfold Qop; cbn; discriminate]. cbn [durP]. intros r _.
+      destruct (is_err r); cbn; unfold Qop; cbn; [discriminate | reflexivity].
+  - apply Hlift. apply dp_create_disk.
+  - apply Hlift. apply dp_remove_diff_disk.
+  - (* prepare *)
+    eapply durP_bind with (Q := fun a pd => snd (fst a) = Ok -> pd = false); [| intros [[m1 e] n] pd' H; cbn; exact H].
+    unfold prepare_remove_disk. destruct (negb (mode_eqb (m_mode m) RW)); [cbn; reflexivity |].
+    destruct (match m_disks m d with Some x => Some (d, x) | None => _ end) as [[d1 data] |]; [| cbn; reflexivity].
+    destruct (odname_eqb (Some d1) _); [cbn; discriminate |]. destruct (odname_eqb _ (Some d1)); [cbn; discriminate |].
+    destruct (d_parent data); [| cbn; discriminate].
+    cbn [durP]. intros r1 _. destruct (is_err r1); [cbn; discriminate |]. cbn [durP]. intros r2 _.
+    destruct (is_err r2); [cbn; discriminate |].
+    eapply durP_bind; [apply dp_encode |]. intros e pd' H.
+    destruct (negb (is_ok e)) eqn:E; [cbn; discriminate |].
+    assert (e = Ok) by (destruct e; try discriminate; reflexivity). subst e.
+    destruct (m_disks _ d0); cbn; [intros _; apply H; reflexivity | discriminate].
+  - apply Hlift. apply dp_revert.
+  - (* resize *)
+    apply Hlift. unfold resize. destruct (mchain g m); [| cbn; unfold Qop; cbn; discriminate].
+    destruct (N.ltb sz _); [cbn; unfold Qop; cbn; discriminate |].
+    eapply durP_bind; [apply dp_truncate_all |]. intros okf pd' Hpd. cbn beta in Hpd. rewrite Hpd.
+    destruct (negb okf); [cbn; unfold Qop; cbn; discriminate |].
+    eapply durP_bind; [apply dp_encode |]. intros e pd2 H. cbn. exact H.
+  - apply Hlift. unfold set_checkpoint. eapply durP_bind; [apply dp_encode |]. intros e pd' H. cbn. exact H.
+  - destruct b; destruct (mstate m); try (cbn; discriminate);
+      (apply Hlift; unfold set_rebuilding; eapply durP_bind; [apply dp_encode |]; intros e pd' H;
+       destruct (is_ok e) eqn:E; [| cbn; unfold Qop; cbn; discriminate];
+       assert (e = Ok) by (destruct e; try discriminate; reflexivity); subst e; cbn; unfold Qop; intros _; apply H; reflexivity).
+  - (* open *)
+    unfold open_volume. cbn [durP]. intros rv _. 
+    assert (Hc : cpend false (CReadFile Vol) = false) by reflexivity. rewrite Hc.
+    eapply durP_bind; [apply dp_construct |]. intros [om e] pd' H. cbn. exact H.
+Qed.
+
+Theorem durable : forall g s o w' om' k,
+  plain o -> (forall sz nw, o <> OCreate sz nw) ->
+  ff (op_prog g (s_mem s) o) (s_fs s) = (w', Done (om', Ok, k)) ->
+  durable_codes (map snd (sys_trace 0 (trace_of_run (run (op_prog g (s_mem s) o) (s_fs s))))) = true.
+Proof.
+  intros g s o w' om' k Hpl Hnc Hff.
+  pose proof (op_durable g (s_mem s) o Hpl Hnc) as Hd.
+  pose proof (durP_ff _ _ _ (s_fs s) false (om', Ok, k) Hd) as Hq. rewrite Hff in Hq. specialize (Hq eq_refl eq_refl).
+  unfold run. rewrite exec_fftr, sys_trace_codes. unfold durable_codes.
+  destruct (durable_from_trace (fftr (op_prog g (s_mem s) o) (s_fs s)) false (0, 0, 0)%N) as [prev' Hp].
+  rewrite Hp, Hq. reflexivity.
+Qed.
+
+Lemma fold_left_app_ops : forall g s a b, run_ops g s (a ++ b) = run_ops g (run_ops g s a) b.
+Proof. intros g s a. revert s. induction a as [| o t IH]; intros s b; [reflexivity |]. cbn [app run_ops]. apply IH. Qed.
+
+(** ** what the code as it is does NOT satisfy: witnesses (all replayed on the implementation) *)
+
+(** the code as it is today: duplicate snapshot names are refused (repaired in /repo 3b20437), the
+    other repairs are not in *)
+Definition cfg_asis (maxlen : nat) : cfg := mkcfg maxlen false true false false false.
+
+Definition wit_state : st := run_ops (cfg_asis 8) (created (cfg_asis 8) 16384 7) [OOpen; OSetMode (Some RW)].
+
+Definition fault_outcome (g : cfg) (s : st) (o : op) (k : nat) (e : errno) : rclass * bool :=
+  let '(w', _, out) := exec (op_prog g (s_mem s) o) (s_fs s) 0 None (Some (k, e)) in
+  (out_class out, match recover g w' with Some _ => true | None => false end).
+
+(** F5: the write(2) of volume.meta.tmp fails with ENOSPC during a snapshot: Snapshot returns nil
+    and the directory cannot be recovered *)
+Theorem fault_refuted_write_ignored :
+  InvS (cfg_asis 8) wit_state /\ ok_op (cfg_asis 8) wit_state (OSnap 1 false 1)
+  /\ fault_outcome (cfg_asis 8) wit_state (OSnap 1 false 1) 23 ENOSPC = (COk, false)
+  /\ fault_outcome (cfg_asis 8) wit_state (OCheckpoint (Some (Snap 1))) 1 ENOSPC = (COk, false).
+Proof.
+  split; [| split; [| split]].
+  - unfold wit_state. apply hist_inv; [unfold cfg_ok; cbn; lia | apply created_inv; [unfold cfg_ok; cbn; lia | discriminate] |].
+    vm_compute. tauto.
+  - vm_compute. split; [left; reflexivity | intros _; reflexivity].
+  - vm_compute. reflexivity.
+  - vm_compute. reflexivity.
+Qed.
+
+(** F11: the directory sync after rename(volume.meta.tmp, volume.meta) fails during a snapshot: an
+    error is returned, and the clean-up has removed the head volume.meta names *)
+Theorem fault_refuted_sync_after_commit :
+  fault_outcome (cfg_asis 8) wit_state (OSnap 1 false 1) 26 EIO = (CErr, false)
+  (* ... also with the write error tested (F5 repaired) *)
+  /\ fault_outcome (mkcfg 8 true true false false false)
+       (run_ops (mkcfg 8 true true false false false) (created (mkcfg 8 true true false false false) 16384 7) [OOpen; OSetMode (Some RW)])
+       (OSnap 1 false 1) 26 EIO = (CErr, false).
+Proof. split; vm_compute; reflexivity. Qed.
+
+(** F10: Revert with the head's own name: an error is returned over a directory that cannot be
+    recovered (the memory still shows the old chain) *)
+Theorem wf_refuted_revert_target :
+  let g := cfg_asis 8 in
+  let s := run_ops g wit_state [OSnap 1 false 1] in
+  InvS g s /\ snd (fst (step g s (ORevert (Head 1) 5))) = ResFailed
+  /\ recover g (s_fs (fst (fst (step g s (ORevert (Head 1) 5))))) = None.
+Proof.
+  cbn zeta. split; [| split].
+  - unfold wit_state. rewrite <- (fold_left_app_ops (cfg_asis 8)). 
+    apply hist_inv; [unfold cfg_ok; cbn; lia | apply created_inv; [unfold cfg_ok; cbn; lia | discriminate] |].
+    vm_compute. tauto.
+  - vm_compute. reflexivity.
+  - vm_compute. reflexivity.
+Qed.
+
+(** F12: a snapshot name reused after its removal keeps the stale child entry *)
+Theorem wf_refuted_children_stale :
+  let g := cfg_asis 8 in
+  let s := run_ops g wit_state [OSnap 1 false 1; OSnap 2 false 2; OSnap 3 false 3; ORemove (Snap 2); OSnap 2 false 4] in
+  match s_mem s with
+  | Some m => mchain g m = Some [Head 4; Snap 2; Snap 3; Snap 1] /\ m_children m (Some (Snap 2)) = [Snap 3; Head 4]
+  | None => False
+  end.
+Proof. vm_compute. split; reflexivity. Qed.
+
+(** non-vacuity: a reachable state with a chain of four satisfies the invariant and its hypotheses *)
+Example inv_nonvacuous :
+  let g := cfg_asis 8 in
+  let os := [OOpen; OSetMode (Some RW); OWrite; OSnap 1 true 1; OWrite; OSnap 2 false 2; OSnap 3 false 3;
+             OPrep (Snap 2); ORemove (Snap 2); ORevert (Snap 1) 9; OCrashIn 12 (OSnap 5 false 5); OOpen] in
+  ok_hist g (created g 16384 7) os
+  /\ match s_mem (run_ops g (created g 16384 7) os) with Some m => mchain g m = Some [Head 4; Snap 1] | None => False end.
+Proof. vm_compute. repeat split; auto; try (right; left; split; [tauto | discriminate]); try (left; reflexivity). Qed.
+
+(** ** one failing call: the operations that only rewrite volume.meta, with the write error tested *)
+
+Definition map_outcome {A B} (h : A -> B) (o : outcome A) : outcome B :=
+  match o with Done a => Done (h a) | Crashed => Crashed | Aborted e => Aborted e end.
+
+Lemma exec_bind_ret : forall A B (p : prog A) (h : A -> B) w cnt ca fa,
+  exec (bind p (fun a => Ret (h a))) w cnt ca fa =
+  let '(w1, t, o) := exec p w cnt ca fa in (w1, t, map_outcome h o).
+Proof.
+  induction p as [a | e | c k IH]; intros h w cnt ca fa; cbn [bind exec map_outcome]; try reflexivity.
+  destruct (hits ca cnt); [reflexivity |].
+  destruct (match fails fa cnt with Some e => (w, RErr e) | None => apply_call w c end) as [w1 r].
+  rewrite IH. destruct (exec (k r) w1 (S cnt) ca fa) as [[w2 t] o]. reflexivity.
+Qed.
+
+Lemma exec_lift : forall (p : prog (mem * res)) w cnt ca fa,
+  exec (lift p) w cnt ca fa =
+  let '(w1, t, o) := exec p w cnt ca fa in (w1, t, map_outcome (fun x => (Some (fst x), snd x, O)) o).
+Proof.
+  unfold lift. induction p as [[m e] | e | c k IH]; intros w cnt ca fa; cbn [bind exec map_outcome fst snd]; try reflexivity.
+  destruct (hits ca cnt); [reflexivity |].
+  destruct (match fails fa cnt with Some e => (w, RErr e) | None => apply_call w c end) as [w1 r].
+  rewrite IH. destruct (exec (k r) w1 (S cnt) ca fa) as [[w2 t] o]. reflexivity.
+Qed.
+
+(** encodeToFile with one failing call (the error of the write is tested: [fixed g = true]) *)
+Lemma exec_encode_fault : forall g c n w k e, fixed g = true -> meta_name n -> meta_content c ->
+  let r := exec (encode_to_file g c n) w 0 None (Some (k, e)) in
+  (out_of_run r = Done Ok /\ dir_of_run r = enc_fs w n c)
+  \/ (out_of_run r = Done Failed /\ only_on (eq (tmp_of n)) w (dir_of_run r))
+  \/ (out_of_run r = Done Failed /\ dir_of_run r = enc_fs w n c).
+Proof.
+  intros g c n w k e Hfx Hn Hc. destruct (meta_name_tmp n Hn) as [Hne Himg].
+  assert (Hoo : forall v1 v2, only_on (eq (tmp_of n)) w (set_file (set_file w (tmp_of n) v1) (tmp_of n) v2)).
+  { intros v1 v2 x Hx. rewrite !set_file_neq; auto. }
+  assert (Hoo1 : forall v1, only_on (eq (tmp_of n)) w (set_file w (tmp_of n) v1)).
+  { intros v1 x Hx. rewrite !set_file_neq; auto. }
+  unfold encode_to_file. rewrite Hfx.
+  destruct c; try contradiction;
+  (destruct k as [| [| [| [| [| k]]]]]; cbn [exec hits fails Nat.eqb apply_call]; rewrite ?Himg; cbn [is_err andb exec hits fails Nat.eqb apply_call];
+   rewrite ?set_file_eq; cbn [is_err andb exec hits fails Nat.eqb apply_call sync_dir]; rewrite ?set_file_eq;
+   cbn [is_err andb exec hits fails Nat.eqb apply_call sync_dir out_of_run dir_of_run fst snd];
+   first [ left; split; reflexivity
+         | right; left; split; [reflexivity | first [apply only_on_refl | apply Hoo1 | apply Hoo]]
+         | right; right; split; reflexivity ]).
+Qed.
+
+Theorem fault_atomic_vol : forall g w v i' (h : res -> mem * res) k e,
+  fixed g = true -> recover g w = Some v -> i_head i' = i_head (cv_info v) ->
+  (forall x, snd (h x) = x) ->
+  let p := lift (bind (encode_to_file g (IVol i') Vol) (fun x => Ret (h x))) in
+  let r := exec p w 0 None (Some (k, e)) in
+  let vpost := mkview i' (cv_chain v) in
+  exists vk, recover g (dir_of_run r) = Some vk /\ (vk = v \/ vk = vpost)
+             /\ (out_class (out_of_run r) = COk -> vk = vpost).
+Proof.
+  intros g w v i' h k e Hfx Hrec Hh Hsnd p r vpost.
+  assert (Hr : r = let '(w1, t, o) := exec (encode_to_file g (IVol i') Vol) w 0 None (Some (k, e)) in
+                   (w1, t, map_outcome (fun x => (Some (fst (h x)), snd (h x), O)) o)).
+  { subst r p. rewrite exec_lift. rewrite exec_bind_ret.
+    destruct (exec (encode_to_file g (IVol i') Vol) w 0 None (Some (k, e))) as [[w1 t] o].
+    destruct o as [x | |]; reflexivity. }
+  pose proof (exec_encode_fault g (IVol i') Vol w k e Hfx (or_introl eq_refl) I) as Hcase. cbn zeta in Hcase.
+  destruct (exec (encode_to_file g (IVol i') Vol) w 0 None (Some (k, e))) as [[w1 t] o].
+  unfold out_of_run, dir_of_run in Hcase. cbn [fst snd] in Hcase. rewrite Hr. unfold out_of_run, dir_of_run. cbn [fst snd].
+  destruct Hcase as [[Ho Hw] | [[Ho Hw] | [Ho Hw]]]; subst o.
+  - exists vpost. split; [rewrite Hw; apply recover_vol_rewrite; assumption |]. split; [right; reflexivity | auto].
+  - exists v. split; [| split; [left; reflexivity |]].
+    + eapply recover_only_on; [exact Hrec | exact Hw |]. intros n Hn Hf. cbn in Hn. subst n. exact (footprint_voltmp _ Hf).
+    + cbn [map_outcome out_class]. rewrite Hsnd. discriminate.
+  - exists vpost. split; [rewrite Hw; apply recover_vol_rewrite; assumption |]. split; [right; reflexivity | auto].
+Qed.
+
+(** SetCheckpoint with one failing call, on the repaired encodeToFile *)
+Theorem fault_atomic_checkpoint : forall g w m c k e,
+  fixed g = true -> InvS g (mkst w (Some m)) ->
+  let p := op_prog g (Some m) (OCheckpoint c) in
+  let r := exec p w 0 None (Some (k, e)) in
+  exists vpre vpost vk,
+    recover g w = Some vpre /\ recover g (fst (ff p w)) = Some vpost
+    /\ recover g (dir_of_run r) = Some vk /\ (vk = vpre \/ vk = vpost)
+    /\ (out_class (out_of_run r) = COk -> vk = vpost).
+Proof.
+  intros g w m c k e Hfx Hinv p r. destruct Hinv as [v [Hrec [Hwf [Hfr [Hag Hh]]]]]. cbn [s_fs s_mem] in *.
+  set (i' := set_checkpoint_info (m_info m) c).
+  assert (Hhead : i_head i' = i_head (cv_info v)) by (subst i'; cbn; apply (agree_head g v m Hag)).
+  destruct (fault_atomic_vol g w v i' (fun x => (set_info m i', x)) k e Hfx Hrec Hhead (fun x => eq_refl)) as [vk [H1 [H2 H3]]].
+  exists v, (mkview i' (cv_chain v)), vk. split; [exact Hrec |]. split.
+  - subst p. cbn [op_prog]. unfold lift, set_checkpoint. rewrite ff_bind, ff_bind, ff_encode by (cbn; auto; left; reflexivity).
+    cbn [ff fst]. apply recover_vol_rewrite; assumption.
+  - split; [exact H1 |]. split; [exact H2 | exact H3].
+Qed.
+
+(** ** with the three argument repairs in, every argument value is fine *)
+
+Lemma ok_op_repaired : forall g s o,
+  fix_dup g = true -> fix_rev g = true -> fix_children g = true -> InvS g s -> plain o -> ok_op g s o.
+Proof.
+  intros g [w om] o H1 H2 H3 [v [Hrec [Hwf [Hfr Hmem]]]] Hpl. unfold ok_op. cbn [s_fs s_mem] in *. rewrite Hrec.
+  destruct o; try exact I; try contradiction; destruct om as [m |]; try exact I.
+  - destruct Hmem as [[_ [_ [_ [Hfix _]]]] _]. split; [left; exact H1 | intros Hn; apply Hfix; assumption].
+  - left. exact H2.
+Qed.
+
+Definition shape_ok (o : op) : Prop := match o with OCrashIn _ o' => plain o' | _ => True end.
+
+Lemma ok_hist_repaired : forall g os s,
+  cfg_ok g -> fix_dup g = true -> fix_rev g = true -> fix_children g = true ->
+  InvS g s -> Forall shape_ok os -> ok_hist g s os.
+Proof.
+  intros g os. induction os as [| o t IH]; intros s Hcfg H1 H2 H3 Hinv Hsh; [exact I |].
+  inversion Hsh as [| ? ? Ho Ht]; subst. cbn [ok_hist].
+  assert (Hstep : ok_step g s o).
+  { destruct o; cbn [ok_step shape_ok] in *; try (apply ok_op_repaired; assumption || exact I).
+    split; [exact Ho | apply ok_op_repaired; assumption]. }
+  split; [exact Hstep |]. apply IH; try assumption. apply step_inv; assumption.
+Qed.
